@@ -10,7 +10,7 @@
 
    Relation Rst base pins env s a g (source fenv/rstate vs VM act/gstate):
      Rg_fr / Rg_bij   lookup-based, suffix-closed relation of scopes and frames (StmtRel.v), one-to-one on cells
-     Rg_cap           no captured environment (closures are C07)
+     (the captured environment of the executing function value is never consulted: every name used is a local)
      Rg_out           out g = rout s   (the printed lines are EQUAL)
      Rg_base          the frames below the activation are untouched
      Rg_un / Rg_ns    scopes bind user names only, no shadowing
@@ -30,29 +30,60 @@ From Coq Require Import Lia.
 Open Scope nat_scope.
 
 (* ================================================================ the relation on whole states *)
+Definition strip_cap (env : fenv) : fenv := {| locals := locals env; captured := []; cur := cur env |}.
+
 Definition popn (m : nat) (env : fenv) : fenv :=
   {| locals := skipn m (locals env); captured := captured env; cur := cur env |}.
 
+Lemma assoc_in_fnames : forall (T : ftab) f (r : list str * list stmt), assoc f T = Some r -> In f (fnames T).
+Proof.
+  intros T f r. unfold fnames. induction T as [|[k0 r0] t IH]; cbn [assoc map fst In]; [discriminate|].
+  destruct (str_eqb k0 f) eqn:E; [apply str_eqb_iff in E; intros _; left; exact E|intros H; right; exact (IH H)].
+Qed.
+
 Section Base.
 Variable base : list frame.             (* the frames below the current activation: never touched *)
+Variable FT : ftab.                     (* the module-level functions visible in the current activation *)
+Local Notation funs := (fnames FT).
+Local Notation uname := (StmtRel.uname (fnames FT)).
+Local Notation look := (StmtRel.look (fnames FT)).
+Local Notation Rfr := (StmtRel.Rfr (fnames FT)).
+Local Notation pairs := (StmtRel.pairs (fnames FT)).
+Local Notation bij := (StmtRel.bij (fnames FT)).
+Local Notation pins_ok := (StmtRel.pins_ok (fnames FT)).
+Variable lfuns : list str.              (* those of them that are bound in the activation's own scopes (module level) *)
+(* where the function values live: f -> (source cell, VM cell, captured environment, captured cells) *)
+Variable fcells : list (str * (N * N * list scope * option (list (str * N)))).
+Variable floc : str -> str.             (* the VM name of the function's code *)
+Variable cb : option (list (str * N)).  (* a_cb of the current activation *)
+Hypothesis Hlfuns : forall f, In f lfuns -> In f funs.
+Hypothesis Hfun0 : forall f, In f funs -> uname0 f.
+Hypothesis Hfck : forall f, In f funs <-> assoc f fcells <> None.
 
-(* pinned cells: VM cells that belong to no source variable (the end register L#n of an active `from` loop)
-   and must keep their value *)
-Definition pin_ok (env : fenv) (g : gstate) : N * value -> Prop := pin_ok_ (locals env) (frames g) (cells g).
+Definition fpins : pinset :=
+  {| vpin := fun c' w => exists f c cenv cbf, assoc f fcells = Some (c, c', cenv, cbf) /\ w = VFun (floc f) cbf;
+     spin := fun c v => exists f c' cenv cbf ps body, assoc f fcells = Some (c, c', cenv, cbf) /\
+                                                     assoc f FT = Some (ps, body) /\ v = RClos ps body cenv |}.
+
+Lemma fun_name_neq : forall f x, In f funs -> uname x -> x <> f.
+Proof. intros f x Hf Hx ->. exact (uname_nfun _ Hx Hf). Qed.
+
 
 Section Pins.
-Context {pins : list (N * value)}.
+Context {pins : pinset}.
 
 Record Rg (env : fenv) (s : rstate) (g : gstate) : Prop := {
   Rg_fr : Rfr (store s) (cells g) (locals env) (frames g);
   Rg_bij : bij (locals env) (frames g);
-  Rg_cap : captured env = [];
   Rg_out : out g = rout s;
   Rg_base : skipn (length (locals env)) (frames g) = base;
-  Rg_un : forall x, lookup_scopes x (locals env) <> None -> uname x;
+  Rg_un : forall x, lookup_scopes x (locals env) <> None -> uname x \/ In x lfuns;
   Rg_ns : NS (locals env);
-  Rg_pins : Forall (pin_ok env g) pins;
-  Rg_nd : frames_nd (frames g)
+  Rg_pins : pins_ok pins (locals env) (frames g) (store s) (cells g);
+  Rg_nd : frames_nd (frames g);
+  Rg_fpin : pins_ok fpins (locals env) (frames g) (store s) (cells g);
+  Rg_flook : forall f c c' cenv cbf, assoc f fcells = Some (c, c', cenv, cbf) ->
+             flook cb (captured env) (locals env) (frames g) f c c'
 }.
 
 (* between statements: operand stack empty, special_scopes >= number of open blocks *)
@@ -60,7 +91,8 @@ Definition Rst (env : fenv) (s : rstate) (a : act) (g : gstate) : Prop :=
   Rg env s g /\ a_ops a = [] /\ length (locals env) <= S (a_ss a).
 
 (* B is EXACTLY the set of names bound in the current function's scopes (static scoping is exact in the fragment) *)
-Definition bound_in (B : list str) (env : fenv) : Prop := forall x, lookup_scopes x (locals env) <> None <-> In x B.
+Definition bound_in (B : list str) (env : fenv) : Prop :=
+  (forall x, lookup_scopes x (locals env) <> None <-> In x B \/ In x lfuns) /\ (forall x, In x B -> ~ In x funs).
 
 (* a statement changes only the innermost scope (and the store) *)
 Definition same_tl (env env' : fenv) : Prop := tl (locals env') = tl (locals env) /\ locals env' <> [].
@@ -90,9 +122,10 @@ Definition err_rel_s (f : failure) (e : err) : Prop :=
   | _ => err_rel f e
   end.
 
-(* FType 13 = a non-integer loop counter / bound of a `from` loop (excluded by the type checker): no claim *)
+(* FType 13 = a non-integer loop counter / bound of a `from` loop; FType 3 = the result of a function that returned
+   no value is used (both excluded by the type checker): no claim *)
 Definition fail_post (f : failure) (P : Prop) : Prop :=
-  match f with FType 13%N => True | _ => P end.
+  match f with FType 13%N => True | FType 3%N => True | _ => P end.
 Lemma fail_post_intro : forall f (P : Prop), P -> fail_post f P.
 Proof.
   intros f P H. unfold fail_post. destruct f; try exact H.
@@ -104,21 +137,46 @@ Proof.
   repeat match goal with |- match ?x with _ => _ end => destruct x end; first [exact (HPQ H)|exact Logic.I].
 Qed.
 
-Lemma fail_post_inv : forall f (P : Prop), fail_post f P -> f = FType 13%N \/ P.
+Lemma fail_post_inv : forall f (P : Prop), fail_post f P -> (f = FType 13%N \/ f = FType 3%N) \/ P.
 Proof.
   intros f P H. unfold fail_post in H. destruct f; try (right; exact H).
-  repeat match type of H with match ?x with _ => _ end => destruct x end; first [right; exact H|left; reflexivity].
+  repeat match type of H with match ?x with _ => _ end => destruct x end;
+    first [right; exact H|left; left; reflexivity|left; right; reflexivity].
 Qed.
 
 Lemma err_rel_s_of : forall f e, err_rel f e -> err_rel_s f e.
 Proof. intros f e H. destruct f; cbn in *; auto; contradiction. Qed.
 
+Lemma bound_in_uname : forall B env x, bound_in B env -> uname0 x -> In x B -> uname x.
+Proof. intros B env x [_ H2] H0 Hin. split; [exact H0|exact (H2 x Hin)]. Qed.
+Lemma bound_in_look : forall B env x, bound_in B env -> In x B -> lookup_scopes x (locals env) <> None.
+Proof. intros B env x [H1 _] Hin. apply H1. now left. Qed.
+
+Lemma In_mem_str : forall x l, In x l -> mem_str x l = true.
+Proof.
+  induction l as [|y l IH]; intros H; [destruct H|]. cbn [mem_str]. destruct H as [->|H].
+  - now rewrite str_eqb_refl.
+  - rewrite IH by exact H. apply Bool.orb_true_r.
+Qed.
+Lemma uname_of_b : forall x, src_nameb x = true -> mem_str x funs = false -> uname x.
+Proof.
+  intros x H1 H2. split; [now apply src_nameb_ok|]. intros Hin. apply In_mem_str in Hin. congruence.
+Qed.
+Lemma bound_in_assign : forall B env env' x, bound_in B env -> uname x ->
+  (forall y, lookup_scopes y (locals env') <> None <-> (y = x \/ lookup_scopes y (locals env) <> None)) ->
+  bound_in (x :: B) env'.
+Proof.
+  intros B env env' x [H1 H2] Hx Hl. split.
+  - intros y. rewrite (Hl y), (H1 y). cbn [In]. split; [intros [H|[H|H]]|intros [[H|H]|H]]; auto.
+  - intros y [<-|Hy]; [exact (uname_nfun _ Hx)|exact (H2 y Hy)].
+Qed.
+
 Lemma bound_in_eq : forall B env env', bound_in B env -> locals env' = locals env -> bound_in B env'.
-Proof. intros B env env' H E x. rewrite E. apply H. Qed.
+Proof. intros B env env' [H1 H2] E. split; [intros x; rewrite E; apply H1|exact H2]. Qed.
 
 Lemma Rg_ext : forall env s g g' d lo hi, Rg env s g -> ext d lo hi g g' -> frames_nd (frames g') -> Rg env s g'.
 Proof.
-  intros env s g g' d lo hi [Hfr Hb Hc Ho Hbase Hun Hns Hpins Hnd] He Hnd'.
+  intros env s g g' d lo hi [Hfr Hb Ho Hbase Hun Hns Hpins Hnd Hfp Hfl] He Hnd'.
   destruct (ext_cells _ _ _ _ _ He) as [extra Ec].
   pose proof (ext_labs _ _ _ _ _ He) as Hl. pose proof (ext_tail _ _ _ _ _ He) as Ht.
   pose proof (ext_find _ _ _ _ _ He) as Hf. pose proof (ext_out _ _ _ _ _ He) as Hout.
@@ -127,26 +185,47 @@ Proof.
   destruct fs' as [|f' fs']; [discriminate|].
   cbn [map tl] in Hl, Ht. subst fs'. injection Hl as Hl.
   assert (Hfind : forall x, uname x -> find_in_function x (f' :: fs) = find_in_function x (f :: fs)).
-  { intros x Hx. apply Hf. apply own_reg_not_src. now apply uname_src. }
+  { intros x Hx. apply Hf. apply own_reg_not_src. exact (uname_src _ Hx). }
   constructor; cbn [cells frames out].
   - rewrite <- (app_nil_r (store s)). apply Rfr_mono. eapply Rfr_top; eassumption.
   - eapply bij_top; eassumption.
-  - exact Hc.
   - exact Ho.
   - destruct (locals env) as [|sc l]; [destruct (Rfr_ne _ _ _ _ Hfr); congruence|exact Hbase].
   - exact Hun.
   - exact Hns.
-  - unfold pin_ok in *. cbn [cells frames locals] in *. apply pins_mono_. eapply pins_top_; eassumption.
+  - cbn [cells frames locals] in *. rewrite <- (app_nil_r (store s)). apply pins_mono_. eapply pins_top_; eassumption.
   - exact Hnd'.
+  - cbn [cells frames locals] in *. rewrite <- (app_nil_r (store s)). apply pins_mono_. eapply pins_top_; eassumption.
+  - intros f0 c0 c0' cenv cbf E. cbn [frames] in *. specialize (Hfl f0 c0 c0' cenv cbf E).
+    destruct (locals env) as [|sc l] eqn:El; [destruct (Rfr_ne _ _ _ _ Hfr); congruence|].
+    eapply flook_top; [exact Hfl|reflexivity|]. apply Hf. apply own_reg_not_src.
+    assert (Hin : In f0 funs) by (apply Hfck; congruence). exact (proj1 (Hfun0 f0 Hin)).
 Qed.
 
 Lemma Rg_ne : forall env s g, Rg env s g -> locals env <> [].
 Proof. intros env s g H. exact (proj1 (Rfr_ne _ _ _ _ (Rg_fr _ _ _ H))). Qed.
 
-Lemma Rg_Renv : forall env s a g, Rg env s g -> Renv env s a g.
+Lemma Rg_drop : forall env s g, Rg env s g -> drop_to_function (frames g) = base.
+Proof. intros env s g H. rewrite (Rfr_drop _ _ _ _ (Rg_fr _ _ _ H)). exact (Rg_base _ _ _ H). Qed.
+
+Lemma Rg_Renv : forall env s a g, Rg env s g -> Renv (strip_cap env) s a g.
 Proof.
-  intros env s a g [Hfr _ Hc _ _ Hun _ _ _] x c v _ Hl Hg Hfo. rewrite Hc, app_nil_r in Hl.
-  assert (Hx : uname x) by (apply Hun; congruence).
+  intros env s a g [Hfr _ _ _ Hun _ _ _ Hfp Hfl] x c v _ Hl Hg Hfo. cbn [strip_cap locals captured] in Hl. rewrite app_nil_r in Hl.
+  assert (Hx : uname x).
+  { destruct (Hun x ltac:(congruence)) as [Hx|Hx]; [exact Hx|exfalso].
+    (* a function name: its cell holds a closure, not a first-order value *)
+    apply Hlfuns in Hx. pose proof (proj1 (Hfck x) Hx) as Hne.
+    destruct (assoc x fcells) as [[[[c0 c0'] cenv] cbf]|] eqn:E; [|congruence].
+    assert (Hl0 : 0 < length (locals env)) by (destruct (locals env); [discriminate|cbn; lia]).
+    destruct (Hfl x c0 c0' cenv cbf E 0 Hl0) as [H1 _]. cbn [skipn] in H1.
+    rewrite (lookup_app_some _ _ (captured env) _ Hl) in H1. inversion H1; subst c0.
+    assert (Hft : exists ps body, assoc x FT = Some (ps, body)).
+    { clear -Hx. unfold fnames in Hx. induction FT as [|[k [ps body]] t IH]; [destruct Hx|]. cbn [map fst In assoc] in *.
+      destruct (str_eqb k x) eqn:Ek; [eexists; eexists; reflexivity|]. destruct Hx as [->|Hx]; [now rewrite str_eqb_refl in Ek|auto]. }
+    destruct Hft as (ps & body & Hft).
+    destruct (proj2 Hfp c (RClos ps body cenv)) as [Hv _].
+    { cbn [fpins spin]. exists x, c0', cenv, cbf, ps, body. auto. }
+    unfold sget in Hg. rewrite Hv in Hg. inversion Hg; subst v. exact Hfo. }
   pose proof (Rfr_look _ _ _ _ Hfr x Hx) as H. rewrite Hl in H.
   destruct (find_in_function x (frames g)) as [c'|] eqn:E; [|contradiction]. cbn [orel] in H.
   destruct H as (v0 & H1 & _ & H2). unfold sget in Hg. rewrite H1 in Hg. inversion Hg; subst v0.
@@ -155,11 +234,11 @@ Qed.
 
 Lemma Rg_var_ok : forall env s g x, Rg env s g -> uname x -> lookup_scopes x (locals env) <> None -> var_ok env s x.
 Proof.
-  intros env s g x [Hfr _ Hc _ _ _ _ _ _] Hx Hb. split; [now apply uname_src|].
+  intros env s g x [Hfr _ _ _ _ _ _ _ _ _] Hx Hb. split; [exact (uname_src _ Hx)|].
   pose proof (Rfr_look _ _ _ _ Hfr x Hx) as H.
   destruct (lookup_scopes x (locals env)) as [c|] eqn:E; [|congruence].
   destruct (find_in_function x (frames g)) as [c'|]; [|contradiction]. destruct H as (v & H1 & Hf & _).
-  exists c, v. rewrite Hc, app_nil_r. auto.
+  exists c, v. split; [now apply lookup_app_some|auto].
 Qed.
 
 (* a bound source variable: both sides find it, in related cells *)
@@ -168,13 +247,13 @@ Lemma Rg_lookup : forall env s g x, Rg env s g -> uname x -> lookup_scopes x (lo
                  pairs (locals env) (frames g) c c' /\
                  sget s c = Some v /\ first_order v /\ cell_get g c' = Some (inj v).
 Proof.
-  intros env s g x [Hfr _ _ _ _ _ _ _ _] Hx Hb.
+  intros env s g x [Hfr _ _ _ _ _ _ _ _ _] Hx Hb.
   pose proof (Rfr_look _ _ _ _ Hfr x Hx) as H.
   destruct (lookup_scopes x (locals env)) as [c|] eqn:E; [|congruence].
   destruct (find_in_function x (frames g)) as [c'|] eqn:E'; [|contradiction]. destruct H as (v & H1 & Hf & H2).
   exists c, c', v. repeat split; try assumption.
   destruct (locals env) as [|sc l]; [discriminate|]. destruct (frames g) as [|f fs]; [discriminate|].
-  cbn [pairs]. left. exists x. auto.
+  cbn [StmtRel.pairs]. left. exists x. auto.
 Qed.
 
 (* ---------------------------------------------------------------- x = v : assign vs store_var *)
@@ -184,7 +263,7 @@ Lemma store_rel : forall env s g x v env' s', Rg env s g -> uname x -> first_ord
              (forall y, lookup_scopes y (locals env') <> None <-> (y = x \/ lookup_scopes y (locals env) <> None)) /\
              tl (frames g') = tl (frames g).
 Proof.
-  intros [l cap cu] [st ro] [cs fs o tr] x v env' s' [Hfr Hb Hc Ho Hbase Hun Hns Hpins Hnd] Hx Hfo Ha.
+  intros [l cap cu] [st ro] [cs fs o tr] x v env' s' [Hfr Hb Ho Hbase Hun Hns Hpins Hnd Hfp Hfl] Hx Hfo Ha.
   cbn [locals captured store rout cells frames out] in *.
   pose proof (Rfr_look _ _ _ _ Hfr x Hx) as Hl. unfold assign in Ha. unfold store_var.
   cbn [locals frames] in *.
@@ -192,13 +271,14 @@ Proof.
     cbn [orel] in Hl; try contradiction.
   - inversion Ha; subst env' s'. eexists. split; [reflexivity|].
     assert (Hp : pairs l fs cx cx').
-    { destruct l as [|sc l]; [discriminate|]. destruct fs as [|f fs]; [discriminate|]. cbn [pairs]. left. exists x. auto. }
+    { destruct l as [|sc l]; [discriminate|]. destruct fs as [|f fs]; [discriminate|]. cbn [StmtRel.pairs]. left. exists x. auto. }
     destruct (cellrel_valid _ _ _ _ Hl) as [V1 V2].
     split; [|split; [apply same_tl_refl; cbn [locals]; destruct l; [discriminate|discriminate]|split; [|reflexivity]]].
     2:{ intros y. cbn [locals]. split; [auto|]. intros [->|H]; [congruence|exact H]. }
     constructor; cbn [sset cell_set store cells frames out rout locals captured]; try assumption.
     + apply Rfr_update; try assumption. intros cy cy' Hq. exact (Hb _ _ _ _ Hq Hp).
-    + unfold pin_ok in *. cbn [cells frames locals cell_set] in *. eapply pins_update_; eassumption.
+    + eapply pins_update_; eassumption.
+    + eapply pins_update_; eassumption.
   - destruct l as [|sc l]; [destruct (Rfr_ne _ _ _ _ Hfr); congruence|].
     destruct fs as [|f fs]; [cbn in Hfr; contradiction|].
     unfold declare, alloc in Ha. cbn [locals store rout captured cur] in Ha. inversion Ha; subst env' s'.
@@ -207,11 +287,16 @@ Proof.
     + constructor; cbn [store cells frames out rout locals captured]; try assumption.
       * apply Rfr_declare; assumption.
       * apply (bij_declare st cs); assumption.
-      * intros y Hy. cbn [lookup_scopes] in Hy. destruct (list_eq_dec N.eq_dec y x) as [->|Hne]; [exact Hx|].
+      * intros y Hy. cbn [lookup_scopes] in Hy. destruct (list_eq_dec N.eq_dec y x) as [->|Hne]; [left; exact Hx|].
         rewrite assoc_set_other in Hy by exact Hne. apply Hun. exact Hy.
       * apply NS_declare; assumption.
-      * unfold pin_ok in *. cbn [cells frames locals] in *. apply pins_declare_. exact Hpins.
+      * apply pins_declare_. exact Hpins.
       * apply (nd_top f fs); [exact Hnd|]. apply keys_nd_assoc_set. inversion Hnd; assumption.
+      * apply pins_declare_. exact Hfp.
+      * intros f0 c0 c0' cenv cbf E. specialize (Hfl f0 c0 c0' cenv cbf E).
+        assert (Hne : f0 <> x) by (intros ->; apply (uname_nfun _ Hx); apply Hfck; congruence).
+        eapply flook_top; [exact Hfl|now rewrite assoc_set_other|].
+        cbn [find_in_function vars lab]. now rewrite assoc_set_other.
     + split; [reflexivity|discriminate].
     + intros y. cbn [lookup_scopes]. destruct (list_eq_dec N.eq_dec y x) as [->|Hne].
       * rewrite assoc_set_same. split; [auto|discriminate].
@@ -223,24 +308,27 @@ Qed.
 Lemma update_rel : forall env s g c c' v, Rg env s g -> pairs (locals env) (frames g) c c' -> first_order v ->
   Rg env (sset s c v) (cell_set g c' (inj v)).
 Proof.
-  intros [l cap cu] [st ro] [cs fs o tr] c c' v [Hfr Hb Hc Ho Hbase Hun Hns Hpins Hnd] Hp Hfo.
+  intros [l cap cu] [st ro] [cs fs o tr] c c' v [Hfr Hb Ho Hbase Hun Hns Hpins Hnd Hfp Hfl] Hp Hfo.
   cbn [locals captured store rout cells frames out] in *.
   destruct (cellrel_valid _ _ _ _ (pairs_cellrel _ _ _ _ _ _ Hfr Hp)) as [V1 V2].
   constructor; cbn [sset cell_set store cells frames out rout locals captured]; try assumption.
   - apply Rfr_update; try assumption. intros cy cy' Hq. exact (Hb _ _ _ _ Hq Hp).
-  - unfold pin_ok in *. cbn [cells frames locals cell_set] in *. eapply pins_update_; eassumption.
+  - eapply pins_update_; eassumption.
+  - eapply pins_update_; eassumption.
 Qed.
 
 (* ---------------------------------------------------------------- blocks: push / pop *)
 Lemma push_rel : forall env s g lb, Rg env s g -> special lb = true -> Rg (push_scope env) s (push_frame g lb).
 Proof.
-  intros [l cap cu] [st ro] [cs fs o tr] lb [Hfr Hb Hc Ho Hbase Hun Hns Hpins Hnd] Hs.
+  intros [l cap cu] [st ro] [cs fs o tr] lb [Hfr Hb Ho Hbase Hun Hns Hpins Hnd Hfp Hfl] Hs.
   constructor; cbn [push_scope push_frame with_frames locals captured store rout cells frames out] in *; try assumption.
   - apply Rfr_push; assumption.
   - apply bij_push; assumption.
   - apply NS_push; assumption.
-  - unfold pin_ok in *. cbn [cells frames locals] in *. apply pins_push_; assumption.
+  - apply pins_push_; assumption.
   - constructor; [constructor|exact Hnd].
+  - apply pins_push_; assumption.
+  - intros f0 c0 c0' cenv cbf E. apply flook_push; [exact (Hfl _ _ _ _ _ E)|exact (proj1 (Rfr_ne _ _ _ _ Hfr))|exact Hs].
 Qed.
 
 Lemma popn_rel : forall m env s g, Rg env s g -> m < length (locals env) ->
@@ -249,7 +337,7 @@ Lemma popn_rel : forall m env s g, Rg env s g -> m < length (locals env) ->
 Proof.
   induction m as [|m IH]; intros env s g HR Hm.
   - exists g. split; [reflexivity|]. split; [|auto]. destruct env, HR. constructor; assumption.
-  - destruct env as [l cap cu], s as [st ro], g as [cs fs o tr]. destruct HR as [Hfr Hb Hc Ho Hbase Hun Hns Hpins Hnd].
+  - destruct env as [l cap cu], s as [st ro], g as [cs fs o tr]. destruct HR as [Hfr Hb Ho Hbase Hun Hns Hpins Hnd Hfp Hfl].
     cbn [locals captured store rout cells frames out] in *.
     destruct l as [|sc l]; [cbn in Hm; lia|]. destruct l as [|sc' l]; [cbn in Hm; lia|].
     destruct fs as [|f fs]; [cbn in Hfr; contradiction|].
@@ -261,18 +349,20 @@ Proof.
       * eapply bij_pop; exact Hb.
       * intros y Hy. apply Hun. cbn [lookup_scopes] in Hy |- *. destruct (assoc y sc); [discriminate|exact Hy].
       * exact (proj2 Hns).
-      * unfold pin_ok in *. cbn [cells frames locals] in *. eapply pins_pop_; exact Hpins.
+      * eapply pins_pop_; exact Hpins.
       * inversion Hnd; assumption.
+      * eapply pins_pop_; exact Hfp.
+      * intros f0 c0 c0' cenv cbf E. eapply flook_pop. exact (Hfl _ _ _ _ _ E).
     + cbn [locals length] in *. lia.
     + exists g'. split; [exact E|]. split; [exact HR'|]. auto.
 Qed.
 
 Lemma Rg_trc : forall env s g name a i, Rg env s g -> Rg env s (trc name a g i).
-Proof. intros env s g name a i [A B C D E F G H I0]. constructor; assumption. Qed.
+Proof. intros env s g name a i [A B D E F G H I0 J K]. constructor; assumption. Qed.
 
 Lemma print_rel : forall env s g l, Rg env s g -> Rg env (sprint s l) (emit_line g l).
 Proof.
-  intros env s g l [A B C D E F G H I0]. constructor; cbn [sprint emit_line store cells frames out rout]; try assumption.
+  intros env s g l [A B D E F G H I0 J K]. constructor; cbn [sprint emit_line store cells frames out rout]; try assumption.
   now rewrite D.
 Qed.
 
@@ -380,12 +470,154 @@ Proof. reflexivity. Qed.
 Lemma exec_block_nil : forall fuel env s, exec_block (S fuel) env [] s = SOk SigNormal env s.
 Proof. reflexivity. Qed.
 
+  (* ---------------------------------------------------------------- a call-free expression only looks at its variables *)
+  Definition res_to (r : eres) (s' : rstate) : eres :=
+    match r with EVal v _ => EVal v s' | ENoVal _ => ENoVal s' | EFail f _ => EFail f s' | EFuel => EFuel end.
+  Definition res_st (r : eres) (s : rstate) : Prop :=
+    match r with EVal _ s0 | ENoVal s0 | EFail _ s0 => s0 = s | EFuel => True end.
+  Definition agree (env : fenv) (s : rstate) (env' : fenv) (s' : rstate) (x : str) : Prop :=
+    exists c c' v, lookup_scopes x (locals env ++ captured env) = Some c /\ sget s c = Some v /\
+                   lookup_scopes x (locals env' ++ captured env') = Some c' /\ sget s' c' = Some v.
+
+  Lemma binop_sem_to : forall o a b s s', res_st (binop_sem o a b s) s /\ binop_sem o a b s' = res_to (binop_sem o a b s) s'.
+  Proof.
+    intros o a b s s'. destruct o, a, b; cbn [binop_sem req rshow]; unfold arith_res;
+      repeat match goal with |- context [if ?c then _ else _] => destruct c end;
+      repeat match goal with |- context [match ?c with _ => _ end] => destruct c end; split; reflexivity.
+  Qed.
+
+  Definition congr_spec (e : expr) : Prop :=
+    forall fuel env s env' s', (forall x, In x (used_e e) -> agree env s env' s' x) ->
+      res_st (eval fuel env e s) s /\ eval fuel env' e s' = res_to (eval fuel env e s) s'.
+
+  Ltac congr_sub IH Hv fuel env s env' s' r :=
+    let H1 := fresh "H1" in let H2 := fresh "H2" in
+    destruct (IH fuel env s env' s' Hv) as [H1 H2]; rewrite H2; clear H2;
+    destruct (eval fuel env r s) as [? ?|?|? ?|]; cbn [res_st res_to] in *; try subst;
+    try (split; reflexivity).
+
+  Theorem eval_pure_congr : forall e, pure e = true -> congr_spec e.
+  Proof.
+    induction e; intros Hp; cbn [pure] in Hp; try discriminate;
+      try (apply Bool.andb_true_iff in Hp as [Hp1 Hp2]);
+      intros fuel env sA env' sB Hv; (destruct fuel as [|fuel]; [split; reflexivity|]).
+    - split; reflexivity.
+    - split; reflexivity.
+    - split; reflexivity.
+    - split; reflexivity.
+    - rewrite !eval_EVar. destruct (Hv x (or_introl eq_refl)) as (c0 & c0' & v & E1 & E2 & E3 & E4).
+      rewrite E1, E2, E3, E4. split; reflexivity.
+    - rewrite !eval_EBin. rewrite used_e_bin in Hv.
+      assert (Hva : forall x, In x (used_e e1) -> agree env sA env' sB x) by (intros x Hx; apply Hv, in_or_app; now left).
+      assert (Hvb : forall x, In x (used_e e2) -> agree env sA env' sB x) by (intros x Hx; apply Hv, in_or_app; now right).
+      congr_sub (IHe1 Hp1) Hva fuel env sA env' sB e1.
+      congr_sub (IHe2 Hp2) Hvb fuel env sA env' sB e2.
+      apply binop_sem_to.
+    - rewrite !eval_EAnd. rewrite used_e_and in Hv.
+      assert (Hva : forall x, In x (used_e e1) -> agree env sA env' sB x) by (intros x Hx; apply Hv, in_or_app; now left).
+      assert (Hvb : forall x, In x (used_e e2) -> agree env sA env' sB x) by (intros x Hx; apply Hv, in_or_app; now right).
+      congr_sub (IHe1 Hp1) Hva fuel env sA env' sB e1.
+      destruct v as [?|[|]|?| |? ? ?]; try (split; reflexivity).
+      congr_sub (IHe2 Hp2) Hvb fuel env sA env' sB e2.
+      destruct v; split; reflexivity.
+    - rewrite !eval_EOr. rewrite used_e_or in Hv.
+      assert (Hva : forall x, In x (used_e e1) -> agree env sA env' sB x) by (intros x Hx; apply Hv, in_or_app; now left).
+      assert (Hvb : forall x, In x (used_e e2) -> agree env sA env' sB x) by (intros x Hx; apply Hv, in_or_app; now right).
+      congr_sub (IHe1 Hp1) Hva fuel env sA env' sB e1.
+      destruct v as [?|[|]|?| |? ? ?]; try (split; reflexivity).
+      congr_sub (IHe2 Hp2) Hvb fuel env sA env' sB e2.
+      destruct v; split; reflexivity.
+    - rewrite !eval_ENot. rewrite used_e_not in Hv.
+      congr_sub (IHe Hp) Hv fuel env sA env' sB e.
+      destruct v; split; reflexivity.
+    - rewrite !eval_ENeg. rewrite used_e_neg in Hv.
+      congr_sub (IHe Hp) Hv fuel env sA env' sB e.
+      destruct v; try (split; reflexivity). unfold arith_res. destruct (i32_ok (- z)); split; reflexivity.
+    - rewrite !eval_ENilOr. rewrite used_e_nilor in Hv.
+      assert (Hva : forall x, In x (used_e e1) -> agree env sA env' sB x) by (intros x Hx; apply Hv, in_or_app; now left).
+      assert (Hvb : forall x, In x (used_e e2) -> agree env sA env' sB x) by (intros x Hx; apply Hv, in_or_app; now right).
+      congr_sub (IHe1 Hp1) Hva fuel env sA env' sB e1.
+      destruct v; try (split; reflexivity). exact (IHe2 Hp2 fuel env sA env' sB Hvb).
+    - rewrite !eval_EGet. rewrite used_e_get in Hv.
+      congr_sub (IHe Hp) Hv fuel env sA env' sB e.
+      destruct v; split; reflexivity.
+  Qed.
+
+(* ================================================================ calls in the reference semantics *)
+Definition call_clos_ (fuel : nat) (f : rvalue) (vs : list rvalue) (s : rstate) : eres :=
+  match f with
+  | RClos ps body cenv =>
+    match bind_params ps vs s [] with
+    | None => EFail (FType 4) s
+    | Some (sc, s) =>
+      match exec_block fuel {| locals := [sc]; captured := cenv; cur := Some f |} body s with
+      | SOk (SigReturn (Some v)) _ s => EVal v s
+      | SOk _ _ s => ENoVal s
+      | SFailed f s => EFail f s
+      | SFuel => EFuel end
+    end
+  | _ => EFail (FType 5) s end.
+
+Section Evals.
+  Variables (fuel : nat) (e : fenv).
+  Fixpoint evals_ (l : list expr) (s : rstate) (acc : list rvalue) : (list rvalue * rstate) + eres :=
+    match l with
+    | [] => inl (rev acc, s)
+    | a :: l => match eval fuel e a s with
+                | EVal v s => evals_ l s (v :: acc)
+                | ENoVal s => inr (EFail (FType 3) s)
+                | r => inr r end
+    end.
+End Evals.
+
+Lemma eval_ECall : forall fuel e f l s, eval (S fuel) e (ECall f l) s =
+  match eval fuel e f s with
+  | EVal vf s => match evals_ fuel e l s [] with
+                 | inl (vs, s) => call_clos_ fuel vf vs s
+                 | inr r => r end
+  | ENoVal s => EFail (FType 3) s | r => r end.
+Proof. reflexivity. Qed.
+Lemma eval_ESelf : forall fuel e l s, eval (S fuel) e (ESelf l) s =
+  match evals_ fuel e l s [] with
+  | inl (vs, s) => match cur e with Some f => call_clos_ fuel f vs s | None => EFail (FType 8) s end
+  | inr r => r end.
+Proof. reflexivity. Qed.
+
 (* ================================================================ the simulation *)
 Section Sim.
+  Variable prog : program.
   Variable name : str.
   Variable code : list instr.
   Variable c : nat.                        (* the statement-level register counter (the same at every nesting depth) *)
-  Hypothesis Hsmall : small (c + length code + 4).
+  Hypothesis Hsmall : small (c + 2 * length code + 8).
+
+  (* ---------------------------------------------------------------- calls: what the callee (run_fn on the compiled
+     function) must do for a call the reference semantics makes with `fuel` (hypothesis for fuel < FU: the specs
+     below are for fuel <= FU, so that recursion can be closed by induction on FU) *)
+  Definition val_keep (s s' : rstate) (g g' : gstate) : Prop :=
+    frames g' = frames g /\ out g' = rout s' /\
+    (forall c0 v, sget s c0 = Some v -> sget s' c0 = Some v) /\
+    (forall c0 w, cell_get g c0 = Some w -> cell_get g' c0 = Some w).
+  Definition fvals (s : rstate) (g : gstate) : Prop :=
+    (forall cy w, vpin fpins cy w -> cell_get g cy = Some w) /\ (forall c0 v, spin fpins c0 v -> sget s c0 = Some v).
+
+  Definition call_ok (fuel : nat) : Prop :=
+    forall f ps body c0 c0' cenv cbf vs s g1,
+      assoc f FT = Some (ps, body) -> assoc f fcells = Some (c0, c0', cenv, cbf) ->
+      Forall first_order vs -> length vs = length ps ->
+      out g1 = rout s -> frames_nd (frames g1) -> fvals s g1 ->
+      match call_clos_ fuel (RClos ps body cenv) vs s with
+      | EVal v s' => first_order v /\ exists fuel' g2,
+            run_fn fuel' prog (floc f) (map inj vs) cbf g1 = RDone (Some (inj v)) g2 /\ val_keep s s' g1 g2
+      | ENoVal s' => exists fuel' g2,
+            run_fn fuel' prog (floc f) (map inj vs) cbf g1 = RDone None g2 /\ val_keep s s' g1 g2
+      | EFail fl s' => fail_post fl (exists fuel' e g2,
+            run_fn fuel' prog (floc f) (map inj vs) cbf g1 = RFail e g2 /\ err_rel_s fl e /\ out g2 = rout s')
+      | EFuel => True
+      end.
+
+  Variable FU : nat.
+  Hypothesis Hcall : forall fuel', fuel' < FU -> call_ok fuel'.
 
   (* what a compiled item is in the final code: break / continue placeholders become jmp_pop to the loop's
      break target bt / continue target ct (that is what `resolve` does, see items_at_resolve) *)
@@ -419,24 +651,27 @@ Section Sim.
   Qed.
 
   (* ---------------------------------------------------------------- the statement carried by the induction *)
-  Definition post (pins : list (N * value)) (sl : option nat) (bt ct fin : nat) (B' : list str) (env : fenv) (fs0 : list frame)
+  Definition post (pins : pinset) (sl : option nat) (bt ct fin : nat) (B' : list str) (env : fenv) (fs0 : list frame)
              (a : act) (g : gstate) (r : sres_) : Prop :=
     match r with
     | SOk sig env' s' =>
       same_tl env env' /\
       match sig with
       | SigNormal => bound_in B' env' /\
-          exists a' g', xrun name code a g a' g' /\ a_ip a' = fin /\ Rst pins env' s' a' g' /\ act_same a a' /\
+          exists a' g', xrun prog name code a g a' g' /\ a_ip a' = fin /\ Rst pins env' s' a' g' /\ act_same a a' /\
                         tl (frames g') = tl fs0
       | SigBreak => exists m a' g', sl = Some m /\
-          xrun name code a g a' g' /\ a_ip a' = bt /\ Rst pins (popn m env') s' a' g' /\ act_same a a' /\
+          xrun prog name code a g a' g' /\ a_ip a' = bt /\ Rst pins (popn m env') s' a' g' /\ act_same a a' /\
           frames g' = skipn m fs0
       | SigContinue => exists m a' g', sl = Some m /\
-          xrun name code a g a' g' /\ a_ip a' = ct /\ Rst pins (popn (m - 1) env') s' a' g' /\ act_same a a' /\
+          xrun prog name code a g a' g' /\ a_ip a' = ct /\ Rst pins (popn (m - 1) env') s' a' g' /\ act_same a a' /\
           tl (frames g') = skipn m fs0
-      | SigReturn _ => False
+      | SigReturn None => False
+      | SigReturn (Some v) => exists env'' a' g',
+          xrun prog name code a g a' g' /\ nth_error code (a_ip a') = Some (mkI OP_RET []) /\
+          a_ops a' = [inj v] /\ first_order v /\ Rg pins env'' s' g' /\ act_same a a'
       end
-    | SFailed f s' => fail_post f (exists e g', xfail name code a g e g' /\ err_rel_s f e /\ out g' = rout s')
+    | SFailed f s' => fail_post f (exists e g', xfail prog name code a g e g' /\ err_rel_s f e /\ out g' = rout s')
     | SFuel => True
     end.
 
@@ -447,54 +682,84 @@ Section Sim.
                              m + hi <= length code.
 
   Definition stmt_spec (st : stmt) : Prop :=
-    forall pins lr il sl bt ct fuel k a g env s B,
-      ok_stmt il B st = true -> bound_in B env ->
+    forall pins lr il sl bt ct fuel k a g env s B, fuel <= FU ->
+      ok_stmt FT il B st = true -> bound_in B env ->
       items_at bt ct k (sitems c lr sl st) -> k + length (sitems c lr sl st) < length code ->
       lc_ok il sl bt ct env (k + length (sitems c lr sl st)) ->
-      a_ip a = k -> Rst pins env s a g ->
+      a_ip a = k -> a_cb a = cb -> Rst pins env s a g ->
       post pins sl bt ct (k + length (sitems c lr sl st)) (after B st) env (frames g) a g (Eval.exec fuel env st s).
 
   Fixpoint after_l (B : list str) (l : list stmt) : list str :=
     match l with [] => B | st :: l => after_l (after B st) l end.
 
   Definition block_spec (l : list stmt) : Prop :=
-    forall pins lr il sl bt ct fuel k a g env s B,
-      ok_block il B l = true -> bound_in B env ->
+    forall pins lr il sl bt ct fuel k a g env s B, fuel <= FU ->
+      ok_block FT il B l = true -> bound_in B env ->
       items_at bt ct k (bitems c lr sl l) -> k + length (bitems c lr sl l) < length code ->
       lc_ok il sl bt ct env (k + length (bitems c lr sl l)) ->
-      a_ip a = k -> Rst pins env s a g ->
+      a_ip a = k -> a_cb a = cb -> Rst pins env s a g ->
       post pins sl bt ct (k + length (bitems c lr sl l)) (after_l B l) env (frames g) a g (exec_block fuel env l s).
 
   (* ---------------------------------------------------------------- expressions (ExprSim.sim_pure) *)
-  Lemma expr_run_gen : forall pins e d fuel k a g env s,
+  Lemma expr_run_ext : forall pins e d fuel k a g env s,
     pure e = true -> lits_ok e = true ->
-    (forall x, In x (used_e e) -> uname x /\ lookup_scopes x (locals env) <> None) -> d <= S c ->
+    (forall x, In x (used_e e) -> uname x /\ lookup_scopes x (locals env) <> None) -> d <= c + length code + 2 ->
     code_at code k (pcode d e) -> k + length (pcode d e) < length code ->
     a_ip a = k -> a_ops a = [] -> Rg pins env s g ->
     match eval fuel env e s with
     | EVal v s' => s' = s /\ first_order v /\
-                   exists g', xrun name code a g (upd a (k + length (pcode d e)) [inj v]) g' /\ Rg pins env s g' /\
-                              tl (frames g') = tl (frames g)
-    | EFail f s' => s' = s /\ exists e0 g', xfail name code a g e0 g' /\ err_rel f e0 /\ out g' = rout s
+                   exists g', xrun prog name code a g (upd a (k + length (pcode d e)) [inj v]) g' /\ Rg pins env s g' /\
+                              ext d k (k + length (pcode d e)) g g'
+    | EFail f s' => s' = s /\ exists e0 g', xfail prog name code a g e0 g' /\ err_rel f e0 /\ out g' = rout s
     | EFuel => True
     | ENoVal _ => False
     end.
   Proof.
     intros pins e d fuel k a g env s Hp Hl Hu Hd Hc Hend Hip Hops HR.
-    assert (Hv : forall x, In x (used_e e) -> var_ok env s x).
-    { intros x Hx. destruct (Hu x Hx) as [Hs Hin]. eapply Rg_var_ok; [exact HR|exact Hs|exact Hin]. }
+    set (env0 := strip_cap env).
+    assert (Hv : forall x, In x (used_e e) -> var_ok env0 s x).
+    { intros x Hx. destruct (Hu x Hx) as [Hs Hin].
+      destruct (Rg_lookup env s g x HR Hs Hin) as (c0 & c0' & v & E1 & _ & _ & E3 & Hfo & _).
+      split; [exact (uname_src _ Hs)|]. exists c0, v. cbn [env0 strip_cap locals captured]. rewrite app_nil_r. auto. }
+    assert (Hag : forall x, In x (used_e e) -> agree env0 s env s x).
+    { intros x Hx. destruct (Hu x Hx) as [Hs Hin].
+      destruct (Rg_lookup env s g x HR Hs Hin) as (c0 & c0' & v & E1 & _ & _ & E3 & _).
+      exists c0, c0, v. cbn [env0 strip_cap locals captured]. rewrite app_nil_r. split; [exact E1|]. split; [exact E3|].
+      split; [now apply lookup_app_some|exact E3]. }
+    destruct (eval_pure_congr e Hp fuel env0 s env s Hag) as [Hst0 Ecg]. rewrite Ecg.
     assert (Hsm : small (d + length (pcode d e) + 3)) by (eapply small_le; [|exact Hsmall]; lia).
     assert (Hfr : frames g <> []) by (destruct (Rfr_ne _ _ _ _ (Rg_fr _ _ _ HR)); assumption).
-    pose proof (sim_pure name code e Hp d fuel k a g env s Hl Hv Hsm Hc Hend Hip Hops Hfr (Rg_Renv env s a g HR)) as H.
-    destruct (eval fuel env e s) as [v s1|s1|f s1|]; cbn [sim_post] in H; [|contradiction| |exact Logic.I].
+    pose proof (sim_pure name code e Hp d fuel k a g env0 s Hl Hv Hsm Hc Hend Hip Hops Hfr (Rg_Renv env s a g HR)) as H.
+    destruct (eval fuel env0 e s) as [v s1|s1|f s1|]; cbn [sim_post res_to] in H |- *; [|contradiction| |exact Logic.I].
     - destruct H as (-> & Hfo & g' & R). split; [reflexivity|]. split; [exact Hfo|]. exists g'. split.
       + eapply run_ok_xrun. exact R.
-      + split; [eapply Rg_ext; [exact HR|exact (proj2 R)|]|exact (ext_tail _ _ _ _ _ (proj2 R))].
-        eapply xrun_nd; [eapply run_ok_xrun; exact R|exact (Rg_nd _ _ _ HR)].
+      + split; [eapply Rg_ext; [exact HR|exact (proj2 R)|]|exact (proj2 R)].
+        eapply xreach_nd; [apply reaches_xreach_running; exact (proj1 R)|exact (Rg_nd _ _ _ HR)].
     - destruct H as (-> & e0 & g' & R & Hr & He). split; [reflexivity|]. exists e0, g'. split; [|split].
-      + now apply reaches_xreach_failed.
+      + now apply reaches_xfail.
       + exact Hr.
       + rewrite (ext_out _ _ _ _ _ He). exact (Rg_out _ _ _ HR).
+  Qed.
+
+  Lemma expr_run_gen : forall pins e d fuel k a g env s,
+    pure e = true -> lits_ok e = true ->
+    (forall x, In x (used_e e) -> uname x /\ lookup_scopes x (locals env) <> None) -> d <= c + length code + 2 ->
+    code_at code k (pcode d e) -> k + length (pcode d e) < length code ->
+    a_ip a = k -> a_ops a = [] -> Rg pins env s g ->
+    match eval fuel env e s with
+    | EVal v s' => s' = s /\ first_order v /\
+                   exists g', xrun prog name code a g (upd a (k + length (pcode d e)) [inj v]) g' /\ Rg pins env s g' /\
+                              tl (frames g') = tl (frames g)
+    | EFail f s' => s' = s /\ exists e0 g', xfail prog name code a g e0 g' /\ err_rel f e0 /\ out g' = rout s
+    | EFuel => True
+    | ENoVal _ => False
+    end.
+  Proof.
+    intros pins e d fuel k a g env s Hp Hl Hu Hd Hc Hend Hip Hops HR.
+    pose proof (expr_run_ext pins e d fuel k a g env s Hp Hl Hu Hd Hc Hend Hip Hops HR) as H.
+    destruct (eval fuel env e s) as [v s1|s1|f s1|]; try exact H.
+    destruct H as (-> & Hfo & g' & R & HG & He). split; [reflexivity|]. split; [exact Hfo|]. exists g'.
+    split; [exact R|]. split; [exact HG|exact (ext_tail _ _ _ _ _ He)].
   Qed.
 
   Lemma expr_run : forall pins e d fuel k a g env s B,
@@ -503,22 +768,22 @@ Section Sim.
     a_ip a = k -> a_ops a = [] -> Rg pins env s g ->
     match eval fuel env e s with
     | EVal v s' => s' = s /\ first_order v /\
-                   exists g', xrun name code a g (upd a (k + length (pcode d e)) [inj v]) g' /\ Rg pins env s g' /\
+                   exists g', xrun prog name code a g (upd a (k + length (pcode d e)) [inj v]) g' /\ Rg pins env s g' /\
                               tl (frames g') = tl (frames g)
-    | EFail f s' => s' = s /\ exists e0 g', xfail name code a g e0 g' /\ err_rel f e0 /\ out g' = rout s
+    | EFail f s' => s' = s /\ exists e0 g', xfail prog name code a g e0 g' /\ err_rel f e0 /\ out g' = rout s
     | EFuel => True
     | ENoVal _ => False
     end.
   Proof.
     intros pins e d fuel k a g env s B Hok Hb Hd Hc Hend Hip Hops HR.
     apply ok_expr_parts in Hok as (Hp & Hl & Hu).
-    apply expr_run_gen; try assumption.
-    intros x Hx. destruct (Hu x Hx) as [Hs Hin]. split; [exact Hs|]. apply Hb. exact Hin.
+    apply expr_run_gen; try assumption; try lia.
+    intros x Hx. destruct (Hu x Hx) as [Hs Hin]. split; [eapply bound_in_uname; eassumption|eapply bound_in_look; eassumption].
   Qed.
 
   (* the failing-expression case of every statement *)
   Lemma post_expr_fail : forall pins sl bt ct fin B' env fs0 a g f s e0 g',
-    xfail name code a g e0 g' -> err_rel f e0 -> out g' = rout s ->
+    xfail prog name code a g e0 g' -> err_rel f e0 -> out g' = rout s ->
     post pins sl bt ct fin B' env fs0 a g (SFailed f s).
   Proof. intros. cbn [post]. apply fail_post_intro. exists e0, g'. split; [assumption|]. split; [now apply err_rel_s_of|assumption]. Qed.
 
@@ -561,802 +826,6 @@ Section Sim.
   Proof. intros off a g b H. unfold exec_d. rewrite H. reflexivity. Qed.
   Lemma exec_while_nb : forall off a g v, a_ops a = [v] -> (forall b, v <> VBool b) -> exec_d (DWhile off) a g = SFail E_not_bool.
   Proof. intros off a g v H Hn. unfold exec_d. rewrite H. destruct v; try reflexivity. destruct (Hn b eq_refl). Qed.
-
-  (* ================================================================ Stage 1: straight-line statements *)
-  Lemma Rst_upd : forall pins env s a g ip, Rg pins env s g -> length (locals env) <= S (a_ss a) -> Rst pins env s (upd a ip []) g.
-  Proof. intros pins env s a g ip HG Hss. split; [exact HG|]. split; [reflexivity|exact Hss]. Qed.
-
-  Lemma assign_correct : forall x e, stmt_spec (SAssign x e).
-  Proof.
-    intros x e pins lr il sl bt ct fuel k a g env s B Hok Hb Hit Hend Hlc Hip HR.
-    destruct fuel as [|fuel]; [exact Logic.I|].
-    cbn [ok_stmt] in Hok. apply Bool.andb_true_iff in Hok as [Hx Hoe]. apply src_nameb_ok in Hx.
-    cbn [sitems] in *. rewrite app_length, map_length in *. cbn [length] in *.
-    apply items_at_app in Hit as [Hce Hi]. apply items_at_CI in Hce. rewrite map_length in Hi.
-    apply items_at_cons in Hi as [Hi _]. cbn [item_instr] in Hi.
-    destruct HR as (HG & Hops & Hss).
-    pose proof (expr_run pins e c fuel k a g env s B Hoe Hb ltac:(lia) Hce ltac:(lia) Hip Hops HG) as He.
-    rewrite exec_SAssign.
-    destruct (eval fuel env e s) as [v s1|s1|f s1|]; [|contradiction| |exact Logic.I].
-    2:{ destruct He as (-> & e0 & g' & Hf & Hr & Ho). eapply post_expr_fail; eassumption. }
-    destruct He as (-> & Hfo & g1 & R1 & HG1 & Hf1).
-    destruct (assign env s x v) as [env' s'] eqn:Ea.
-    set (k1 := k + length (pcode c e)) in *.
-    set (a1 := upd a k1 [inj v]) in *.
-    destruct (store_rel env s (trc name a1 g1 (mkI OP_STORE [x])) x v env' s' (Rg_trc _ _ _ _ _ _ HG1) Hx Hfo Ea)
-      as (g2 & Hst & HG2 & Hd & Hbx & Htl).
-    cbn [post]. split; [exact Hd|]. split.
-    { intros y. rewrite (Hbx y), (Hb y). cbn [after In]. split; intros [H|H]; auto. }
-    exists (upd a (S k1) []), g2. split; [|split; [|split; [|split]]].
-    - eapply xrun_trans; [exact R1|].
-      eapply (xstep_next name code a1 g1 _ _ k1 (set_ops a1 [])); [reflexivity|exact Hi|apply dec_store|].
-      apply (exec_store x a1 _ (inj v)); [reflexivity|exact Hst].
-    - cbn. lia.
-    - apply Rst_upd; [exact HG2|]. rewrite (same_tl_length _ _ (Rg_ne _ _ _ HG) Hd). exact Hss.
-    - repeat split.
-    - exact (eq_trans Htl Hf1).
-  Qed.
-
-  Lemma print_correct : forall e, stmt_spec (SPrint e).
-  Proof.
-    intros e pins lr il sl bt ct fuel k a g env s B Hok Hb Hit Hend Hlc Hip HR.
-    destruct fuel as [|fuel]; [exact Logic.I|].
-    cbn [ok_stmt] in Hok. rename Hok into Hoe.
-    cbn [sitems] in *. rewrite app_length, map_length in *. cbn [length] in *.
-    apply items_at_app in Hit as [Hce Hi]. apply items_at_CI in Hce. rewrite map_length in Hi.
-    apply items_at_cons in Hi as [Hi1 Hi]. apply items_at_cons in Hi as [Hi2 _]. cbn [item_instr] in Hi1, Hi2.
-    destruct HR as (HG & Hops & Hss).
-    pose proof (expr_run pins e c fuel k a g env s B Hoe Hb ltac:(lia) Hce ltac:(lia) Hip Hops HG) as He.
-    rewrite exec_SPrint.
-    destruct (eval fuel env e s) as [v s1|s1|f s1|]; [|contradiction| |exact Logic.I].
-    2:{ destruct He as (-> & e0 & g' & Hf & Hr & Ho). eapply post_expr_fail; eassumption. }
-    destruct He as (-> & Hfo & g1 & R1 & HG1 & Hf1).
-    destruct (show_inj v Hfo) as (l & Hrs & Hsh). rewrite Hrs.
-    set (k1 := k + length (pcode c e)) in *.
-    set (a1 := upd a k1 [inj v]) in *.
-    set (g2 := emit_line (trc name a1 g1 (mkI OP_PRINTN [s_star])) l).
-    set (a2 := set_ip a1 (S k1)).
-    cbn [post]. split; [apply same_tl_refl; exact (Rg_ne _ _ _ HG)|]. split; [exact Hb|].
-    exists (upd a (S (S k1)) []), (trc name a2 g2 (mkI OP_VOID [])). split; [|split; [|split; [|split]]].
-    - eapply xrun_trans; [exact R1|]. eapply xrun_trans.
-      + eapply (xstep_next name code a1 g1 _ _ k1 a1); [reflexivity|exact Hi1|apply dec_printn|].
-        apply (exec_print a1 _ (inj v) l); [reflexivity|exact Hsh].
-      + eapply (xstep_next name code a2 g2 _ _ (S k1) (set_ops a2 [])); [reflexivity|exact Hi2|apply dec_void|].
-        apply exec_void.
-    - cbn. lia.
-    - apply Rst_upd; [|exact Hss]. apply Rg_trc. apply print_rel. apply Rg_trc. exact HG1.
-    - repeat split.
-    - exact Hf1.
-  Qed.
-
-  Lemma expr_stmt_correct : forall e, stmt_spec (SExpr e).
-  Proof.
-    intros e pins lr il sl bt ct fuel k a g env s B Hok Hb Hit Hend Hlc Hip HR.
-    destruct fuel as [|fuel]; [exact Logic.I|].
-    cbn [ok_stmt] in Hok. rename Hok into Hoe.
-    cbn [sitems] in *. rewrite app_length, map_length in *. cbn [length] in *.
-    apply items_at_app in Hit as [Hce Hi]. apply items_at_CI in Hce. rewrite map_length in Hi.
-    apply items_at_cons in Hi as [Hi1 _]. cbn [item_instr] in Hi1.
-    destruct HR as (HG & Hops & Hss).
-    pose proof (expr_run pins e c fuel k a g env s B Hoe Hb ltac:(lia) Hce ltac:(lia) Hip Hops HG) as He.
-    rewrite exec_SExpr.
-    destruct (eval fuel env e s) as [v s1|s1|f s1|]; [|contradiction| |exact Logic.I].
-    2:{ destruct He as (-> & e0 & g' & Hf & Hr & Ho). eapply post_expr_fail; eassumption. }
-    destruct He as (-> & Hfo & g1 & R1 & HG1 & Hf1).
-    set (k1 := k + length (pcode c e)) in *.
-    set (a1 := upd a k1 [inj v]) in *.
-    cbn [post]. split; [apply same_tl_refl; exact (Rg_ne _ _ _ HG)|]. split; [exact Hb|].
-    exists (upd a (S k1) []), (trc name a1 g1 (mkI OP_VOID [])). split; [|split; [|split; [|split]]].
-    - eapply xrun_trans; [exact R1|].
-      eapply (xstep_next name code a1 g1 _ _ k1 (set_ops a1 [])); [reflexivity|exact Hi1|apply dec_void|].
-      apply exec_void.
-    - cbn. lia.
-    - apply Rst_upd; [|exact Hss]. apply Rg_trc. exact HG1.
-    - repeat split.
-    - exact Hf1.
-  Qed.
-
-  Lemma assert_correct : forall e sp, stmt_spec (SAssert e sp).
-  Proof.
-    intros e sp pins lr il sl bt ct fuel k a g env s B Hok Hb Hit Hend Hlc Hip HR.
-    destruct fuel as [|fuel]; [exact Logic.I|].
-    cbn [ok_stmt] in Hok. rename Hok into Hoe.
-    cbn [sitems] in *. rewrite app_length, map_length in *. cbn [length] in *.
-    apply items_at_app in Hit as [Hce Hi]. apply items_at_CI in Hce. rewrite map_length in Hi.
-    apply items_at_cons in Hi as [Hi1 _]. cbn [item_instr] in Hi1.
-    destruct HR as (HG & Hops & Hss).
-    pose proof (expr_run pins e c fuel k a g env s B Hoe Hb ltac:(lia) Hce ltac:(lia) Hip Hops HG) as He.
-    rewrite exec_SAssert.
-    destruct (eval fuel env e s) as [v s1|s1|f s1|]; [|contradiction| |exact Logic.I].
-    2:{ destruct He as (-> & e0 & g' & Hf & Hr & Ho). eapply post_expr_fail; eassumption. }
-    destruct He as (-> & Hfo & g1 & R1 & HG1 & Hf1).
-    set (k1 := k + length (pcode c e)) in *.
-    set (a1 := upd a k1 [inj v]) in *.
-    set (i1 := mkI OP_ASSERT [sp]) in *.
-    pose proof (exec_assert sp a1 (trc name a1 g1 i1) (inj v) eq_refl) as Hx.
-    assert (Hfail : forall f e0, exec_d (DAssert (Some sp)) a1 (trc name a1 g1 i1) = SFail e0 -> err_rel_s f e0 ->
-                                 post pins sl bt ct (k + (length (pcode c e) + 1)) B env (frames g) a g (SFailed f s)).
-    { intros f e0 Hex Hrel. cbn [post]. apply fail_post_intro. exists e0, (trc name a1 g1 i1). split; [|split; [exact Hrel|exact (Rg_out _ _ _ HG1)]].
-      eapply xrun_fail; [exact R1|]. eapply xstep_fail; [reflexivity|exact Hi1|apply dec_assert|exact Hex]. }
-    destruct v as [z|[|]|t| |p bd ev]; cbn [inj val_equals] in Hx; try contradiction.
-    - eapply Hfail; [exact Hx|]. cbn. auto.
-    - cbn [post]. split; [apply same_tl_refl; exact (Rg_ne _ _ _ HG)|]. split; [exact Hb|].
-      exists (upd a (S k1) []), (trc name a1 g1 i1). split; [|split; [|split; [|split]]].
-      + eapply xrun_trans; [exact R1|].
-        eapply (xstep_next name code a1 g1 _ _ k1 (set_ops a1 [])); [reflexivity|exact Hi1|apply dec_assert|exact Hx].
-      + cbn. lia.
-      + apply Rst_upd; [|exact Hss]. apply Rg_trc. exact HG1.
-      + repeat split.
-      + exact Hf1.
-    - eapply Hfail; [exact Hx|]. reflexivity.
-    - eapply Hfail; [exact Hx|]. cbn. auto.
-    - eapply Hfail; [exact Hx|]. cbn. right. eexists. reflexivity.
-  Qed.
-
-  Lemma opassign_correct : forall x o e, stmt_spec (SOpAssign x o e).
-  Proof.
-    intros x o e pins lr il sl bt ct fuel k a g env s B Hok Hb Hit Hend Hlc Hip HR.
-    destruct fuel as [|fuel]; [exact Logic.I|].
-    cbn [ok_stmt] in Hok. rewrite !Bool.andb_true_iff in Hok. destruct Hok as [[[Ho Hx] HxB] Hoe].
-    apply src_nameb_ok in Hx. apply mem_str_In in HxB.
-    cbn [sitems] in *. rewrite app_length, map_length in *. cbn [length] in *.
-    apply items_at_app in Hit as [Hce Hi]. apply items_at_CI in Hce. rewrite map_length in Hi.
-    apply items_at_cons in Hi as [Hi1 Hi]. apply items_at_cons in Hi as [Hi2 _]. cbn [item_instr] in Hi1, Hi2.
-    destruct HR as (HG & Hops & Hss).
-    pose proof (expr_run pins e (S c) fuel k a g env s B Hoe Hb ltac:(lia) Hce ltac:(lia) Hip Hops HG) as He.
-    rewrite exec_SOpAssign.
-    destruct (eval fuel env e s) as [v s1|s1|f s1|]; [|contradiction| |exact Logic.I].
-    2:{ destruct He as (-> & e0 & g' & Hf & Hr & Ho'). eapply post_expr_fail; eassumption. }
-    destruct He as (-> & Hfo & g1 & R1 & HG1 & Hf1).
-    set (k1 := k + length (pcode (S c) e)) in *.
-    set (a1 := upd a k1 [inj v]) in *.
-    set (i1 := mkI OP_BIN_OP_ASSIGN [binop_sym o ++ [61%N]; x]) in *.
-    set (g1t := trc name a1 g1 i1).
-    assert (HG1t : Rg pins env s g1t) by (apply Rg_trc; exact HG1).
-    destruct (Rg_lookup env s g1t x HG1t Hx (proj2 (Hb x) HxB)) as (cx & cx' & cur_ & E1 & E2 & Hp & E3 & Hfc & E4).
-    rewrite (Rg_cap _ _ _ HG), app_nil_r, E1, E3.
-    assert (Hlv : lookup_var a1 g1t x = Some cx') by (unfold lookup_var; now rewrite E2).
-    pose proof (exec_bin_op_assign (binop_sym o ++ [61%N]) x a1 g1t cx' (inj v) (inj cur_) Hlv eq_refl E4) as Hx1.
-    rewrite (op_base_arith5 o Ho) in Hx1.
-    pose proof (binop_agree o cur_ v s (arith5_arith_op o Ho)) as Hag.
-    pose proof (arith5_not_bool o cur_ v s) as Hnb.
-    destruct (binop_sem o cur_ v s) as [r s1|s1|f s1|]; try contradiction.
-    - destruct Hag as (-> & Hfr & Hbo). rewrite Hbo in Hx1. specialize (Hnb r s Ho eq_refl).
-      assert (Hx2 : exec_d (DBinOpAssign (binop_sym o ++ [61%N]) x) a1 g1t
-                    = SNext (set_ops a1 [inj r]) (cell_set g1t cx' (inj r))).
-      { rewrite Hx1. destruct (inj r); try reflexivity. contradiction. }
-      set (g2 := cell_set g1t cx' (inj r)).
-      set (a2 := set_ip (set_ops a1 [inj r]) (S k1)).
-      cbn [post]. split; [apply same_tl_refl; exact (Rg_ne _ _ _ HG)|]. split; [exact Hb|].
-      exists (upd a (S (S k1)) []), (trc name a2 g2 (mkI OP_VOID [])). split; [|split; [|split; [|split]]].
-      + eapply xrun_trans; [exact R1|]. eapply xrun_trans.
-        * eapply (xstep_next name code a1 g1 _ _ k1 (set_ops a1 [inj r])); [reflexivity|exact Hi1|apply dec_bin_op_assign|exact Hx2].
-        * eapply (xstep_next name code a2 g2 _ _ (S k1) (set_ops a2 [])); [reflexivity|exact Hi2|apply dec_void|].
-          apply exec_void.
-      + cbn. lia.
-      + apply Rst_upd; [|exact Hss]. apply Rg_trc. apply update_rel; assumption.
-      + repeat split.
-      + exact Hf1.
-    - destruct Hag as (-> & e0 & Hbo & Hrel). rewrite Hbo in Hx1.
-      cbn [post]. apply fail_post_intro. exists e0, g1t. split; [|split; [now apply err_rel_s_of|exact (Rg_out _ _ _ HG1)]].
-      eapply xrun_fail; [exact R1|]. eapply xstep_fail; [reflexivity|exact Hi1|apply dec_bin_op_assign|exact Hx1].
-  Qed.
-
-  (* ---------------------------------------------------------------- break / continue (resolved placeholders) *)
-  Lemma exec_jmp_pop : forall off n a g, exec_d (DJmpPop off n) a g = SGotoPop off n a g.
-  Proof. reflexivity. Qed.
-
-  Lemma Rst_popn : forall pins m env s a g' t, Rg pins (popn m env) s g' -> a_ops a = [] -> length (locals env) <= S (a_ss a) ->
-    Rst pins (popn m env) s (set_ip a t) g'.
-  Proof.
-    intros pins m env s a g' t HG Hops Hss. split; [exact HG|]. split; [exact Hops|].
-    cbn [popn locals set_ip a_ss]. rewrite skipn_length. lia.
-  Qed.
-
-  Lemma tl_skipn : forall A n (l : list A), tl (skipn n l) = skipn (S n) l.
-  Proof.
-    intros A. induction n as [|n IH]; intros [|x l]; try reflexivity.
-    cbn [skipn]. rewrite IH. reflexivity.
-  Qed.
-
-  Lemma break_correct : stmt_spec SBreak.
-  Proof.
-    intros pins lr il sl bt ct fuel k a g env s B Hok Hb Hit Hend Hlc Hip HR.
-    destruct fuel as [|fuel]; [exact Logic.I|].
-    cbn [ok_stmt] in Hok. destruct Hlc as [Hsl Hlc]. specialize (Hsl Hok).
-    destruct sl as [m|]; [|congruence]. destruct (Hlc m eq_refl) as (Hm1 & Hm2 & Hct & Hbt & Hlen & Hmc).
-    cbn [sitems length] in *. apply items_at_cons in Hit as [Hi _]. cbn [item_instr] in Hi.
-    destruct HR as (HG & Hops & Hss).
-    change (Eval.exec (S fuel) env SBreak s) with (SOk SigBreak env s).
-    set (i1 := mkI OP_JMP_POP [sN (bt - k); sN m]) in *.
-    destruct (popn_rel m env s (trc name a g i1) (Rg_trc _ _ _ _ _ _ HG) Hm2) as (g2 & Hpop & HG2 & Hfr2 & _).
-    cbn [post]. split; [apply same_tl_refl; exact (Rg_ne _ _ _ HG)|].
-    exists m, (set_ip a bt), g2. split; [reflexivity|]. split; [|split; [reflexivity|split; [|split]]].
-    - eapply (xstep_gotopop name code a g i1 _ k _ m a); [exact Hip|exact Hi| |apply exec_jmp_pop| |exact Hpop].
-      + apply dec_jmp_pop2; apply small_code; lia.
-      + rewrite Hip. rewrite goto_fwd by lia. f_equal. lia.
-    - eapply Rst_popn; eassumption.
-    - repeat split.
-    - exact Hfr2.
-  Qed.
-
-  Lemma continue_correct : stmt_spec SContinue.
-  Proof.
-    intros pins lr il sl bt ct fuel k a g env s B Hok Hb Hit Hend Hlc Hip HR.
-    destruct fuel as [|fuel]; [exact Logic.I|].
-    cbn [ok_stmt] in Hok. destruct Hlc as [Hsl Hlc]. specialize (Hsl Hok).
-    destruct sl as [m|]; [|congruence]. destruct (Hlc m eq_refl) as (Hm1 & Hm2 & Hct & Hbt & Hlen & Hmc).
-    cbn [sitems length] in *. apply items_at_cons in Hit as [Hi _]. cbn [item_instr] in Hi.
-    destruct HR as (HG & Hops & Hss).
-    change (Eval.exec (S fuel) env SContinue s) with (SOk SigContinue env s).
-    set (i1 := mkI OP_JMP_POP [sN (ct - k); sN (m - 1)]) in *.
-    destruct (popn_rel (m - 1) env s (trc name a g i1) (Rg_trc _ _ _ _ _ _ HG) ltac:(lia)) as (g2 & Hpop & HG2 & Hfr2 & _).
-    cbn [post]. split; [apply same_tl_refl; exact (Rg_ne _ _ _ HG)|].
-    exists m, (set_ip a ct), g2. split; [reflexivity|]. split; [|split; [reflexivity|split; [|split]]].
-    - eapply (xstep_gotopop name code a g i1 _ k _ (m - 1) a); [exact Hip|exact Hi| |apply exec_jmp_pop| |exact Hpop].
-      + apply dec_jmp_pop2; apply small_code; lia.
-      + rewrite Hip. rewrite goto_fwd by lia. f_equal. lia.
-    - eapply Rst_popn; eassumption.
-    - repeat split.
-    - rewrite Hfr2. cbn [trc add_trace frames]. rewrite tl_skipn. f_equal. lia.
-  Qed.
-
-  (* ================================================================ sequencing *)
-  Lemma post_seq : forall pins sl bt ct fin B' env fs0 a g env1 a1 g1 r,
-    xrun name code a g a1 g1 -> same_tl env env1 -> act_same a a1 ->
-    post pins sl bt ct fin B' env1 fs0 a1 g1 r -> post pins sl bt ct fin B' env fs0 a g r.
-  Proof.
-    intros pins sl bt ct fin B' env fs0 a g env1 a1 g1 r Hrun Hd Hact H.
-    destruct r as [sig env' s'|f s'|]; cbn [post] in *; [| |exact Logic.I].
-    - destruct H as [Hd' H]. split; [eapply same_tl_trans; eassumption|].
-      destruct sig as [| | |rv]; [| | |exact H].
-      + destruct H as (HB & a' & g' & R & Hip & HR & Ha & Hf). split; [exact HB|]. exists a', g'.
-        split; [eapply xrun_trans; eassumption|]. split; [exact Hip|]. split; [exact HR|].
-        split; [eapply act_same_trans; eassumption|exact Hf].
-      + destruct H as (m & a' & g' & Hsl & R & Hip & HR & Ha & Hf). exists m, a', g'. split; [exact Hsl|].
-        split; [eapply xrun_trans; eassumption|]. split; [exact Hip|]. split; [exact HR|].
-        split; [eapply act_same_trans; eassumption|exact Hf].
-      + destruct H as (m & a' & g' & Hsl & R & Hip & HR & Ha & Hf). exists m, a', g'. split; [exact Hsl|].
-        split; [eapply xrun_trans; eassumption|]. split; [exact Hip|]. split; [exact HR|].
-        split; [eapply act_same_trans; eassumption|exact Hf].
-    - eapply fail_post_map; [|exact H]. intros (e & g' & Hf & Hr & Ho). exists e, g'. split; [eapply xrun_fail; eassumption|]. auto.
-  Qed.
-
-  Lemma skipn_tl_eq : forall A m (l1 l2 : list A), 1 <= m -> tl l1 = tl l2 -> skipn m l1 = skipn m l2.
-  Proof.
-    intros A m l1 l2 Hm H. destruct m as [|m]; [lia|]. rewrite !skipn_S_tl. now rewrite H.
-  Qed.
-
-  (* the reference frames may be replaced by any list with the same tail (break / continue pop >= 1 frame) *)
-  Lemma post_rebase : forall pins sl bt ct fin B' env fs1 fs0 a g r,
-    post pins sl bt ct fin B' env fs1 a g r -> tl fs1 = tl fs0 -> (forall m, sl = Some m -> 1 <= m) ->
-    post pins sl bt ct fin B' env fs0 a g r.
-  Proof.
-    intros pins sl bt ct fin B' env fs1 fs0 a g r H Htl Hm.
-    destruct r as [sig env' s'|f s'|]; cbn [post] in *; [|exact H|exact Logic.I].
-    destruct H as [Hd H]. split; [exact Hd|].
-    destruct sig as [| | |rv]; [| | |exact H].
-    - destruct H as (HB & a' & g' & R & Hip & HR & Ha & Hf). split; [exact HB|]. exists a', g'.
-      repeat (split; [assumption|]). congruence.
-    - destruct H as (m & a' & g' & Hsl & R & Hip & HR & Ha & Hf). exists m, a', g'.
-      repeat (split; [assumption|]). rewrite Hf. apply skipn_tl_eq; [now apply Hm|exact Htl].
-    - destruct H as (m & a' & g' & Hsl & R & Hip & HR & Ha & Hf). exists m, a', g'.
-      repeat (split; [assumption|]). rewrite Hf. apply skipn_tl_eq; [now apply Hm|exact Htl].
-  Qed.
-
-  Lemma lc_ok_mono : forall il sl bt ct env env' hi hi', lc_ok il sl bt ct env hi -> hi' <= hi ->
-    length (locals env') = length (locals env) -> lc_ok il sl bt ct env' hi'.
-  Proof.
-    intros il sl bt ct env env' hi hi' [H0 H] Hle Hlen. split; [exact H0|].
-    intros m E. destruct (H m E) as (H1 & H2 & H3 & H4 & H5 & H6).
-    rewrite Hlen. repeat split; try assumption; lia.
-  Qed.
-
-  Lemma lc_ok_m : forall il sl bt ct env hi, lc_ok il sl bt ct env hi -> forall m, sl = Some m -> 1 <= m.
-  Proof. intros il sl bt ct env hi [_ H] m E. exact (proj1 (H m E)). Qed.
-
-  Lemma block_of_stmts : forall l, Forall stmt_spec l -> block_spec l.
-  Proof.
-    induction l as [|st l IH]; intros HF pins lr il sl bt ct fuel k a g env s B Hok Hb Hit Hend Hlc Hip HR.
-    - destruct fuel as [|fuel]; [exact Logic.I|]. rewrite exec_block_nil. cbn [bitems length post after_l].
-      split; [apply same_tl_refl; exact (Rg_ne _ _ _ (proj1 HR))|]. split; [exact Hb|]. exists a, g.
-      split; [apply xrun_refl|]. split; [lia|]. split; [exact HR|]. split; [apply act_same_refl|reflexivity].
-    - pose proof (Forall_inv HF) as Hst. pose proof (Forall_inv_tail HF) as Hl. specialize (IH Hl).
-      destruct fuel as [|fuel]; [exact Logic.I|]. rewrite exec_block_cons.
-      cbn [ok_block] in Hok. apply Bool.andb_true_iff in Hok as [Hok1 Hok2].
-      cbn [bitems] in *. rewrite app_length in *. apply items_at_app in Hit as [Hit1 Hit2].
-      pose proof (Hst pins lr il sl bt ct fuel k a g env s B Hok1 Hb Hit1 ltac:(lia)
-                      (lc_ok_mono il sl bt ct env env _ (k + length (sitems c lr sl st)) Hlc ltac:(lia) eq_refl) Hip HR) as H1.
-      destruct (Eval.exec fuel env st s) as [sig env1 s1|f s1|]; [|exact H1|exact Logic.I].
-      destruct sig as [| | |rv].
-      + cbn [post] in H1. destruct H1 as (Hd & HB1 & a1 & g1 & R1 & Hip1 & HR1 & Ha1 & Hf1).
-        pose proof (IH pins lr il sl bt ct fuel (k + length (sitems c lr sl st)) a1 g1 env1 s1 (after B st) Hok2 HB1 Hit2 ltac:(lia)
-                       (lc_ok_mono il sl bt ct env env1 _ (k + length (sitems c lr sl st) + length (bitems c lr sl l)) Hlc ltac:(lia) (same_tl_length _ _ (Rg_ne _ _ _ (proj1 HR)) Hd)) Hip1 HR1) as H2.
-        rewrite Nat.add_assoc.
-        eapply post_seq; [exact R1|exact Hd|exact Ha1|].
-        eapply post_rebase; [exact H2|exact Hf1|exact (lc_ok_m _ _ _ _ _ _ Hlc)].
-      + exact H1.
-      + exact H1.
-      + cbn [post] in H1. destruct H1 as [_ []].
-  Qed.
-
-  (* ================================================================ Stage 2: blocks *)
-  Lemma popn_1 : forall env, popn 1 env = pop_scope env.
-  Proof. intros [l cap cu]. unfold popn, pop_scope. cbn [locals captured cur]. destruct l; reflexivity. Qed.
-  Lemma popn_S_pop : forall m env, popn m (pop_scope env) = popn (S m) env.
-  Proof. intros m [l cap cu]. unfold popn, pop_scope. cbn [locals captured cur]. now rewrite skipn_S_tl. Qed.
-
-  Lemma exec_done : forall a g, exec_d DDone a g = SPopScope a g.
-  Proof. reflexivity. Qed.
-  Lemma exec_else : forall a g, exec_d DElse a g = SPush LElse a g.
-  Proof. reflexivity. Qed.
-  Lemma exec_jmp : forall off a g, exec_d (DJmp off) a g = SGoto off a g.
-  Proof. reflexivity. Qed.
-
-  (* after a normal completion at fin1 the machine runs on to fin2 (e.g. the `jmp` over the else branch) *)
-  Lemma post_extend : forall pins sl bt ct fin1 fin2 B' env fs0 a g r,
-    post pins sl bt ct fin1 B' env fs0 a g r ->
-    (forall env' s' a' g', a_ip a' = fin1 -> Rst pins env' s' a' g' ->
-       exists a'' g'', xrun name code a' g' a'' g'' /\ a_ip a'' = fin2 /\ Rst pins env' s' a'' g'' /\ act_same a' a'' /\
-                       frames g'' = frames g') ->
-    post pins sl bt ct fin2 B' env fs0 a g r.
-  Proof.
-    intros pins sl bt ct fin1 fin2 B' env fs0 a g r H Hx.
-    destruct r as [sig env' s'|f s'|]; cbn [post] in *; [|exact H|exact Logic.I].
-    destruct H as [Hd H]. split; [exact Hd|]. destruct sig; try exact H.
-    destruct H as (HB & a' & g' & R & Hip & HR & Ha & Hf). split; [exact HB|].
-    destruct (Hx env' s' a' g' Hip HR) as (a'' & g'' & R' & Hip' & HR' & Ha' & Hf').
-    exists a'', g''. split; [eapply xrun_trans; eassumption|]. split; [exact Hip'|]. split; [exact HR'|].
-    split; [eapply act_same_trans; eassumption|]. rewrite Hf'. exact Hf.
-  Qed.
-
-  (* the machine has just pushed the block frame (if_stmt / else_stmt); body, then `done` *)
-  Lemma in_block_run : forall body, block_spec body ->
-    forall pins lr il sl bt ct fuel kb a g env s B lb,
-      ok_block il B body = true -> bound_in B env ->
-      items_at bt ct kb (bitems c lr (option_map S sl) body ++ [I OP_DONE []]) ->
-      kb + length (bitems c lr (option_map S sl) body) + 1 < length code ->
-      lc_ok il sl bt ct env (kb + length (bitems c lr (option_map S sl) body) + 1) ->
-      a_ip a = kb -> Rst pins env s a g -> special lb = true ->
-      post pins sl bt ct (kb + length (bitems c lr (option_map S sl) body) + 1) B env (frames g)
-           (set_ss a (S (a_ss a))) (push_frame g lb) (in_block_ fuel body env s).
-  Proof.
-    intros body Hbody pins lr il sl bt ct fuel kb a g env s B lb Hok Hb Hit Hend Hlc Hip HR Hlb.
-    set (len := length (bitems c lr (option_map S sl) body)) in *.
-    apply items_at_app in Hit as [Hitb Hid]. apply items_at_cons in Hid as [Hid _]. cbn [item_instr] in Hid. fold len in Hid.
-    destruct HR as (HG & Hops & Hss).
-    assert (Hl1 : 1 <= length (locals env)).
-    { destruct (Rfr_ne _ _ _ _ (Rg_fr _ _ _ HG)) as [Hne _]. destruct (locals env); [congruence|cbn [length]; lia]. }
-    assert (HR0 : Rst pins (push_scope env) s (set_ss a (S (a_ss a))) (push_frame g lb)).
-    { split; [apply push_rel; assumption|]. split; [exact Hops|]. cbn [push_scope locals length set_ss a_ss]. lia. }
-    assert (Hlc0 : lc_ok il (option_map S sl) bt ct (push_scope env) (kb + len)).
-    { destruct Hlc as [H0 H1]. split.
-      - intros Hil. specialize (H0 Hil). destruct sl; [discriminate|congruence].
-      - intros m' E. destruct sl as [m|]; [|discriminate]. cbn [option_map] in E. inversion E; subst m'.
-        destruct (H1 m eq_refl) as (A1 & A2 & A3 & A4 & A5 & A6). cbn [push_scope locals length].
-        repeat split; try assumption; lia. }
-    pose proof (Hbody pins lr il (option_map S sl) bt ct fuel kb (set_ss a (S (a_ss a))) (push_frame g lb) (push_scope env) s B
-                  Hok Hb Hitb ltac:(fold len; lia) Hlc0 Hip HR0) as H.
-    fold len in H. unfold in_block_.
-    destruct (exec_block fuel (push_scope env) body s) as [sig env2 s2|f s2|]; [|exact H|exact Logic.I].
-    cbn [post] in H |- *. destruct H as [Hd H].
-    destruct Hd as [Htl Hne2]. cbn [push_scope locals tl] in Htl.
-    assert (Hd' : same_tl env (pop_scope env2)).
-    { split; cbn [pop_scope locals]; rewrite Htl; [reflexivity|exact (Rg_ne _ _ _ HG)]. }
-    assert (Hlen2 : length (locals env2) = S (length (locals env))).
-    { destruct (locals env2) as [|sc2 l2]; [congruence|]. cbn [tl] in Htl. subst l2. reflexivity. }
-    split; [exact Hd'|].
-    destruct sig as [| | |rv]; [| | |exact H].
-    - (* normal: execute `done` *)
-      destruct H as (_ & a2 & g2 & R2 & Hip2 & (HG2 & Hops2 & Hss2) & Ha2 & Hf2).
-      set (i1 := mkI OP_DONE []) in *.
-      destruct (popn_rel 1 env2 s2 (trc name a2 g2 i1) (Rg_trc _ _ _ _ _ _ HG2) ltac:(lia)) as (g3 & Hpop & HG3 & Hf3 & _).
-      cbn [pop_frames] in Hpop.
-      destruct (pop_frame (trc name a2 g2 i1)) as [g3'|] eqn:Epop; [|discriminate]. inversion Hpop; subst g3'.
-      destruct (a_ss a2) as [|k'] eqn:Ess; [lia|].
-      rewrite popn_1 in HG3.
-      split; [eapply bound_in_eq; [exact Hb|exact Htl]|].
-      exists (set_ip (set_ss a2 k') (S (a_ip a2))), g3. split; [|split; [|split; [|split]]].
-      + eapply xrun_trans; [exact R2|].
-        eapply (xstep_popscope name code a2 g2 i1 _ (kb + len) a2); [exact Hip2|exact Hid|apply dec_done|apply exec_done|exact Ess|exact Epop].
-      + cbn [set_ip a_ip]. lia.
-      + split; [exact HG3|]. split; [exact Hops2|].
-        cbn [pop_scope locals set_ip set_ss a_ss]. destruct (locals env2); cbn [tl length] in *; lia.
-      + destruct Ha2 as (A1 & A2 & A3). repeat split; assumption.
-      + rewrite Hf3. cbn [trc add_trace frames]. rewrite (skipn_S_tl _ 0). cbn [skipn]. rewrite Hf2. reflexivity.
-    - (* break: m+1 frames were popped, control is at bt *)
-      destruct H as (m' & a2 & g2 & Esl & R2 & Hip2 & HR2 & Ha2 & Hf2).
-      destruct sl as [m|]; [|discriminate]. cbn [option_map] in Esl. inversion Esl; subst m'.
-      exists m, a2, g2. split; [reflexivity|]. split; [exact R2|]. split; [exact Hip2|]. split; [|split; [exact Ha2|exact Hf2]].
-      rewrite popn_S_pop. exact HR2.
-    - destruct H as (m' & a2 & g2 & Esl & R2 & Hip2 & HR2 & Ha2 & Hf2).
-      destruct sl as [m|]; [|discriminate]. cbn [option_map] in Esl. inversion Esl; subst m'.
-      destruct Hlc as [_ H1]. destruct (H1 m eq_refl) as (A1 & _).
-      exists m, a2, g2. split; [reflexivity|]. split; [exact R2|]. split; [exact Hip2|]. split; [|split; [exact Ha2|exact Hf2]].
-      rewrite popn_S_pop. replace (S (m - 1)) with (S m - 1) by lia. exact HR2.
-  Qed.
-
-  Lemma not_bool_inj : forall v, (forall b, v <> RBool b) -> forall b, inj v <> VBool b.
-  Proof. intros v H b E. destruct v; cbn in E; try discriminate. inversion E; subst. now apply (H b). Qed.
-
-  Lemma if_correct : forall cnd body, block_spec body -> stmt_spec (SIf cnd body).
-  Proof.
-    intros cnd body Hbody pins lr il sl bt ct fuel k a g env s B Hok Hb Hit Hend Hlc Hip HR.
-    destruct fuel as [|fuel]; [exact Logic.I|].
-    rewrite ok_SIf in Hok. apply Bool.andb_true_iff in Hok as [Hoe Hokb].
-    rewrite sitems_SIf in *. cbv zeta in *.
-    set (bi := bitems c lr (option_map S sl) body) in *.
-    rewrite !app_length, map_length in *. cbn [length] in *.
-    apply items_at_app in Hit as [Hce Hi]. apply items_at_CI in Hce. rewrite map_length in Hi.
-    apply items_at_cons in Hi as [Hi1 Hib]. cbn [item_instr I] in Hi1.
-    destruct HR as (HG & Hops & Hss).
-    pose proof (expr_run pins cnd c fuel k a g env s B Hoe Hb ltac:(lia) Hce ltac:(lia) Hip Hops HG) as He.
-    rewrite exec_SIf. cbn [after].
-    destruct (eval fuel env cnd s) as [v s1|s1|f s1|]; [|contradiction| |exact Logic.I].
-    2:{ destruct He as (-> & e0 & g' & Hf & Hr & Ho). eapply post_expr_fail; eassumption. }
-    destruct He as (-> & Hfo & g1 & R1 & HG1 & Hf1).
-    set (k1 := k + length (pcode c cnd)) in *.
-    set (a1 := upd a k1 [inj v]) in *.
-    match type of Hi1 with _ = Some {| op := _; args := [sN ?n] |} => set (off := n) in * end.
-    set (i1 := mkI OP_IF_STMT [sN off]) in *.
-    assert (Hdec : decode i1 = DOk (DIf (Z.of_nat off))) by (apply dec_if; apply small_code; unfold off; lia).
-    set (g1t := trc name a1 g1 i1).
-    assert (HG1t : Rg pins env s g1t) by (apply Rg_trc; exact HG1).
-    assert (Hnb : (forall b, v <> RBool b) -> post pins sl bt ct (k + (length (pcode c cnd) + (1 + (length bi + 1)))) B env (frames g) a g
-                                                   (SFailed (FType 12) s)).
-    { intros Hv. cbn [post]. apply fail_post_intro. exists E_not_bool, g1t. split; [|split; [cbn; auto|exact (Rg_out _ _ _ HG1)]].
-      eapply xrun_fail; [exact R1|]. eapply xstep_fail; [reflexivity|exact Hi1|exact Hdec|].
-      apply (exec_if_nb _ a1 g1t (inj v)); [reflexivity|now apply not_bool_inj]. }
-    destruct v as [z|b|t| |p bd ev]; try (apply Hnb; intros b0; discriminate).
-    pose proof (exec_if (Z.of_nat off) a1 g1t b eq_refl) as Hx.
-    destruct b.
-    - (* true: push <if>, run the body, done *)
-      set (a1' := upd a (S k1) []).
-      assert (Hblk : post pins sl bt ct (k + (length (pcode c cnd) + (1 + (length bi + 1)))) B env (frames g1t)
-                          (set_ss a1' (S (a_ss a1'))) (push_frame g1t LIf) (in_block_ fuel body env s)).
-      { replace (k + (length (pcode c cnd) + (1 + (length bi + 1)))) with (S k1 + length bi + 1) by (unfold k1; lia).
-        apply (in_block_run body Hbody pins lr il sl bt ct fuel (S k1) a1' g1t env s B LIf); try assumption; try reflexivity.
-        - fold bi. unfold k1. lia.
-        - fold bi. eapply lc_ok_mono; [exact Hlc|unfold k1; lia|reflexivity].
-        - apply Rst_upd; assumption. }
-      eapply post_seq; [|apply same_tl_refl; exact (Rg_ne _ _ _ HG)| |
-        eapply post_rebase; [exact Hblk|exact Hf1|exact (lc_ok_m _ _ _ _ _ _ Hlc)]].
-      + eapply xrun_trans; [exact R1|].
-        eapply (xstep_push name code a1 g1 i1 _ k1 LIf (set_ops a1 [])); [reflexivity|exact Hi1|exact Hdec|exact Hx].
-      + repeat split.
-    - (* false: jump over the body *)
-      cbn [post]. split; [apply same_tl_refl; exact (Rg_ne _ _ _ HG)|]. split; [exact Hb|].
-      exists (upd a (k1 + off) []), g1t. split; [|split; [|split; [|split]]].
-      + eapply xrun_trans; [exact R1|].
-        eapply (xstep_goto name code a1 g1 i1 _ k1 _ (set_ops a1 [])); [reflexivity|exact Hi1|exact Hdec|exact Hx|].
-        apply goto_fwd. cbn [set_ops a_ip a1 upd set_ip]. unfold off, k1. lia.
-      + cbn. unfold off, k1. lia.
-      + apply Rst_upd; assumption.
-      + repeat split.
-      + exact Hf1.
-  Qed.
-
-  Lemma ifelse_correct : forall cnd body els, block_spec body -> block_spec els -> stmt_spec (SIfElse cnd body els).
-  Proof.
-    intros cnd body els Hbody Hels pins lr il sl bt ct fuel k a g env s B Hok Hb Hit Hend Hlc Hip HR.
-    destruct fuel as [|fuel]; [exact Logic.I|].
-    rewrite ok_SIfElse in Hok. rewrite !Bool.andb_true_iff in Hok. destruct Hok as [[Hoe Hokb] Hoke].
-    rewrite sitems_SIfElse in *. cbv zeta in *.
-    set (bi := bitems c lr (option_map S sl) body) in *.
-    set (ei := bitems c lr (option_map S sl) els) in *.
-    cbn [length] in *. rewrite !app_length, map_length in *. cbn [length] in *. rewrite !app_length in *. cbn [length] in *.
-    apply items_at_app in Hit as [Hce Hi]. apply items_at_CI in Hce. rewrite map_length in Hi.
-    apply items_at_cons in Hi as [Hi1 Hi]. cbn [item_instr I] in Hi1.
-    apply items_at_app in Hi as [Hib Hi]. rewrite app_length in Hi. cbn [length] in Hi.
-    apply items_at_cons in Hi as [Hi2 Hi]. cbn [item_instr I] in Hi2.
-    apply items_at_cons in Hi as [Hi3 Hie]. cbn [item_instr I] in Hi3.
-    destruct HR as (HG & Hops & Hss).
-    pose proof (expr_run pins cnd c fuel k a g env s B Hoe Hb ltac:(lia) Hce ltac:(lia) Hip Hops HG) as He.
-    rewrite exec_SIfElse. cbn [after].
-    destruct (eval fuel env cnd s) as [v s1|s1|f s1|]; [|contradiction| |exact Logic.I].
-    2:{ destruct He as (-> & e0 & g' & Hf & Hr & Ho). eapply post_expr_fail; eassumption. }
-    destruct He as (-> & Hfo & g1 & R1 & HG1 & Hf1).
-    set (k1 := k + length (pcode c cnd)) in *.
-    set (a1 := upd a k1 [inj v]) in *.
-    set (kj := S k1 + (length bi + 1)) in *.
-    match type of Hi1 with _ = Some {| op := _; args := [sN ?n] |} => set (off := n) in * end.
-    match type of Hi2 with _ = Some {| op := _; args := [sN ?n] |} => set (offj := n) in * end.
-    set (i1 := mkI OP_IF_STMT [sN off]) in *.
-    set (fin := k + (length (pcode c cnd) + (1 + (length bi + 1 + (1 + S (length ei + 1)))))) in *.
-    assert (Hfin : fin = S (S kj) + length ei + 1) by (unfold fin, kj, k1; lia).
-    assert (Hdec : decode i1 = DOk (DIf (Z.of_nat off))) by (apply dec_if; apply small_code; unfold off; lia).
-    set (g1t := trc name a1 g1 i1).
-    assert (HG1t : Rg pins env s g1t) by (apply Rg_trc; exact HG1).
-    assert (Hnb : (forall b, v <> RBool b) -> post pins sl bt ct fin B env (frames g) a g (SFailed (FType 12) s)).
-    { intros Hv. cbn [post]. apply fail_post_intro. exists E_not_bool, g1t. split; [|split; [cbn; auto|exact (Rg_out _ _ _ HG1)]].
-      eapply xrun_fail; [exact R1|]. eapply xstep_fail; [reflexivity|exact Hi1|exact Hdec|].
-      apply (exec_if_nb _ a1 g1t (inj v)); [reflexivity|now apply not_bool_inj]. }
-    destruct v as [z|b|t| |p bd ev]; try (apply Hnb; intros b0; discriminate).
-    pose proof (exec_if (Z.of_nat off) a1 g1t b eq_refl) as Hx.
-    destruct b.
-    - (* true: push <if>, body, done, jmp over the else branch *)
-      set (a1' := upd a (S k1) []).
-      assert (Hblk : post pins sl bt ct kj B env (frames g1t) (set_ss a1' (S (a_ss a1'))) (push_frame g1t LIf) (in_block_ fuel body env s)).
-      { replace kj with (S k1 + length bi + 1) by (unfold kj; lia).
-        apply (in_block_run body Hbody pins lr il sl bt ct fuel (S k1) a1' g1t env s B LIf); try assumption; try reflexivity.
-        - fold bi. unfold fin, k1 in *. lia.
-        - fold bi. eapply lc_ok_mono; [exact Hlc|unfold k1; lia|reflexivity].
-        - apply Rst_upd; assumption. }
-      eapply post_seq; [|apply same_tl_refl; exact (Rg_ne _ _ _ HG)| |].
-      + eapply xrun_trans; [exact R1|].
-        eapply (xstep_push name code a1 g1 i1 _ k1 LIf (set_ops a1 [])); [reflexivity|exact Hi1|exact Hdec|exact Hx].
-      + repeat split.
-      + eapply post_extend; [eapply post_rebase; [exact Hblk|exact Hf1|exact (lc_ok_m _ _ _ _ _ _ Hlc)]|].
-        intros env' s' a' g' Hip' (HG' & Hops' & Hss').
-        set (ij := mkI OP_JMP [sN offj]) in *.
-        exists (set_ip a' (kj + offj)), (trc name a' g' ij). split; [|split; [|split; [|split]]].
-        * eapply (xstep_goto name code a' g' ij _ kj _ a'); [exact Hip'|exact Hi2| |apply exec_jmp|].
-          -- apply dec_jmp. apply small_code. unfold offj. lia.
-          -- rewrite Hip'. apply goto_fwd. unfold offj, fin, kj, k1 in *. lia.
-        * cbn [set_ip a_ip]. unfold offj. lia.
-        * split; [apply Rg_trc; exact HG'|]. split; [exact Hops'|exact Hss'].
-        * repeat split.
-        * reflexivity.
-    - (* false: jump to else_stmt, push <else>, the else block, done *)
-      set (ke := S kj) in *.
-      set (a2 := upd a ke []).
-      set (ie := mkI OP_ELSE_STMT []) in *.
-      set (g2t := trc name a2 g1t ie).
-      set (a2' := upd a (S ke) []).
-      assert (Hblk : post pins sl bt ct fin B env (frames g2t) (set_ss a2' (S (a_ss a2'))) (push_frame g2t LElse) (in_block_ fuel els env s)).
-      { rewrite Hfin. fold ke.
-        apply (in_block_run els Hels pins lr il sl bt ct fuel (S ke) a2' g2t env s B LElse); try assumption; try reflexivity.
-        - fold ei. unfold ke. lia.
-        - fold ei. eapply lc_ok_mono; [exact Hlc|unfold ke; lia|reflexivity].
-        - apply Rst_upd; [|exact Hss]. apply Rg_trc. exact HG1t. }
-      eapply post_seq; [|apply same_tl_refl; exact (Rg_ne _ _ _ HG)| |
-        eapply post_rebase; [exact Hblk|exact Hf1|exact (lc_ok_m _ _ _ _ _ _ Hlc)]].
-      + eapply xrun_trans; [exact R1|]. eapply xrun_trans.
-        * eapply (xstep_goto name code a1 g1 i1 _ k1 _ (set_ops a1 []) g1t ke); [reflexivity|exact Hi1|exact Hdec|exact Hx|].
-          cbn [set_ops a_ip a1 upd set_ip]. rewrite goto_fwd by (unfold off, fin, kj, k1 in *; lia).
-          f_equal. unfold off, ke, kj. lia.
-        * eapply (xstep_push name code a2 g1t ie _ ke LElse a2); [reflexivity|exact Hi3|apply dec_else|apply exec_else].
-      + repeat split.
-  Qed.
-
-  Lemma ifelif_correct : forall cnd body nxt, block_spec body -> stmt_spec nxt -> stmt_spec (SIfElif cnd body nxt).
-  Proof.
-    intros cnd body nxt Hbody Hn.
-    assert (Hels : block_spec [nxt]) by (apply block_of_stmts; constructor; [exact Hn|constructor]).
-    pose proof (ifelse_correct cnd body [nxt] Hbody Hels) as H.
-    intros pins lr il sl bt ct fuel k a g env s B Hok Hb Hit Hend Hlc Hip HR.
-    assert (Es : sitems c lr sl (SIfElif cnd body nxt) = sitems c lr sl (SIfElse cnd body [nxt])).
-    { rewrite sitems_SIfElif, sitems_SIfElse. cbv zeta. cbn [bitems]. rewrite app_nil_r. reflexivity. }
-    assert (Ee : Eval.exec fuel env (SIfElif cnd body nxt) s = Eval.exec fuel env (SIfElse cnd body [nxt]) s).
-    { destruct fuel; [reflexivity|]. rewrite exec_SIfElif, exec_SIfElse. reflexivity. }
-    rewrite Es in *. rewrite Ee.
-    apply (H pins lr il sl bt ct fuel k a g env s B); try assumption.
-    rewrite ok_SIfElif in Hok. rewrite ok_SIfElse. cbn [ok_block]. rewrite Bool.andb_true_r. exact Hok.
-  Qed.
-
-  (* ================================================================ while *)
-  Lemma items_at_resolve : forall bt ct kb F l, items_at bt ct kb (resolve F 0 0 l) ->
-    items_at (kb + F) (kb + F - 1) kb l.
-  Proof.
-    intros bt ct kb F l H j it Hj. specialize (H j (resolve_item F 0 j it)).
-    rewrite resolve_nth, Hj in H. specialize (H eq_refl). rewrite H. f_equal.
-    destruct it as [i|n|n]; cbn [resolve_item item_instr I]; [reflexivity| |].
-    - replace (kb + F - (kb + j)) with (F - (0 + j)) by lia. reflexivity.
-    - replace (kb + F - 1 - (kb + j)) with (F - 0 - (0 + j) - 1) by lia. reflexivity.
-  Qed.
-
-  Lemma popn_0 : forall env, popn 0 env = env.
-  Proof. intros [l cap cu]. reflexivity. Qed.
-
-  (* the back edge: jmp_pop -(..) at kj pops the <while> frame and returns to the condition at k *)
-  Lemma back_edge : forall pins kj n k env2 s2 a2 g2,
-    nth_error code kj = Some (mkI OP_JMP_POP [neg_off n]) -> n <= length code -> kj < length code -> kj = k + n ->
-    a_ip a2 = kj -> Rst pins env2 s2 a2 g2 -> 2 <= length (locals env2) ->
-    exists g3, xrun name code a2 g2 (set_ip a2 k) g3 /\ Rst pins (pop_scope env2) s2 (set_ip a2 k) g3 /\
-               frames g3 = tl (frames g2).
-  Proof.
-    intros pins kj n k env2 s2 a2 g2 Hi Hn Hkj Hk Hip (HG & Hops & Hss) Hlen.
-    set (i1 := mkI OP_JMP_POP [neg_off n]) in *.
-    destruct (popn_rel 1 env2 s2 (trc name a2 g2 i1) (Rg_trc _ _ _ _ _ _ HG) ltac:(lia)) as (g3 & Hpop & HG3 & Hf3 & _).
-    rewrite popn_1 in HG3. exists g3. split; [|split].
-    - eapply (xstep_gotopop name code a2 g2 i1 _ kj _ 1 a2); [exact Hip|exact Hi| |apply exec_jmp_pop| |exact Hpop].
-      + apply dec_jmp_pop_back. apply small_code. lia.
-      + rewrite Hip. rewrite goto_back by lia. f_equal. lia.
-    - split; [exact HG3|]. split; [exact Hops|]. cbn [pop_scope locals set_ip a_ss].
-      destruct (locals env2); cbn [tl length] in *; lia.
-    - rewrite Hf3. cbn [trc add_trace frames]. rewrite (skipn_S_tl _ 0). reflexivity.
-  Qed.
-
-  Lemma while_correct : forall cnd body, block_spec body -> stmt_spec (SWhile cnd body).
-  Proof.
-    intros cnd body Hbody pins lr il sl bt ct fuel k a g env s B Hok Hb Hit Hend Hlc Hip HR.
-    rewrite ok_SWhile in Hok. apply Bool.andb_true_iff in Hok as [Hoe Hokb].
-    rewrite sitems_SWhile in *. cbv zeta in *.
-    set (cb0 := bitems c lr (Some 1) body) in *.
-    rewrite !app_length, resolve_length, !app_length, map_length in *. cbn [length] in *.
-    apply items_at_app in Hit as [Hce Hi]. apply items_at_CI in Hce. rewrite map_length in Hi.
-    apply items_at_cons in Hi as [Hi1 Hi]. cbn [item_instr I] in Hi1.
-    apply items_at_resolve in Hi. apply items_at_app in Hi as [Hib Hi2].
-    apply items_at_cons in Hi2 as [Hi2 _]. cbn [item_instr I] in Hi2.
-    set (k1 := k + length (pcode c cnd)) in *.
-    set (kj := S k1 + length cb0) in *.
-    set (fin := k + (length (pcode c cnd) + (1 + (length cb0 + 1)))) in *.
-    assert (Hfin : fin = S kj) by (unfold fin, kj, k1; lia).
-    replace (S k1 + (length cb0 + 1)) with fin in Hib by lia.
-    replace (fin - 1) with kj in Hib by lia.
-    match type of Hi1 with _ = Some {| op := _; args := [sN ?n] |} => set (off := n) in * end.
-    set (i1 := mkI OP_WHILE_LOOP [sN off]) in *.
-    assert (Hdec : decode i1 = DOk (DWhile (Z.of_nat off))) by (apply dec_while; apply small_code; unfold off; lia).
-    cbn [after].
-    assert (Hl1 : 1 <= length (locals env)).
-    { destruct HR as (HG & _). destruct (Rfr_ne _ _ _ _ (Rg_fr _ _ _ HG)) as [Hne _].
-      destruct (locals env); [congruence|cbn [length]; lia]. }
-    enough (Hloop : forall fs0 fuel a g env s, bound_in B env -> lc_ok il sl bt ct env fin -> a_ip a = k ->
-              Rst pins env s a g -> 1 <= length (locals env) -> tl (frames g) = tl fs0 ->
-              post pins sl bt ct fin B env fs0 a g (Eval.exec fuel env (SWhile cnd body) s))
-      by (apply Hloop; auto).
-    clear a g env s Hb Hlc Hip HR Hl1 fuel. intros fs0.
-    induction fuel as [|fuel IH]; intros a g env s Hb Hlc Hip HR Hl1 Hfs; [exact Logic.I|].
-    destruct HR as (HG & Hops & Hss).
-    pose proof (expr_run pins cnd c fuel k a g env s B Hoe Hb ltac:(lia) Hce ltac:(lia) Hip Hops HG) as He.
-    rewrite exec_SWhile.
-    destruct (eval fuel env cnd s) as [v s1|s1|f s1|]; [|contradiction| |exact Logic.I].
-    2:{ destruct He as (-> & e0 & g' & Hf & Hr & Ho). eapply post_expr_fail; eassumption. }
-    destruct He as (-> & Hfo & g1 & R1 & HG1 & Hf1).
-    fold k1 in R1.
-    set (a1 := upd a k1 [inj v]) in *.
-    set (g1t := trc name a1 g1 i1).
-    assert (HG1t : Rg pins env s g1t) by (apply Rg_trc; exact HG1).
-    assert (Hnb : (forall b, v <> RBool b) -> post pins sl bt ct fin B env fs0 a g (SFailed (FType 12) s)).
-    { intros Hv. cbn [post]. apply fail_post_intro. exists E_not_bool, g1t. split; [|split; [cbn; auto|exact (Rg_out _ _ _ HG1)]].
-      eapply xrun_fail; [exact R1|]. eapply xstep_fail; [reflexivity|exact Hi1|exact Hdec|].
-      apply (exec_while_nb _ a1 g1t (inj v)); [reflexivity|now apply not_bool_inj]. }
-    destruct v as [z|b|t| |p bd ev]; try (apply Hnb; intros b0; discriminate).
-    pose proof (exec_while (Z.of_nat off) a1 g1t b eq_refl) as Hx.
-    destruct b.
-    2:{ (* false: leave the loop *)
-      cbn [post]. split; [apply same_tl_refl; exact (Rg_ne _ _ _ HG)|]. split; [exact Hb|].
-      exists (upd a (k1 + off) []), g1t. split; [|split; [|split; [|split]]].
-      + eapply xrun_trans; [exact R1|].
-        eapply (xstep_goto name code a1 g1 i1 _ k1 _ (set_ops a1 [])); [reflexivity|exact Hi1|exact Hdec|exact Hx|].
-        apply goto_fwd. cbn [set_ops a_ip a1 upd set_ip]. unfold off, fin, k1 in *. lia.
-      + cbn. unfold off, fin, k1. lia.
-      + apply Rst_upd; assumption.
-      + repeat split.
-      + exact (eq_trans Hf1 Hfs). }
-    (* true: push <while>, run the body *)
-    set (a1' := upd a (S k1) []).
-    set (a0 := set_ss a1' (S (a_ss a1'))).
-    set (g0 := push_frame g1t LWhile).
-    assert (R0 : xrun name code a g a0 g0).
-    { eapply xrun_trans; [exact R1|].
-      eapply (xstep_push name code a1 g1 i1 _ k1 LWhile (set_ops a1 [])); [reflexivity|exact Hi1|exact Hdec|exact Hx]. }
-    assert (HR0 : Rst pins (push_scope env) s a0 g0).
-    { split; [apply push_rel; [exact HG1t|reflexivity]|]. split; [reflexivity|].
-      cbn [push_scope locals length a0 a1' set_ss a_ss upd set_ip set_ops]. lia. }
-    assert (Hlc0 : lc_ok true (Some 1) fin kj (push_scope env) (S k1 + length cb0)).
-    { split; [discriminate|]. intros m E. inversion E; subst m. cbn [push_scope locals length].
-      fold kj. repeat split; try lia. }
-    pose proof (Hbody pins lr true (Some 1) fin kj fuel (S k1) a0 g0 (push_scope env) s B Hokb Hb Hib
-                  ltac:(fold cb0; lia) Hlc0 eq_refl HR0) as H.
-    fold cb0 in H. fold kj in H. unfold in_block_.
-    destruct (exec_block fuel (push_scope env) body s) as [sig env2 s2|f s2|]; [| |exact Logic.I].
-    2:{ (* the body fails *)
-      cbn [post] in H |- *. eapply fail_post_map; [|exact H]. intros (e0 & g' & Hf & Hr & Ho). exists e0, g'.
-      split; [eapply xrun_fail; eassumption|]. auto. }
-    cbn [post] in H. destruct H as [Hd H].
-    destruct Hd as [Htl Hne2]. cbn [push_scope locals tl] in Htl.
-    assert (Hd' : same_tl env (pop_scope env2)).
-    { split; cbn [pop_scope locals]; rewrite Htl; [reflexivity|exact (Rg_ne _ _ _ HG)]. }
-    assert (Hlen2 : length (locals env2) = S (length (locals env))).
-    { destruct (locals env2) as [|sc2 l2]; [congruence|]. cbn [tl] in Htl. subst l2. reflexivity. }
-    assert (Hnext : forall a2 g2, xrun name code a0 g0 a2 g2 -> a_ip a2 = kj -> Rst pins env2 s2 a2 g2 -> act_same a0 a2 ->
-              tl (frames g2) = frames g1t ->
-              post pins sl bt ct fin B env fs0 a g (Eval.exec fuel (pop_scope env2) (SWhile cnd body) s2)).
-    { intros a2 g2 R2 Hip2 HR2 Ha2 Hf2.
-      destruct (back_edge pins kj (1 + length cb0 + length (pcode c cnd)) k env2 s2 a2 g2 Hi2 ltac:(lia) ltac:(lia)
-                  ltac:(unfold kj, k1; lia) Hip2 HR2 ltac:(lia)) as (g3 & R3 & HR3 & Hf3).
-      eapply (post_seq pins sl bt ct fin B env fs0 a g (pop_scope env2) (set_ip a2 k) g3);
-        [eapply xrun_trans; [exact R0|eapply xrun_trans; [exact R2|exact R3]]|exact Hd'| |].
-      - destruct Ha2 as (A1 & A2 & A3). repeat split; assumption.
-      - apply IH.
-        + eapply bound_in_eq; [exact Hb|exact Htl].
-        + eapply lc_ok_mono; [exact Hlc|lia|]. cbn [pop_scope locals]. now rewrite Htl.
-        + reflexivity.
-        + exact HR3.
-        + cbn [pop_scope locals]. rewrite Htl. exact Hl1.
-        + rewrite Hf3, Hf2. exact (eq_trans Hf1 Hfs). }
-    destruct sig as [| | |rv].
-    - destruct H as (_ & a2 & g2 & R2 & Hip2 & HR2 & Ha2 & Hf2). eapply Hnext; eassumption.
-    - (* break: control is at fin, the <while> frame is gone *)
-      destruct H as (m & a2 & g2 & Esl & R2 & Hip2 & HR2 & Ha2 & Hf2). inversion Esl; subst m.
-      rewrite popn_1 in HR2.
-      cbn [post]. split; [exact Hd'|]. split; [eapply bound_in_eq; [exact Hb|exact Htl]|].
-      exists a2, g2. split; [eapply xrun_trans; eassumption|]. split; [exact Hip2|]. split; [exact HR2|].
-      split; [destruct Ha2 as (A1 & A2 & A3); repeat split; assumption|].
-      rewrite Hf2. exact (eq_trans Hf1 Hfs).
-    - (* continue: control is at the back edge, the <while> frame still there *)
-      destruct H as (m & a2 & g2 & Esl & R2 & Hip2 & HR2 & Ha2 & Hf2). inversion Esl; subst m.
-      cbn [Nat.sub] in HR2. rewrite popn_0 in HR2. eapply Hnext; eassumption.
-    - destruct H.
-  Qed.
-
-  (* ================================================================ from loops (named, non-colliding counter) *)
-  Section FromIter.
-    Variables (fuel : nat) (incl : bool) (hi : Z) (step : option expr) (cname : str) (collide : bool) (body : list stmt).
-    Fixpoint from_iter (n : nat) (e : fenv) (s : rstate) : sres_ :=
-      match n with O => SFuel | S n =>
-      match lookup_scopes cname (locals e) with
-      | None => SFailed (FUnbound cname) s
-      | Some c =>
-        match sget s c with
-        | Some (RInt i) =>
-          if (if incl then i <=? hi else i <? hi)%Z then
-            match in_block_ fuel body e s with
-            | SOk (SigNormal | SigContinue) e s =>
-              let bump (sv : rvalue) (s : rstate) : sres_ :=
-                match sget s c, sv with
-                | Some (RInt i'), RInt d => if i32_ok (i' + d)%Z then from_iter n e (sset s c (RInt (i' + d)%Z))
-                                            else SFailed FOverflow s
-                | _, _ => SFailed (FType 13) s end in
-              match step with
-              | None => bump (RInt 1) s
-              | Some se => match eval fuel e se s with
-                           | EVal sv s => bump sv s | ENoVal s => SFailed (FType 3) s
-                           | EFail f s => SFailed f s | EFuel => SFuel end
-              end
-            | SOk SigBreak e s => SOk SigNormal (if collide then e else undeclare e cname) s
-            | SOk g e s => SOk g (if collide then e else undeclare e cname) s
-            | r => r end
-          else SOk SigNormal (if collide then e else undeclare e cname) s
-        | _ => SFailed (FType 13) s end
-      end end.
-  End FromIter.
-
-  Lemma exec_SFrom : forall fuel env a b incl step nm collide body s,
-    Eval.exec (S fuel) env (SFrom a b incl step nm collide body) s =
-    match eval fuel env a s with
-    | EVal va s =>
-      match eval fuel env b s with
-      | EVal vb s =>
-        match va, vb with
-        | RInt _, RInt hi =>
-          let cname := match nm with Some x => x | None => [0%N] end in
-          let '(e, s) := (if collide then assign env s cname va else declare env s cname va) in
-          from_iter fuel incl hi step cname collide body fuel e s
-        | _, _ => SFailed (FType 13) s end
-      | ENoVal s => SFailed (FType 3) s | EFail f s => SFailed f s | EFuel => SFuel end
-    | ENoVal s => SFailed (FType 3) s | EFail f s => SFailed f s | EFuel => SFuel end.
-  Proof. reflexivity. Qed.
-
-  Lemma from_iter_S : forall fuel incl hi step cname collide body n e s,
-    from_iter fuel incl hi step cname collide body (S n) e s =
-    match lookup_scopes cname (locals e) with
-    | None => SFailed (FUnbound cname) s
-    | Some c =>
-      match sget s c with
-      | Some (RInt i) =>
-        if (if incl then i <=? hi else i <? hi)%Z then
-          match in_block_ fuel body e s with
-          | SOk (SigNormal | SigContinue) e s =>
-            let bump (sv : rvalue) (s : rstate) : sres_ :=
-              match sget s c, sv with
-              | Some (RInt i'), RInt d => if i32_ok (i' + d)%Z then from_iter fuel incl hi step cname collide body n e (sset s c (RInt (i' + d)%Z))
-                                          else SFailed FOverflow s
-              | _, _ => SFailed (FType 13) s end in
-            match step with
-            | None => bump (RInt 1) s
-            | Some se => match eval fuel e se s with
-                         | EVal sv s => bump sv s | ENoVal s => SFailed (FType 3) s
-                         | EFail f s => SFailed f s | EFuel => SFuel end
-            end
-          | SOk SigBreak e s => SOk SigNormal (if collide then e else undeclare e cname) s
-          | SOk g e s => SOk g (if collide then e else undeclare e cname) s
-          | r => r end
-        else SOk SigNormal (if collide then e else undeclare e cname) s
-      | _ => SFailed (FType 13) s end
-    end.
-  Proof. reflexivity. Qed.
 
   (* ---------------------------------------------------------------- assoc lists *)
   Lemma assoc_del_other : forall A k x (l : list (str * A)), x <> k -> assoc x (assoc_del k l) = assoc x l.
@@ -1437,164 +906,1213 @@ Section Sim.
   Qed.
 
   (* ---------------------------------------------------------------- binding a loop register (not a user name) *)
-  Lemma bind_reg_rel : forall pins env s g y w, Rg pins env s g -> ~ uname y ->
+  Lemma bind_reg_rel : forall pins env s g y w, Rg pins env s g -> ~ uname0 y ->
     exists f fs, frames g = f :: fs /\
       let cn := N.of_nat (length (cells g)) in
       let g' := {| cells := cells g ++ [w];
                    frames := {| lab := lab f; vars := assoc_set y cn (vars f) |} :: fs;
                    out := out g; trace := trace g |} in
-      bind_local g y w = Some g' /\ Rg ((cn, w) :: pins) env s g'.
+      bind_local g y w = Some g' /\ Rg (add_vpin pins cn w) env s g'.
   Proof.
-    intros pins [l cap cu] [st ro] [cs fs o tr] y w [Hfr Hb Hc Ho Hbase Hun Hns Hpins Hnd] Hy.
+    intros pins [l cap cu] [st ro] [cs fs o tr] y w [Hfr Hb Ho Hbase Hun Hns Hpins Hnd Hfp Hfl] Hy.
     cbn [locals captured store rout cells frames out trace] in *.
     destruct fs as [|f fs]; [destruct (Rfr_ne _ _ _ _ Hfr); congruence|].
     exists f, fs. split; [reflexivity|]. cbv zeta. split; [reflexivity|].
     set (f' := {| lab := lab f; vars := assoc_set y (N.of_nat (length cs)) (vars f) |}).
     assert (Hfind : forall x, uname x -> find_in_function x (f' :: fs) = find_in_function x (f :: fs)).
-    { intros x Hx. cbn [find_in_function f' vars lab]. rewrite assoc_set_other; [reflexivity|]. intros ->. contradiction. }
+    { intros x Hx. cbn [find_in_function f' vars lab]. rewrite assoc_set_other; [reflexivity|]. intros ->. exact (Hy (proj1 Hx)). }
     constructor; cbn [locals captured store rout cells frames out]; try assumption.
     - rewrite <- (app_nil_r st). apply Rfr_mono. eapply Rfr_top; [exact Hfr|reflexivity|exact Hfind].
     - eapply bij_top; eassumption.
     - destruct l as [|sc l]; [destruct (Rfr_ne _ _ _ _ Hfr); congruence|exact Hbase].
-    - unfold pin_ok in *. cbn [locals frames cells] in *. constructor.
-      + split; cbn [fst snd].
-        * rewrite Nnat.Nat2N.id, nth_error_app2, Nat.sub_diag by lia. reflexivity.
-        * intros c0 Hp. apply (pairs_top l f f' fs _ _ Hfind) in Hp.
-          apply (pairs_cellrel st cs _ _ _ _ Hfr) in Hp. apply cellrel_valid in Hp. lia.
-      + apply pins_mono_. eapply pins_top_; eassumption.
+    - assert (Hold : pins_ok pins l (f' :: fs) (st ++ []) (cs ++ [w])) by (apply pins_mono_; eapply pins_top_; eassumption).
+      rewrite app_nil_r in Hold. destruct Hold as [H1 H2]. split; [|exact H2].
+      intros cy w0 [[-> ->]|Hq]; [|exact (H1 cy w0 Hq)]. split.
+      + rewrite Nnat.Nat2N.id, nth_error_app2, Nat.sub_diag by lia. reflexivity.
+      + intros c0 Hp. apply (pairs_top l f f' fs _ _ Hfind) in Hp.
+        apply (pairs_cellrel st cs _ _ _ _ Hfr) in Hp. apply cellrel_valid in Hp. lia.
     - apply (nd_top f fs); [exact Hnd|]. apply keys_nd_assoc_set. inversion Hnd; assumption.
+    - rewrite <- (app_nil_r st). apply pins_mono_. eapply pins_top_; eassumption.
+    - intros f0 c0 c0' cenv cbf E. specialize (Hfl f0 c0 c0' cenv cbf E).
+      destruct l as [|sc l]; [destruct (Rfr_ne _ _ _ _ Hfr); congruence|].
+      eapply flook_top; [exact Hfl|reflexivity|]. cbn [find_in_function f' vars lab].
+      rewrite assoc_set_other; [reflexivity|]. intros ->. apply Hy. apply Hfun0. apply Hfck. congruence.
+  Qed.
+
+  Lemma Rg_weaken_pin : forall pins pc pw env s g, Rg (add_vpin pins pc pw) env s g -> Rg pins env s g.
+  Proof.
+    intros pins pc pw env s g [A B D E F G H I0 J K]. constructor; try assumption. eapply pins_weaken_. exact H.
   Qed.
 
   (* ---------------------------------------------------------------- the end of a from loop: the counter and the end
      register leave the innermost scope / the top frame *)
-  Lemma undeclare_rel : forall pins p env s g x sc l f fs vs,
-    Rg (p :: pins) env s g -> locals env = sc :: l -> frames g = f :: fs -> uname x ->
-    (forall y, uname y -> y <> x -> assoc y vs = assoc y (vars f)) -> assoc x vs = None ->
+  Lemma undeclare_rel : forall pins pc pw env s g x sc l f fs vs,
+    Rg (add_vpin pins pc pw) env s g -> locals env = sc :: l -> frames g = f :: fs -> uname x ->
+    (forall y, uname0 y -> y <> x -> assoc y vs = assoc y (vars f)) -> assoc x vs = None ->
     assoc x (assoc_del x sc) = None -> lookup_scopes x l = None -> keys_nd vs ->
     Rg pins (undeclare env x) s (with_frames g ({| lab := lab f; vars := vs |} :: fs)).
   Proof.
-    intros pins p [l0 cap cu] [st ro] [cs fs0 o tr] x sc l f fs vs [Hfr Hb Hc Ho Hbase Hun Hns Hpins Hnd] El Ef Hx Hvs Hxv Hxs Hxl Hndv.
+    intros pins pc pw [l0 cap cu] [st ro] [cs fs0 o tr] x sc l f fs vs [Hfr Hb Ho Hbase Hun Hns Hpins Hnd Hfp Hfl] El Ef Hx Hvs Hxv Hxs Hxl Hndv.
     cbn [locals captured store rout cells frames out trace] in *. subst l0 fs0.
     unfold undeclare. cbn [locals captured cur with_frames frames cells out].
     (* lookups of every user name other than x are unchanged on both sides; x is unbound on both sides *)
     assert (HxR : special (lab f) = true -> find_in_function x fs = None).
-    { intros Hsp. cbn [Rfr] in Hfr. destruct Hfr as [_ Hfr]. destruct l as [|sc' l'].
+    { intros Hsp. cbn [StmtRel.Rfr] in Hfr. destruct Hfr as [_ Hfr]. destruct l as [|sc' l'].
       - rewrite Hsp in Hfr. discriminate.
       - destruct Hfr as [_ Hfr]. pose proof (Rfr_look _ _ _ _ Hfr x Hx) as H. rewrite Hxl in H.
         destruct (find_in_function x fs); [contradiction|reflexivity]. }
     assert (Hsrc : forall y, y <> x -> lookup_scopes y (assoc_del x sc :: l) = lookup_scopes y (sc :: l)).
     { intros y Hne. cbn [lookup_scopes]. now rewrite assoc_del_other. }
     assert (Hvm : forall y, uname y -> y <> x -> find_in_function y ({| lab := lab f; vars := vs |} :: fs) = find_in_function y (f :: fs)).
-    { intros y Hy Hne. cbn [find_in_function vars lab]. now rewrite Hvs. }
+    { intros y Hy Hne. cbn [find_in_function vars lab]. now rewrite (Hvs y (proj1 Hy) Hne). }
     assert (Hsx : lookup_scopes x (assoc_del x sc :: l) = None) by (cbn [lookup_scopes]; now rewrite Hxs).
     assert (Hvx : find_in_function x ({| lab := lab f; vars := vs |} :: fs) = None).
     { cbn [find_in_function vars lab]. rewrite Hxv. destruct (special (lab f)) eqn:Es; [now apply HxR|reflexivity]. }
     assert (Hpairs : forall c1 c1', pairs (assoc_del x sc :: l) ({| lab := lab f; vars := vs |} :: fs) c1 c1' -> pairs (sc :: l) (f :: fs) c1 c1').
-    { intros c1 c1' Hp. cbn [pairs] in Hp |- *. destruct Hp as [(y & Hy & E1 & E2)|Hp]; [|right; exact Hp].
+    { intros c1 c1' Hp. cbn [StmtRel.pairs] in Hp |- *. destruct Hp as [(y & Hy & E1 & E2)|Hp]; [|right; exact Hp].
       destruct (list_eq_dec N.eq_dec y x) as [->|Hne]; [congruence|].
       left. exists y. rewrite <- Hsrc, <- Hvm by assumption. auto. }
     constructor; cbn [locals captured store rout cells frames out with_frames]; try assumption.
-    - cbn [Rfr] in Hfr |- *. destruct Hfr as [Hl Hrest]. split; [|exact Hrest].
+    - cbn [StmtRel.Rfr] in Hfr |- *. destruct Hfr as [Hl Hrest]. split; [|exact Hrest].
       intros y Hy. destruct (list_eq_dec N.eq_dec y x) as [->|Hne].
       + rewrite Hsx, Hvx. exact Logic.I.
       + rewrite Hsrc, Hvm by assumption. exact (Hl y Hy).
     - intros c1 c1' c2 c2' H1 H2. exact (Hb _ _ _ _ (Hpairs _ _ H1) (Hpairs _ _ H2)).
-    - intros y Hy. destruct (list_eq_dec N.eq_dec y x) as [->|Hne]; [exact Hx|]. apply Hun. now rewrite <- Hsrc.
+    - intros y Hy. destruct (list_eq_dec N.eq_dec y x) as [->|Hne]; [left; exact Hx|]. apply Hun. now rewrite <- Hsrc.
     - cbn [NS] in Hns |- *. destruct Hns as [H1 H2]. split; [|exact H2].
       intros y Hy. apply H1. destruct (list_eq_dec N.eq_dec y x) as [->|Hne]; [congruence|].
       now rewrite assoc_del_other in Hy.
-    - unfold pin_ok in *. cbn [locals frames cells] in *. apply Forall_inv_tail in Hpins.
-      eapply Forall_impl; [|exact Hpins]. intros [cy w0] [A1 A2]. split; [exact A1|].
-      intros c0 Hp. exact (A2 c0 (Hpairs _ _ Hp)).
+    - apply pins_weaken_ in Hpins. eapply pins_sub_; [exact Hpins|exact Hpairs].
     - apply (nd_top f fs); assumption.
+    - eapply pins_sub_; [exact Hfp|exact Hpairs].
+    - intros f0 c0 c0' cenv cbf E. specialize (Hfl f0 c0 c0' cenv cbf E).
+      assert (Hin : In f0 funs) by (apply Hfck; congruence).
+      assert (Hne : f0 <> x) by (intros ->; exact (uname_nfun _ Hx Hin)).
+      eapply flook_top; [exact Hfl|now rewrite assoc_del_other|].
+      cbn [find_in_function vars lab]. now rewrite (Hvs f0 (Hfun0 f0 Hin) Hne).
   Qed.
+
+  (* ================================================================ calls: argument registers *)
+  Lemma act_eta : forall a, upd a (a_ip a) (a_ops a) = a.
+  Proof. intros [fn ip ops ar cb0 ss]. reflexivity. Qed.
+
+  Lemma reg_not_uname0 : forall k, ~ uname0 (reg k).
+  Proof. intros k [H _]. exact H. Qed.
+
+  (* binding an expression register keeps the relation (the register is not a user name) *)
+  Lemma reg_bind : forall pins env s g k w, Rg pins env s g ->
+    exists g', bind_local g (reg k) w = Some g' /\ Rg pins env s g' /\ tl (frames g') = tl (frames g) /\
+               cells g' = cells g ++ [w] /\ out g' = out g /\
+               find_in_function (reg k) (frames g') = Some (N.of_nat (length (cells g))) /\
+               (forall y, y <> reg k -> find_in_function y (frames g') = find_in_function y (frames g)).
+  Proof.
+    intros pins env s g k w HG.
+    destruct (bind_reg_rel pins env s g (reg k) w HG (reg_not_uname0 k)) as (f & fs & Ef & Hb). cbv zeta in Hb.
+    destruct Hb as [Hb HG']. eexists. split; [exact Hb|]. split; [eapply Rg_weaken_pin; exact HG'|].
+    cbn [frames cells out]. rewrite Ef. cbn [tl find_in_function vars lab]. split; [reflexivity|]. split; [reflexivity|].
+    split; [reflexivity|]. split; [now rewrite assoc_set_same|].
+    intros y Hy. now rewrite assoc_set_other.
+  Qed.
+
+  (* register #k holds v *)
+  Definition rv (g : gstate) (k : nat) (v : value) : Prop :=
+    exists cj, find_in_function (reg k) (frames g) = Some cj /\ cell_get g cj = Some v.
+
+  Lemma rv_ext : forall d lo hi g g' k v, ext d lo hi g g' -> k < d -> small k -> rv g k v -> rv g' k v.
+  Proof.
+    intros d lo hi g g' k v He Hk Hs (cj & F1 & F2). exists cj. eapply ext_reg_keep; eassumption.
+  Qed.
+  Lemma rv_same : forall g g' k v, frames g' = frames g -> (forall cj w, cell_get g cj = Some w -> cell_get g' cj = Some w) ->
+    rv g k v -> rv g' k v.
+  Proof. intros g g' k v Hf Hc (cj & F1 & F2). exists cj. rewrite Hf. auto. Qed.
+
+  (* ---------------------------------------------------------------- the arguments: evaluated left to right, each
+     parked in its own register; nothing else changes *)
+  Definition args_res (fuel : nat) (env : fenv) (s : rstate) (k0 pos len : nat) (acc : list rvalue)
+             (nargs : nat) (pins : pinset) (a : act) (g : gstate) (r : (list rvalue * rstate) + eres) : Prop :=
+    match r with
+    | inl (vs, s') =>
+      s' = s /\ exists vs', vs = rev acc ++ vs' /\ length vs' = nargs /\ Forall first_order vs' /\
+        exists g', xrun prog name code a g (upd a (pos + len) []) g' /\ Rg pins env s g' /\
+          tl (frames g') = tl (frames g) /\
+          (forall r0 v, r0 < k0 -> small r0 -> rv g r0 v -> rv g' r0 v) /\
+          (forall j v, nth_error vs' j = Some v -> rv g' (k0 + j) (inj v))
+    | inr (EFail f s') => s' = s /\ exists e0 g', xfail prog name code a g e0 g' /\ err_rel f e0 /\ out g' = rout s
+    | inr EFuel => True
+    | inr _ => False
+    end.
+
+  Lemma args_run : forall args k0 pos pins a g env s B acc fuel,
+    forallb (ok_expr B) args = true -> bound_in B env -> small (k0 + length args) -> k0 + length args <= c + length code + 2 ->
+    code_at code pos (argcode k0 args) -> pos + length (argcode k0 args) < length code ->
+    a_ip a = pos -> a_ops a = [] -> Rg pins env s g ->
+    args_res fuel env s k0 pos (length (argcode k0 args)) acc (length args) pins a g (evals_ fuel env args s acc).
+  Proof.
+    induction args as [|e l IH]; intros k0 pos pins a g env s B acc fuel Hok Hb Hsm Hk0 Hc Hend Hip Hops HG.
+    - cbn [evals_ argcode length args_res]. split; [reflexivity|]. exists []. rewrite app_nil_r. split; [reflexivity|].
+      split; [reflexivity|]. split; [constructor|]. exists g. rewrite Nat.add_0_r. rewrite <- Hip, <- Hops, act_eta.
+      split; [apply xrun_refl|]. split; [exact HG|]. split; [reflexivity|]. split; [auto|].
+      intros j v Hj. destruct j; discriminate.
+    - cbn [forallb] in Hok. apply Bool.andb_true_iff in Hok as [Hoe Hol].
+      cbn [argcode] in *. rewrite !app_length in *. cbn [length] in *.
+      apply code_at_app in Hc as [Hce Hc]. apply code_at_app in Hc as [Hi Hcl]. apply code_at_cons in Hi as [Hi _].
+      set (le := length (pcode k0 e)) in *.
+      destruct (ok_expr_parts _ _ Hoe) as (Hp & Hl & Hu).
+      pose proof (expr_run_ext pins e k0 fuel pos a g env s Hp Hl
+                    ltac:(intros x Hx; destruct (Hu x Hx) as [Hs Hin]; split; [eapply bound_in_uname; eassumption|eapply bound_in_look; eassumption])
+                    ltac:(lia) Hce ltac:(fold le; lia) Hip Hops HG) as He.
+      fold le in He. cbn [evals_].
+      destruct (eval fuel env e s) as [v s1|s1|f s1|]; cbn [args_res]; [|contradiction| |exact Logic.I].
+      2:{ destruct He as (-> & e0 & g' & Hf & Hr & Ho). split; [reflexivity|]. exists e0, g'. auto. }
+      destruct He as (-> & Hfo & g1 & R1 & HG1 & He1).
+      set (a1 := upd a (pos + le) [inj v]) in *.
+      set (i1 := mkI OP_STORE_FAST [reg k0]) in *.
+      destruct (reg_bind pins env s (trc name a1 g1 i1) k0 (inj v) (Rg_trc _ _ _ _ _ _ HG1)) as (g2 & Hb2 & HG2 & Ht2 & Hc2 & Ho2 & Hf2 & Hk2).
+      set (a2 := upd a (S (pos + le)) []).
+      assert (R2 : xrun prog name code a g a2 g2).
+      { eapply xrun_trans; [exact R1|].
+        eapply (xstep_next prog name code a1 g1 i1 _ (pos + le) (set_ops a1 [])); [reflexivity|exact Hi|apply dec_store_fast|].
+        apply (exec_store_fast (reg k0) a1 _ (inj v) g2); [reflexivity|exact Hb2]. }
+      assert (Hsk : small k0) by (eapply small_le; [|exact Hsm]; lia).
+      pose proof (IH (S k0) (S (pos + le)) pins a2 g2 env s B (v :: acc) fuel Hol Hb
+                    ltac:(eapply small_le; [|exact Hsm]; lia) ltac:(lia)
+                    ltac:(replace (S (pos + le)) with (pos + le + 1) by lia; exact Hcl) ltac:(lia) eq_refl eq_refl HG2) as Hl2.
+      destruct (evals_ fuel env l s (v :: acc)) as [[vs s2]|r]; cbn [args_res] in Hl2 |- *.
+      + destruct Hl2 as (-> & vs' & -> & Hlv & Hfos & g3 & R3 & HG3 & Ht3 & Hlow3 & Hreg3).
+        split; [reflexivity|]. exists (v :: vs'). split; [cbn [rev]; now rewrite <- app_assoc|].
+        split; [cbn [length]; now rewrite Hlv|]. split; [constructor; assumption|]. exists g3.
+        replace (pos + (le + (1 + length (argcode (S k0) l)))) with (S (pos + le) + length (argcode (S k0) l)) by lia.
+        split; [eapply xrun_trans; [exact R2|exact R3]|]. split; [exact HG3|].
+        split; [rewrite Ht3, Ht2; exact (ext_tail _ _ _ _ _ He1)|].
+        assert (Hstep : forall r0 v0, r0 <= k0 -> small r0 -> (r0 < k0 -> rv g r0 v0) -> (r0 = k0 -> v0 = inj v) -> rv g2 r0 v0).
+        { intros r0 v0 Hr0 Hs0 Hold Hnew. destruct (Nat.eq_dec r0 k0) as [->|Hne].
+          - rewrite (Hnew eq_refl). exists (N.of_nat (length (cells (trc name a1 g1 i1)))). split; [exact Hf2|].
+            unfold cell_get. rewrite Hc2, Nnat.Nat2N.id, nth_error_app2, Nat.sub_diag by lia. reflexivity.
+          - assert (Hlt : r0 < k0) by lia. pose proof (rv_ext _ _ _ _ _ _ _ He1 Hlt Hs0 (Hold Hlt)) as (cj & F1 & F2).
+            exists cj. split.
+            + rewrite Hk2; [exact F1|]. intros E. apply reg_inj in E; [lia|exact Hs0|exact Hsk].
+            + unfold cell_get in *. rewrite Hc2. rewrite nth_error_app1; [exact F2|]. apply nth_error_Some. cbn [trc add_trace cells]. congruence. }
+        split.
+        * intros r0 v0 Hr0 Hs0 Hrv. apply Hlow3; [lia|exact Hs0|]. apply Hstep; [lia|exact Hs0|auto|lia].
+        * intros j v0 Hj. destruct j as [|j].
+          -- cbn [nth_error] in Hj. inversion Hj; subst v0. rewrite Nat.add_0_r.
+             apply Hlow3; [lia|exact Hsk|]. apply Hstep; [lia|exact Hsk|lia|reflexivity].
+          -- cbn [nth_error] in Hj. replace (k0 + S j) with (S k0 + j) by lia. now apply Hreg3.
+      + destruct r as [? ?|?|f s2|]; try exact Hl2.
+        destruct Hl2 as (-> & e0 & g' & Hf & Hr & Ho). split; [reflexivity|]. exists e0, g'. split; [eapply xrun_fail; [exact R2|exact Hf]|]. auto.
+  Qed.
+
+  (* reload the arguments in order *)
+  Lemma loads_run : forall (args : list expr) vs k0 pos a g,
+    length args = length vs -> (forall j v, nth_error vs j = Some v -> rv g (k0 + j) v) ->
+    code_at code pos (argloads k0 args) -> a_ip a = pos ->
+    exists g', xrun prog name code a g (upd a (pos + length args) (a_ops a ++ vs)) g' /\ frames g' = frames g /\
+               cells g' = cells g /\ (forall pins env s, Rg pins env s g -> Rg pins env s g').
+  Proof.
+    induction args as [|e l IH]; intros vs k0 pos a g Hlen Hrv Hc Hip; subst pos.
+    - destruct vs; [|discriminate]. exists g. rewrite Nat.add_0_r, app_nil_r, act_eta.
+      split; [apply xrun_refl|]. auto.
+    - destruct vs as [|v vs]; [discriminate|]. cbn [length] in Hlen. cbn [argloads] in Hc.
+      apply code_at_cons in Hc as [Hi Hc].
+      destruct (Hrv 0 v eq_refl) as (cj & F1 & F2). rewrite Nat.add_0_r in F1.
+      set (i1 := mkI OP_LOAD_FAST [reg k0]) in *.
+      set (a1 := upd a (S (a_ip a)) (a_ops a ++ [v])).
+      set (g1 := trc name a g i1).
+      assert (R1 : xrun prog name code a g a1 g1).
+      { eapply (xstep_next prog name code a g i1 _ (a_ip a) (set_ops a (a_ops a ++ [v]))); [reflexivity|exact Hi|apply dec_load_fast|].
+        exact (exec_load_fast (reg k0) a g1 cj v F1 F2). }
+      destruct (IH vs (S k0) (S (a_ip a)) a1 g1 ltac:(lia)) as (g2 & R2 & Hf2 & Hc2 & HR2).
+      + intros j v0 Hj. replace (S k0 + j) with (k0 + S j) by lia.
+        apply (rv_same g g1); [reflexivity|auto|]. now apply (Hrv (S j)).
+      + exact Hc.
+      + reflexivity.
+      + exists g2. cbn [length]. replace (a_ip a + S (length l)) with (S (a_ip a) + length l) by lia.
+        replace (a_ops a ++ v :: vs) with (a_ops a1 ++ vs) by (cbn [a1 upd set_ops set_ip a_ops]; now rewrite <- app_assoc).
+        split; [eapply xrun_trans; [exact R1|exact R2]|]. split; [exact Hf2|]. split; [exact Hc2|].
+        intros pins env s H. apply HR2. apply Rg_trc. exact H.
+  Qed.
+
+  (* ---------------------------------------------------------------- after a call: every old cell kept its value *)
+  Lemma Rg_val_keep : forall pins env s g s' g', Rg pins env s g -> val_keep s s' g g' -> Rg pins env s' g'.
+  Proof.
+    intros pins env s g s' g' [A B D E F0 G H I0 J K] (Hf & Ho & Hs0 & Hc0).
+    assert (Hs : forall n v, nth_error (store s) n = Some v -> nth_error (store s') n = Some v).
+    { intros n v Hn. specialize (Hs0 (N.of_nat n) v). unfold sget in Hs0. rewrite Nnat.Nat2N.id in Hs0. auto. }
+    assert (Hc : forall n w, nth_error (cells g) n = Some w -> nth_error (cells g') n = Some w).
+    { intros n w Hn. specialize (Hc0 (N.of_nat n) w). unfold cell_get in Hc0. rewrite Nnat.Nat2N.id in Hc0. auto. }
+    constructor; rewrite ?Hf; try assumption.
+    - eapply Rfr_vals; [exact Hs|exact Hc|exact A].
+    - eapply pins_vals_; [exact Hs|exact Hc|exact H].
+    - eapply pins_vals_; [exact Hs|exact Hc|exact J].
+  Qed.
+
+  Lemma lookup_var_fs : forall a g f, a_cb a = cb -> lookup_var a g f = lookup_fs cb (frames g) f.
+  Proof. intros a g f H. unfold lookup_var, load_cb, lookup_fs. now rewrite H. Qed.
+
+  Lemma Rg_fvals : forall pins env s g, Rg pins env s g -> fvals s g.
+  Proof.
+    intros pins env s g HG. destruct (Rg_fpin _ _ _ HG) as [H1 H2]. split.
+    - intros cy w Hq. exact (proj1 (H1 cy w Hq)).
+    - intros c0 v Hq. exact (proj1 (H2 c0 v Hq)).
+  Qed.
+
+  Lemma dec_call : decode (mkI OP_CALL []) = DOk (DCall None).
+  Proof. reflexivity. Qed.
+  Lemma exec_call : forall a g o loc cbf, a_ops a = o ++ [VFun loc cbf] ->
+    exec_d (DCall None) a g = SCall loc cbf o (set_ops a []) g.
+  Proof. intros a g o loc cbf H. unfold exec_d. rewrite H, unsnoc_app. reflexivity. Qed.
+
+  (* the result of a right-hand side *)
+  Definition rhs_res (pins : pinset) (env : fenv) (fin : nat) (a : act) (g : gstate) (r : eres) : Prop :=
+    match r with
+    | EVal v s' => first_order v /\ exists a' g', xrun prog name code a g a' g' /\ a_ip a' = fin /\ a_ops a' = [inj v] /\
+          Rg pins env s' g' /\ tl (frames g') = tl (frames g) /\ act_same a a' /\ a_ss a' = a_ss a
+    | ENoVal s' => exists a' g', xrun prog name code a g a' g' /\ a_ip a' = fin /\ a_ops a' = [] /\
+          Rg pins env s' g' /\ tl (frames g') = tl (frames g) /\ act_same a a' /\ a_ss a' = a_ss a
+    | EFail f s' => fail_post f (exists e0 g', xfail prog name code a g e0 g' /\ err_rel_s f e0 /\ out g' = rout s')
+    | EFuel => True
+    end.
+
+  Lemma rhs_run : forall pins e fuel k a g env s B,
+    fuel <= FU -> ok_rhs FT B e = true -> bound_in B env ->
+    code_at code k (xcode c e) -> k + length (xcode c e) < length code ->
+    a_ip a = k -> a_cb a = cb -> a_ops a = [] -> Rg pins env s g ->
+    rhs_res pins env (k + length (xcode c e)) a g (eval fuel env e s).
+  Proof.
+    intros pins e fuel k a g env s B Hfu Hok Hb Hc Hend Hip Hcb Hops HG. subst k. set (k := a_ip a) in *.
+    unfold ok_rhs in Hok. apply Bool.orb_true_iff in Hok as [Hoe|Hoc].
+    { (* a call-free expression *)
+      destruct (ok_expr_parts _ _ Hoe) as (Hp & _ & _). rewrite (xcode_pure c e Hp) in *.
+      pose proof (expr_run pins e c fuel k a g env s B Hoe Hb ltac:(lia) Hc Hend eq_refl Hops HG) as He.
+      destruct (eval fuel env e s) as [v s1|s1|f s1|]; cbn [rhs_res]; [|contradiction| |exact Logic.I].
+      - destruct He as (-> & Hfo & g1 & R1 & HG1 & Hf1). split; [exact Hfo|].
+        exists (upd a (k + length (pcode c e)) [inj v]), g1. repeat (split; try assumption; try reflexivity).
+      - destruct He as (-> & e0 & g' & Hf & Hr & Ho). apply fail_post_intro. exists e0, g'.
+        split; [exact Hf|]. split; [now apply err_rel_s_of|exact Ho]. }
+    (* a call f(args) *)
+    destruct e as [| | | | | | | | | |fe args| | | |]; try discriminate. destruct fe as [| | | |f| | | | | | | | | |]; try discriminate.
+    cbn [ok_call] in Hoc. destruct (assoc f FT) as [[ps body]|] eqn:Eft; [|discriminate].
+    apply Bool.andb_true_iff in Hoc as [Har Hoa]. apply Nat.eqb_eq in Har.
+    destruct fuel as [|fuel]; [exact Logic.I|]. rewrite eval_ECall.
+    destruct fuel as [|fuel]; [exact Logic.I|].
+    pose proof (assoc_in_fnames FT f _ Eft) as Hin.
+    destruct (assoc f fcells) as [[[[c0 c0'] cenv] cbf]|] eqn:Efc; [|exfalso; exact (proj1 (Hfck f) Hin Efc)].
+    assert (Hl0 : 0 < length (locals env)) by (pose proof (Rg_ne _ _ _ HG); destruct (locals env); [congruence|cbn; lia]).
+    destruct (Rg_flook _ _ _ HG f c0 c0' cenv cbf Efc 0 Hl0) as [Hls Hlv]. cbn [skipn] in Hls, Hlv.
+    destruct (Rg_fpin _ _ _ HG) as [Hvp Hsp].
+    destruct (Hsp c0 (RClos ps body cenv)) as [Hsv _]; [cbn [fpins spin]; exists f, c0', cenv, cbf, ps, body; auto|].
+    destruct (Hvp c0' (VFun (floc f) cbf)) as [Hvv _]; [cbn [fpins vpin]; exists f, c0, cenv, cbf; auto|].
+    rewrite eval_EVar, Hls. unfold sget at 1. rewrite Hsv.
+    (* code layout *)
+    cbn [xcode] in *. cbn [app] in Hc. rewrite !app_length in *. cbn [length app] in *.
+    set (la := length (argcode (S (S c)) args)) in *. set (na := length (argloads (S (S c)) args)) in *.
+    apply code_at_cons in Hc as [Hi1 Hc]. apply code_at_cons in Hc as [Hi2 Hc].
+    apply code_at_app in Hc as [Hca Hc]. apply code_at_app in Hc as [Hcl Hc]. fold la in Hcl, Hc. fold na in Hc.
+    apply code_at_cons in Hc as [Hi3 Hc]. apply code_at_cons in Hc as [Hi4 _].
+    assert (Hna : na = length args) by (unfold na; clear; generalize (S (S c)); induction args; intros n; cbn [argloads length]; [reflexivity|now rewrite IHargs]).
+    (* load f *)
+    set (i1 := mkI OP_LOAD [f]) in *.
+    set (a1 := upd a (S k) [VFun (floc f) cbf]).
+    set (g1 := trc name a g i1).
+    assert (R1 : xrun prog name code a g a1 g1).
+    { eapply (xstep_next prog name code a g i1 _ k (set_ops a [VFun (floc f) cbf])); [reflexivity|exact Hi1|apply dec_load|].
+      pose proof (exec_load f a g1 c0' (VFun (floc f) cbf) ltac:(rewrite (lookup_var_fs a g1 f Hcb); exact Hlv) Hvv) as Hx.
+      rewrite Hops in Hx. exact Hx. }
+    (* store_fast #(c+1) *)
+    set (i2 := mkI OP_STORE_FAST [reg (S c)]) in *.
+    destruct (reg_bind pins env s (trc name a1 g1 i2) (S c) (VFun (floc f) cbf) ltac:(apply Rg_trc; apply Rg_trc; exact HG))
+      as (g2 & Hb2 & HG2 & Ht2 & Hc2 & Ho2 & Hf2 & Hk2).
+    set (a2 := upd a (S (S k)) []).
+    assert (R2 : xrun prog name code a g a2 g2).
+    { eapply xrun_trans; [exact R1|].
+      eapply (xstep_next prog name code a1 g1 i2 _ (S k) (set_ops a1 [])); [reflexivity|exact Hi2|apply dec_store_fast|].
+      apply (exec_store_fast (reg (S c)) a1 _ (VFun (floc f) cbf) g2); [reflexivity|exact Hb2]. }
+    assert (Hrf2 : rv g2 (S c) (VFun (floc f) cbf)).
+    { eexists. split; [exact Hf2|]. unfold cell_get. rewrite Hc2, Nnat.Nat2N.id, nth_error_app2, Nat.sub_diag by lia. reflexivity. }
+    assert (Hcode : length args <= length code).
+    { assert (length args <= la). { unfold la. clear. generalize (S (S c)). induction args as [|e l IH]; intros n; cbn [argcode length]; [lia|].
+        rewrite !app_length. cbn [length]. specialize (IH (S n)). lia. } lia. }
+    assert (Hsmc : small (S (S c) + length args)) by (eapply small_le; [|exact Hsmall]; lia).
+    (* the arguments *)
+    pose proof (args_run args (S (S c)) (S (S k)) pins a2 g2 env s B [] (S fuel) Hoa Hb Hsmc ltac:(lia)
+                  Hca ltac:(fold la; lia) eq_refl eq_refl HG2) as Hargs.
+    fold la in Hargs.
+    destruct (evals_ (S fuel) env args s []) as [[vs s1]|r]; cbn [args_res] in Hargs.
+    2:{ destruct r as [? ?|?|fl s1|]; try contradiction; cbn [rhs_res]; [|exact Logic.I].
+        destruct Hargs as (-> & e0 & g' & Hf & Hr & Ho). apply fail_post_intro. exists e0, g'.
+        split; [eapply xrun_fail; [exact R2|exact Hf]|]. split; [now apply err_rel_s_of|exact Ho]. }
+    destruct Hargs as (-> & vs' & Evs & Hlv' & Hfos & g3 & R3 & HG3 & Ht3 & Hlow3 & Hreg3).
+    cbn [rev app] in Evs. subst vs'.
+    set (a3 := upd a2 (S (S k) + la) []) in *.
+    (* reload the arguments, then the callee *)
+    destruct (loads_run args (map inj vs) (S (S c)) (S (S k) + la) a3 g3 ltac:(rewrite map_length; congruence)) as (g4 & R4 & Hf4 & Hc4 & HR4).
+    { intros j v Hj. rewrite nth_error_map in Hj. destruct (nth_error vs j) as [v0|] eqn:Ev; [|discriminate].
+      inversion Hj; subst v. now apply Hreg3. }
+    { exact Hcl. }
+    { reflexivity. }
+    cbn [a3 upd set_ops a_ops app] in R4. fold a3 in R4.
+    set (a4 := upd a3 (S (S k) + la + length args) (map inj vs)) in *.
+    assert (Hrf4 : rv g4 (S c) (VFun (floc f) cbf)).
+    { apply (rv_same g3 g4); [exact Hf4|intros cj w Hw; unfold cell_get in *; now rewrite Hc4|].
+      apply Hlow3; [lia|eapply small_le; [|exact Hsmc]; lia|exact Hrf2]. }
+    destruct Hrf4 as (cr & Fr & Cr).
+    set (i3 := mkI OP_LOAD_FAST [reg (S c)]) in *.
+    set (g5 := trc name a4 g4 i3).
+    set (a5 := upd a4 (S (S (S k) + la + length args)) (map inj vs ++ [VFun (floc f) cbf])).
+    assert (R5 : xrun prog name code a g a5 g5).
+    { eapply xrun_trans; [exact R2|]. eapply xrun_trans; [exact R3|]. eapply xrun_trans; [exact R4|].
+      eapply (xstep_next prog name code a4 g4 i3 _ (S (S k) + la + length args) (set_ops a4 (map inj vs ++ [VFun (floc f) cbf])));
+        [reflexivity| |apply dec_load_fast|].
+      - replace (S (S k) + la + length args) with (S (S k) + la + na) by lia. exact Hi3.
+      - exact (exec_load_fast (reg (S c)) a4 g5 cr (VFun (floc f) cbf) Fr Cr). }
+    assert (HG5 : Rg pins env s g5) by (apply Rg_trc; apply HR4; exact HG3).
+    set (i4 := mkI OP_CALL []) in *.
+    set (g5t := trc name a5 g5 i4).
+    assert (HG5t : Rg pins env s g5t) by (apply Rg_trc; exact HG5).
+    assert (Hi4' : nth_error code (a_ip a5) = Some i4).
+    { cbn [a5 upd set_ip a_ip]. replace (S (S (S k) + la + length args)) with (S (S (S k) + la + na)) by lia. exact Hi4. }
+    pose proof (exec_call a5 g5t (map inj vs) (floc f) cbf eq_refl) as Hx.
+    assert (Hfin : S (a_ip a5) = k + S (S (la + (na + 2)))) by (cbn [a5 upd set_ip a_ip]; lia).
+    assert (Htl5 : tl (frames g5t) = tl (frames g)).
+    { change (frames g5t) with (frames g4). rewrite Hf4, Ht3, Ht2. reflexivity. }
+    (* the callee *)
+    pose proof (Hcall (S fuel) ltac:(lia) f ps body c0 c0' cenv cbf vs s g5t Eft Efc Hfos ltac:(congruence)
+                  (Rg_out _ _ _ HG5t) (Rg_nd _ _ _ HG5t) (Rg_fvals _ _ _ _ HG5t)) as Hcal.
+    destruct (call_clos_ (S fuel) (RClos ps body cenv) vs s) as [v s1|s1|fl s1|]; cbn [rhs_res]; [| | |exact Logic.I].
+    - destruct Hcal as (Hfov & fuel' & g6 & Hrun & Hkeep). split; [exact Hfov|].
+      exists (next_act (set_ops a5 []) (Some (inj v))), g6. split; [|split; [|split; [|split; [|split; [|split]]]]].
+      + eapply xrun_trans; [exact R5|]. eapply xr_call; [exact Hi4'|apply dec_call|exact Hx|exact Hrun|apply xr_refl].
+      + unfold next_act. cbn [set_ip a_ip set_ops]. exact Hfin.
+      + reflexivity.
+      + eapply Rg_val_keep; [exact HG5t|exact Hkeep].
+      + rewrite (proj1 Hkeep). exact Htl5.
+      + repeat split.
+      + reflexivity.
+    - destruct Hcal as (fuel' & g6 & Hrun & Hkeep).
+      exists (next_act (set_ops a5 []) None), g6. split; [|split; [|split; [|split; [|split; [|split]]]]].
+      + eapply xrun_trans; [exact R5|]. eapply xr_call; [exact Hi4'|apply dec_call|exact Hx|exact Hrun|apply xr_refl].
+      + unfold next_act. cbn [set_ip a_ip set_ops]. exact Hfin.
+      + reflexivity.
+      + eapply Rg_val_keep; [exact HG5t|exact Hkeep].
+      + rewrite (proj1 Hkeep). exact Htl5.
+      + repeat split.
+      + reflexivity.
+    - eapply fail_post_map; [|exact Hcal]. intros (fuel' & e0 & g6 & Hrun & Hr & Ho). exists e0, g6.
+      split; [|split; assumption]. exists a5, g5. split; [exact R5|]. right.
+      exists i4, (DCall None), (floc f), cbf, (map inj vs), (set_ops a5 []), g5t, fuel'. auto using dec_call.
+  Qed.
+
+  (* ================================================================ Stage 1: straight-line statements *)
+  Lemma Rst_upd : forall pins env s a g ip, Rg pins env s g -> length (locals env) <= S (a_ss a) -> Rst pins env s (upd a ip []) g.
+  Proof. intros pins env s a g ip HG Hss. split; [exact HG|]. split; [reflexivity|exact Hss]. Qed.
+
+  Lemma act_same_step : forall a a1 o, act_same a a1 -> act_same a (set_ip (set_ops a1 o) (S (a_ip a1))).
+  Proof. intros a a1 o (A1 & A2 & A3). repeat split; assumption. Qed.
+
+  Lemma assign_correct : forall x e, stmt_spec (SAssign x e).
+  Proof.
+    intros x e pins lr il sl bt ct fuel k a g env s B Hfu Hok Hb Hit Hend Hlc Hip Hcb HR.
+    destruct fuel as [|fuel]; [exact Logic.I|].
+    cbn [ok_stmt] in Hok. rewrite !Bool.andb_true_iff in Hok. destruct Hok as [[Hx Hxf] Hoe].
+    apply Bool.negb_true_iff in Hxf. pose proof (uname_of_b x Hx Hxf) as Hxu. clear Hx. rename Hxu into Hx.
+    cbn [sitems] in *. rewrite app_length, map_length in *. cbn [length] in *.
+    apply items_at_app in Hit as [Hce Hi]. apply items_at_CI in Hce. rewrite map_length in Hi.
+    apply items_at_cons in Hi as [Hi _]. cbn [item_instr] in Hi.
+    destruct HR as (HG & Hops & Hss).
+    pose proof (rhs_run pins e fuel k a g env s B ltac:(lia) Hoe Hb Hce ltac:(lia) Hip Hcb Hops HG) as He.
+    rewrite exec_SAssign.
+    destruct (eval fuel env e s) as [v s1|s1|f s1|]; cbn [rhs_res] in He; [|exact Logic.I|exact He|exact Logic.I].
+    destruct He as (Hfo & a1 & g1 & R1 & Hip1 & Hops1 & HG1 & Hf1 & Ha1 & Hss1).
+    destruct (assign env s1 x v) as [env' s'] eqn:Ea.
+    destruct (store_rel env s1 (trc name a1 g1 (mkI OP_STORE [x])) x v env' s' (Rg_trc _ _ _ _ _ _ HG1) Hx Hfo Ea)
+      as (g2 & Hst & HG2 & Hd & Hbx & Htl).
+    cbn [post]. split; [exact Hd|]. split.
+    { cbn [after]. eapply bound_in_assign; eassumption. }
+    exists (set_ip (set_ops a1 []) (S (a_ip a1))), g2. split; [|split; [|split; [|split]]].
+    - eapply xrun_trans; [exact R1|].
+      eapply (xstep_next prog name code a1 g1 _ _ (a_ip a1) (set_ops a1 [])); [reflexivity|rewrite Hip1; exact Hi|apply dec_store|].
+      apply (exec_store x a1 _ (inj v)); [exact Hops1|exact Hst].
+    - cbn [set_ip a_ip]. rewrite Hip1. lia.
+    - split; [exact HG2|]. split; [reflexivity|]. cbn [set_ip set_ops a_ss]. rewrite Hss1.
+      rewrite (same_tl_length _ _ (Rg_ne _ _ _ HG) Hd). exact Hss.
+    - apply act_same_step. exact Ha1.
+    - exact (eq_trans Htl Hf1).
+  Qed.
+
+  Lemma print_correct : forall e, stmt_spec (SPrint e).
+  Proof.
+    intros e pins lr il sl bt ct fuel k a g env s B Hfu Hok Hb Hit Hend Hlc Hip Hcb HR.
+    destruct fuel as [|fuel]; [exact Logic.I|].
+    cbn [ok_stmt] in Hok. rename Hok into Hoe.
+    cbn [sitems] in *. rewrite app_length, map_length in *. cbn [length] in *.
+    apply items_at_app in Hit as [Hce Hi]. apply items_at_CI in Hce. rewrite map_length in Hi.
+    apply items_at_cons in Hi as [Hi1 Hi]. apply items_at_cons in Hi as [Hi2 _]. cbn [item_instr] in Hi1, Hi2.
+    destruct HR as (HG & Hops & Hss).
+    pose proof (rhs_run pins e fuel k a g env s B ltac:(lia) Hoe Hb Hce ltac:(lia) Hip Hcb Hops HG) as He.
+    rewrite exec_SPrint.
+    destruct (eval fuel env e s) as [v s1|s1|f s1|]; cbn [rhs_res] in He; [|exact Logic.I|exact He|exact Logic.I].
+    destruct He as (Hfo & a1 & g1 & R1 & Hip1 & Hops1 & HG1 & Hf1 & Ha1 & Hss1).
+    destruct (show_inj v Hfo) as (l & Hrs & Hsh). rewrite Hrs.
+    set (g2 := emit_line (trc name a1 g1 (mkI OP_PRINTN [s_star])) l).
+    set (a2 := set_ip a1 (S (a_ip a1))).
+    cbn [post]. split; [apply same_tl_refl; exact (Rg_ne _ _ _ HG)|]. split; [exact Hb|].
+    exists (set_ip (set_ops a2 []) (S (a_ip a2))), (trc name a2 g2 (mkI OP_VOID [])). split; [|split; [|split; [|split]]].
+    - eapply xrun_trans; [exact R1|]. eapply xrun_trans.
+      + eapply (xstep_next prog name code a1 g1 _ _ (a_ip a1) a1); [reflexivity|rewrite Hip1; exact Hi1|apply dec_printn|].
+        apply (exec_print a1 _ (inj v) l); [exact Hops1|exact Hsh].
+      + eapply (xstep_next prog name code a2 g2 _ _ (a_ip a2) (set_ops a2 [])); [reflexivity| |apply dec_void|apply exec_void].
+        cbn [a2 set_ip a_ip]. rewrite Hip1. exact Hi2.
+    - cbn [set_ip a_ip a2]. rewrite Hip1. lia.
+    - split; [apply Rg_trc; apply print_rel; apply Rg_trc; exact HG1|]. split; [reflexivity|].
+      cbn [set_ip set_ops a_ss a2]. rewrite Hss1. exact Hss.
+    - destruct Ha1 as (A1 & A2 & A3). repeat split; assumption.
+    - exact Hf1.
+  Qed.
+
+  Lemma expr_stmt_correct : forall e, stmt_spec (SExpr e).
+  Proof.
+    intros e pins lr il sl bt ct fuel k a g env s B Hfu Hok Hb Hit Hend Hlc Hip Hcb HR.
+    destruct fuel as [|fuel]; [exact Logic.I|].
+    cbn [ok_stmt] in Hok. rename Hok into Hoe.
+    cbn [sitems] in *. rewrite app_length, map_length in *. cbn [length] in *.
+    apply items_at_app in Hit as [Hce Hi]. apply items_at_CI in Hce. rewrite map_length in Hi.
+    apply items_at_cons in Hi as [Hi1 _]. cbn [item_instr] in Hi1.
+    destruct HR as (HG & Hops & Hss).
+    pose proof (rhs_run pins e fuel k a g env s B ltac:(lia) Hoe Hb Hce ltac:(lia) Hip Hcb Hops HG) as He.
+    rewrite exec_SExpr.
+    assert (Hdone : forall s1 a1 g1, xrun prog name code a g a1 g1 -> a_ip a1 = k + length (xcode c e) -> Rg pins env s1 g1 ->
+              tl (frames g1) = tl (frames g) -> act_same a a1 -> a_ss a1 = a_ss a ->
+              post pins sl bt ct (k + (length (xcode c e) + 1)) B env (frames g) a g (SOk SigNormal env s1)).
+    { intros s1 a1 g1 R1 Hip1 HG1 Hf1 Ha1 Hss1.
+      cbn [post]. split; [apply same_tl_refl; exact (Rg_ne _ _ _ HG)|]. split; [exact Hb|].
+      exists (set_ip (set_ops a1 []) (S (a_ip a1))), (trc name a1 g1 (mkI OP_VOID [])). split; [|split; [|split; [|split]]].
+      - eapply xrun_trans; [exact R1|].
+        eapply (xstep_next prog name code a1 g1 _ _ (a_ip a1) (set_ops a1 [])); [reflexivity|rewrite Hip1; exact Hi1|apply dec_void|apply exec_void].
+      - cbn [set_ip a_ip]. rewrite Hip1. lia.
+      - split; [apply Rg_trc; exact HG1|]. split; [reflexivity|]. cbn [set_ip set_ops a_ss]. rewrite Hss1. exact Hss.
+      - apply act_same_step. exact Ha1.
+      - exact Hf1. }
+    destruct (eval fuel env e s) as [v s1|s1|f s1|]; cbn [rhs_res] in He; [| |exact He|exact Logic.I].
+    - destruct He as (Hfo & a1 & g1 & R1 & Hip1 & Hops1 & HG1 & Hf1 & Ha1 & Hss1). eapply Hdone; eassumption.
+    - destruct He as (a1 & g1 & R1 & Hip1 & Hops1 & HG1 & Hf1 & Ha1 & Hss1). eapply Hdone; eassumption.
+  Qed.
+
+  Lemma assert_correct : forall e sp, stmt_spec (SAssert e sp).
+  Proof.
+    intros e sp pins lr il sl bt ct fuel k a g env s B Hfu Hok Hb Hit Hend Hlc Hip Hcb HR.
+    destruct fuel as [|fuel]; [exact Logic.I|].
+    cbn [ok_stmt] in Hok. rename Hok into Hoe.
+    cbn [sitems] in *. rewrite app_length, map_length in *. cbn [length] in *.
+    apply items_at_app in Hit as [Hce Hi]. apply items_at_CI in Hce. rewrite map_length in Hi.
+    apply items_at_cons in Hi as [Hi1 _]. cbn [item_instr] in Hi1.
+    destruct HR as (HG & Hops & Hss).
+    pose proof (expr_run pins e c fuel k a g env s B Hoe Hb ltac:(lia) Hce ltac:(lia) Hip Hops HG) as He.
+    rewrite exec_SAssert.
+    destruct (eval fuel env e s) as [v s1|s1|f s1|]; [|contradiction| |exact Logic.I].
+    2:{ destruct He as (-> & e0 & g' & Hf & Hr & Ho). eapply post_expr_fail; eassumption. }
+    destruct He as (-> & Hfo & g1 & R1 & HG1 & Hf1).
+    set (k1 := k + length (pcode c e)) in *.
+    set (a1 := upd a k1 [inj v]) in *.
+    set (i1 := mkI OP_ASSERT [sp]) in *.
+    pose proof (exec_assert sp a1 (trc name a1 g1 i1) (inj v) eq_refl) as Hx.
+    assert (Hfail : forall f e0, exec_d (DAssert (Some sp)) a1 (trc name a1 g1 i1) = SFail e0 -> err_rel_s f e0 ->
+                                 post pins sl bt ct (k + (length (pcode c e) + 1)) B env (frames g) a g (SFailed f s)).
+    { intros f e0 Hex Hrel. cbn [post]. apply fail_post_intro. exists e0, (trc name a1 g1 i1). split; [|split; [exact Hrel|exact (Rg_out _ _ _ HG1)]].
+      eapply xrun_fail; [exact R1|]. eapply xstep_fail; [reflexivity|exact Hi1|apply dec_assert|exact Hex]. }
+    destruct v as [z|[|]|t| |p bd ev]; cbn [inj val_equals] in Hx; try contradiction.
+    - eapply Hfail; [exact Hx|]. cbn. auto.
+    - cbn [post]. split; [apply same_tl_refl; exact (Rg_ne _ _ _ HG)|]. split; [exact Hb|].
+      exists (upd a (S k1) []), (trc name a1 g1 i1). split; [|split; [|split; [|split]]].
+      + eapply xrun_trans; [exact R1|].
+        eapply (xstep_next prog name code a1 g1 _ _ k1 (set_ops a1 [])); [reflexivity|exact Hi1|apply dec_assert|exact Hx].
+      + cbn. lia.
+      + apply Rst_upd; [|exact Hss]. apply Rg_trc. exact HG1.
+      + repeat split.
+      + exact Hf1.
+    - eapply Hfail; [exact Hx|]. reflexivity.
+    - eapply Hfail; [exact Hx|]. cbn. auto.
+    - eapply Hfail; [exact Hx|]. cbn. right. eexists. reflexivity.
+  Qed.
+
+  Lemma opassign_correct : forall x o e, stmt_spec (SOpAssign x o e).
+  Proof.
+    intros x o e pins lr il sl bt ct fuel k a g env s B Hfu Hok Hb Hit Hend Hlc Hip Hcb HR.
+    destruct fuel as [|fuel]; [exact Logic.I|].
+    cbn [ok_stmt] in Hok. rewrite !Bool.andb_true_iff in Hok. destruct Hok as [[[Ho Hx] HxB] Hoe].
+    apply src_nameb_ok in Hx. apply mem_str_In in HxB.
+    cbn [sitems] in *. rewrite app_length, map_length in *. cbn [length] in *.
+    apply items_at_app in Hit as [Hce Hi]. apply items_at_CI in Hce. rewrite map_length in Hi.
+    apply items_at_cons in Hi as [Hi1 Hi]. apply items_at_cons in Hi as [Hi2 _]. cbn [item_instr] in Hi1, Hi2.
+    destruct HR as (HG & Hops & Hss).
+    pose proof (expr_run pins e (S c) fuel k a g env s B Hoe Hb ltac:(lia) Hce ltac:(lia) Hip Hops HG) as He.
+    rewrite exec_SOpAssign.
+    destruct (eval fuel env e s) as [v s1|s1|f s1|]; [|contradiction| |exact Logic.I].
+    2:{ destruct He as (-> & e0 & g' & Hf & Hr & Ho'). eapply post_expr_fail; eassumption. }
+    destruct He as (-> & Hfo & g1 & R1 & HG1 & Hf1).
+    set (k1 := k + length (pcode (S c) e)) in *.
+    set (a1 := upd a k1 [inj v]) in *.
+    set (i1 := mkI OP_BIN_OP_ASSIGN [binop_sym o ++ [61%N]; x]) in *.
+    set (g1t := trc name a1 g1 i1).
+    assert (HG1t : Rg pins env s g1t) by (apply Rg_trc; exact HG1).
+    destruct (Rg_lookup env s g1t x HG1t (bound_in_uname B env x Hb Hx HxB) (bound_in_look B env x Hb HxB)) as (cx & cx' & cur_ & E1 & E2 & Hp & E3 & Hfc & E4).
+    rewrite (lookup_app_some _ _ (captured env) _ E1), E3.
+    assert (Hlv : lookup_var a1 g1t x = Some cx') by (unfold lookup_var; now rewrite E2).
+    pose proof (exec_bin_op_assign (binop_sym o ++ [61%N]) x a1 g1t cx' (inj v) (inj cur_) Hlv eq_refl E4) as Hx1.
+    rewrite (op_base_arith5 o Ho) in Hx1.
+    pose proof (binop_agree o cur_ v s (arith5_arith_op o Ho)) as Hag.
+    pose proof (arith5_not_bool o cur_ v s) as Hnb.
+    destruct (binop_sem o cur_ v s) as [r s1|s1|f s1|]; try contradiction.
+    - destruct Hag as (-> & Hfr & Hbo). rewrite Hbo in Hx1. specialize (Hnb r s Ho eq_refl).
+      assert (Hx2 : exec_d (DBinOpAssign (binop_sym o ++ [61%N]) x) a1 g1t
+                    = SNext (set_ops a1 [inj r]) (cell_set g1t cx' (inj r))).
+      { rewrite Hx1. destruct (inj r); try reflexivity. contradiction. }
+      set (g2 := cell_set g1t cx' (inj r)).
+      set (a2 := set_ip (set_ops a1 [inj r]) (S k1)).
+      cbn [post]. split; [apply same_tl_refl; exact (Rg_ne _ _ _ HG)|]. split; [exact Hb|].
+      exists (upd a (S (S k1)) []), (trc name a2 g2 (mkI OP_VOID [])). split; [|split; [|split; [|split]]].
+      + eapply xrun_trans; [exact R1|]. eapply xrun_trans.
+        * eapply (xstep_next prog name code a1 g1 _ _ k1 (set_ops a1 [inj r])); [reflexivity|exact Hi1|apply dec_bin_op_assign|exact Hx2].
+        * eapply (xstep_next prog name code a2 g2 _ _ (S k1) (set_ops a2 [])); [reflexivity|exact Hi2|apply dec_void|].
+          apply exec_void.
+      + cbn. lia.
+      + apply Rst_upd; [|exact Hss]. apply Rg_trc. apply update_rel; assumption.
+      + repeat split.
+      + exact Hf1.
+    - destruct Hag as (-> & e0 & Hbo & Hrel). rewrite Hbo in Hx1.
+      cbn [post]. apply fail_post_intro. exists e0, g1t. split; [|split; [now apply err_rel_s_of|exact (Rg_out _ _ _ HG1)]].
+      eapply xrun_fail; [exact R1|]. eapply xstep_fail; [reflexivity|exact Hi1|apply dec_bin_op_assign|exact Hx1].
+  Qed.
+
+  (* ---------------------------------------------------------------- break / continue (resolved placeholders) *)
+  Lemma exec_jmp_pop : forall off n a g, exec_d (DJmpPop off n) a g = SGotoPop off n a g.
+  Proof. reflexivity. Qed.
+
+  Lemma Rst_popn : forall pins m env s a g' t, Rg pins (popn m env) s g' -> a_ops a = [] -> length (locals env) <= S (a_ss a) ->
+    Rst pins (popn m env) s (set_ip a t) g'.
+  Proof.
+    intros pins m env s a g' t HG Hops Hss. split; [exact HG|]. split; [exact Hops|].
+    cbn [popn locals set_ip a_ss]. rewrite skipn_length. lia.
+  Qed.
+
+  Lemma tl_skipn : forall A n (l : list A), tl (skipn n l) = skipn (S n) l.
+  Proof.
+    intros A. induction n as [|n IH]; intros [|x l]; try reflexivity.
+    cbn [skipn]. rewrite IH. reflexivity.
+  Qed.
+
+  Lemma break_correct : stmt_spec SBreak.
+  Proof.
+    intros pins lr il sl bt ct fuel k a g env s B Hfu Hok Hb Hit Hend Hlc Hip Hcb HR.
+    destruct fuel as [|fuel]; [exact Logic.I|].
+    cbn [ok_stmt] in Hok. destruct Hlc as [Hsl Hlc]. specialize (Hsl Hok).
+    destruct sl as [m|]; [|congruence]. destruct (Hlc m eq_refl) as (Hm1 & Hm2 & Hct & Hbt & Hlen & Hmc).
+    cbn [sitems length] in *. apply items_at_cons in Hit as [Hi _]. cbn [item_instr] in Hi.
+    destruct HR as (HG & Hops & Hss).
+    change (Eval.exec (S fuel) env SBreak s) with (SOk SigBreak env s).
+    set (i1 := mkI OP_JMP_POP [sN (bt - k); sN m]) in *.
+    destruct (popn_rel m env s (trc name a g i1) (Rg_trc _ _ _ _ _ _ HG) Hm2) as (g2 & Hpop & HG2 & Hfr2 & _).
+    cbn [post]. split; [apply same_tl_refl; exact (Rg_ne _ _ _ HG)|].
+    exists m, (set_ip a bt), g2. split; [reflexivity|]. split; [|split; [reflexivity|split; [|split]]].
+    - eapply (xstep_gotopop prog name code a g i1 _ k _ m a); [exact Hip|exact Hi| |apply exec_jmp_pop| |exact Hpop].
+      + apply dec_jmp_pop2; apply small_code; lia.
+      + rewrite Hip. rewrite goto_fwd by lia. f_equal. lia.
+    - eapply Rst_popn; eassumption.
+    - repeat split.
+    - exact Hfr2.
+  Qed.
+
+  Lemma continue_correct : stmt_spec SContinue.
+  Proof.
+    intros pins lr il sl bt ct fuel k a g env s B Hfu Hok Hb Hit Hend Hlc Hip Hcb HR.
+    destruct fuel as [|fuel]; [exact Logic.I|].
+    cbn [ok_stmt] in Hok. destruct Hlc as [Hsl Hlc]. specialize (Hsl Hok).
+    destruct sl as [m|]; [|congruence]. destruct (Hlc m eq_refl) as (Hm1 & Hm2 & Hct & Hbt & Hlen & Hmc).
+    cbn [sitems length] in *. apply items_at_cons in Hit as [Hi _]. cbn [item_instr] in Hi.
+    destruct HR as (HG & Hops & Hss).
+    change (Eval.exec (S fuel) env SContinue s) with (SOk SigContinue env s).
+    set (i1 := mkI OP_JMP_POP [sN (ct - k); sN (m - 1)]) in *.
+    destruct (popn_rel (m - 1) env s (trc name a g i1) (Rg_trc _ _ _ _ _ _ HG) ltac:(lia)) as (g2 & Hpop & HG2 & Hfr2 & _).
+    cbn [post]. split; [apply same_tl_refl; exact (Rg_ne _ _ _ HG)|].
+    exists m, (set_ip a ct), g2. split; [reflexivity|]. split; [|split; [reflexivity|split; [|split]]].
+    - eapply (xstep_gotopop prog name code a g i1 _ k _ (m - 1) a); [exact Hip|exact Hi| |apply exec_jmp_pop| |exact Hpop].
+      + apply dec_jmp_pop2; apply small_code; lia.
+      + rewrite Hip. rewrite goto_fwd by lia. f_equal. lia.
+    - eapply Rst_popn; eassumption.
+    - repeat split.
+    - rewrite Hfr2. cbn [trc add_trace frames]. rewrite tl_skipn. f_equal. lia.
+  Qed.
+
+  (* ================================================================ sequencing *)
+  Lemma post_seq : forall pins sl bt ct fin B' env fs0 a g env1 a1 g1 r,
+    xrun prog name code a g a1 g1 -> same_tl env env1 -> act_same a a1 ->
+    post pins sl bt ct fin B' env1 fs0 a1 g1 r -> post pins sl bt ct fin B' env fs0 a g r.
+  Proof.
+    intros pins sl bt ct fin B' env fs0 a g env1 a1 g1 r Hrun Hd Hact H.
+    destruct r as [sig env' s'|f s'|]; cbn [post] in *; [| |exact Logic.I].
+    - destruct H as [Hd' H]. split; [eapply same_tl_trans; eassumption|].
+      destruct sig as [| | |[v|]]; [| | | |exact H].
+      4:{ destruct H as (env'' & a' & g' & R & Hi & Ho & Hfo & HG & Ha). exists env'', a', g'.
+          split; [eapply xrun_trans; eassumption|]. repeat (split; [assumption|]). eapply act_same_trans; eassumption. }
+      + destruct H as (HB & a' & g' & R & Hip & HR & Ha & Hf). split; [exact HB|]. exists a', g'.
+        split; [eapply xrun_trans; eassumption|]. split; [exact Hip|]. split; [exact HR|].
+        split; [eapply act_same_trans; eassumption|exact Hf].
+      + destruct H as (m & a' & g' & Hsl & R & Hip & HR & Ha & Hf). exists m, a', g'. split; [exact Hsl|].
+        split; [eapply xrun_trans; eassumption|]. split; [exact Hip|]. split; [exact HR|].
+        split; [eapply act_same_trans; eassumption|exact Hf].
+      + destruct H as (m & a' & g' & Hsl & R & Hip & HR & Ha & Hf). exists m, a', g'. split; [exact Hsl|].
+        split; [eapply xrun_trans; eassumption|]. split; [exact Hip|]. split; [exact HR|].
+        split; [eapply act_same_trans; eassumption|exact Hf].
+    - eapply fail_post_map; [|exact H]. intros (e & g' & Hf & Hr & Ho). exists e, g'. split; [eapply xrun_fail; eassumption|]. auto.
+  Qed.
+
+  Lemma skipn_tl_eq : forall A m (l1 l2 : list A), 1 <= m -> tl l1 = tl l2 -> skipn m l1 = skipn m l2.
+  Proof.
+    intros A m l1 l2 Hm H. destruct m as [|m]; [lia|]. rewrite !skipn_S_tl. now rewrite H.
+  Qed.
+
+  (* the reference frames may be replaced by any list with the same tail (break / continue pop >= 1 frame) *)
+  Lemma post_rebase : forall pins sl bt ct fin B' env fs1 fs0 a g r,
+    post pins sl bt ct fin B' env fs1 a g r -> tl fs1 = tl fs0 -> (forall m, sl = Some m -> 1 <= m) ->
+    post pins sl bt ct fin B' env fs0 a g r.
+  Proof.
+    intros pins sl bt ct fin B' env fs1 fs0 a g r H Htl Hm.
+    destruct r as [sig env' s'|f s'|]; cbn [post] in *; [|exact H|exact Logic.I].
+    destruct H as [Hd H]. split; [exact Hd|].
+    destruct sig as [| | |rv]; [| | |exact H].
+    - destruct H as (HB & a' & g' & R & Hip & HR & Ha & Hf). split; [exact HB|]. exists a', g'.
+      repeat (split; [assumption|]). congruence.
+    - destruct H as (m & a' & g' & Hsl & R & Hip & HR & Ha & Hf). exists m, a', g'.
+      repeat (split; [assumption|]). rewrite Hf. apply skipn_tl_eq; [now apply Hm|exact Htl].
+    - destruct H as (m & a' & g' & Hsl & R & Hip & HR & Ha & Hf). exists m, a', g'.
+      repeat (split; [assumption|]). rewrite Hf. apply skipn_tl_eq; [now apply Hm|exact Htl].
+  Qed.
+
+  Lemma lc_ok_mono : forall il sl bt ct env env' hi hi', lc_ok il sl bt ct env hi -> hi' <= hi ->
+    length (locals env') = length (locals env) -> lc_ok il sl bt ct env' hi'.
+  Proof.
+    intros il sl bt ct env env' hi hi' [H0 H] Hle Hlen. split; [exact H0|].
+    intros m E. destruct (H m E) as (H1 & H2 & H3 & H4 & H5 & H6).
+    rewrite Hlen. repeat split; try assumption; lia.
+  Qed.
+
+  Lemma lc_ok_m : forall il sl bt ct env hi, lc_ok il sl bt ct env hi -> forall m, sl = Some m -> 1 <= m.
+  Proof. intros il sl bt ct env hi [_ H] m E. exact (proj1 (H m E)). Qed.
+
+  Lemma block_of_stmts : forall l, Forall stmt_spec l -> block_spec l.
+  Proof.
+    induction l as [|st l IH]; intros HF pins lr il sl bt ct fuel k a g env s B Hfu Hok Hb Hit Hend Hlc Hip Hcb HR.
+    - destruct fuel as [|fuel]; [exact Logic.I|]. rewrite exec_block_nil. cbn [bitems length post after_l].
+      split; [apply same_tl_refl; exact (Rg_ne _ _ _ (proj1 HR))|]. split; [exact Hb|]. exists a, g.
+      split; [apply xrun_refl|]. split; [lia|]. split; [exact HR|]. split; [apply act_same_refl|reflexivity].
+    - pose proof (Forall_inv HF) as Hst. pose proof (Forall_inv_tail HF) as Hl. specialize (IH Hl).
+      destruct fuel as [|fuel]; [exact Logic.I|]. rewrite exec_block_cons.
+      cbn [ok_block] in Hok. apply Bool.andb_true_iff in Hok as [Hok1 Hok2].
+      cbn [bitems] in *. rewrite app_length in *. apply items_at_app in Hit as [Hit1 Hit2].
+      pose proof (Hst pins lr il sl bt ct fuel k a g env s B ltac:(lia) Hok1 Hb Hit1 ltac:(lia)
+                      (lc_ok_mono il sl bt ct env env _ (k + length (sitems c lr sl st)) Hlc ltac:(lia) eq_refl) Hip Hcb HR) as H1.
+      destruct (Eval.exec fuel env st s) as [sig env1 s1|f s1|]; [|exact H1|exact Logic.I].
+      destruct sig as [| | |rv].
+      + cbn [post] in H1. destruct H1 as (Hd & HB1 & a1 & g1 & R1 & Hip1 & HR1 & Ha1 & Hf1).
+        pose proof (IH pins lr il sl bt ct fuel (k + length (sitems c lr sl st)) a1 g1 env1 s1 (after B st) ltac:(lia) Hok2 HB1 Hit2 ltac:(lia)
+                       (lc_ok_mono il sl bt ct env env1 _ (k + length (sitems c lr sl st) + length (bitems c lr sl l)) Hlc ltac:(lia) (same_tl_length _ _ (Rg_ne _ _ _ (proj1 HR)) Hd)) Hip1 (eq_trans (proj2 (proj2 Ha1)) Hcb) HR1) as H2.
+        rewrite Nat.add_assoc.
+        eapply post_seq; [exact R1|exact Hd|exact Ha1|].
+        eapply post_rebase; [exact H2|exact Hf1|exact (lc_ok_m _ _ _ _ _ _ Hlc)].
+      + exact H1.
+      + exact H1.
+      + exact H1.
+  Qed.
+
+  (* ================================================================ Stage 2: blocks *)
+  Lemma popn_1 : forall env, popn 1 env = pop_scope env.
+  Proof. intros [l cap cu]. unfold popn, pop_scope. cbn [locals captured cur]. destruct l; reflexivity. Qed.
+  Lemma popn_S_pop : forall m env, popn m (pop_scope env) = popn (S m) env.
+  Proof. intros m [l cap cu]. unfold popn, pop_scope. cbn [locals captured cur]. now rewrite skipn_S_tl. Qed.
+
+  Lemma exec_done : forall a g, exec_d DDone a g = SPopScope a g.
+  Proof. reflexivity. Qed.
+  Lemma exec_else : forall a g, exec_d DElse a g = SPush LElse a g.
+  Proof. reflexivity. Qed.
+  Lemma exec_jmp : forall off a g, exec_d (DJmp off) a g = SGoto off a g.
+  Proof. reflexivity. Qed.
+
+  (* after a normal completion at fin1 the machine runs on to fin2 (e.g. the `jmp` over the else branch) *)
+  Lemma post_extend : forall pins sl bt ct fin1 fin2 B' env fs0 a g r,
+    post pins sl bt ct fin1 B' env fs0 a g r ->
+    (forall env' s' a' g', a_ip a' = fin1 -> Rst pins env' s' a' g' ->
+       exists a'' g'', xrun prog name code a' g' a'' g'' /\ a_ip a'' = fin2 /\ Rst pins env' s' a'' g'' /\ act_same a' a'' /\
+                       frames g'' = frames g') ->
+    post pins sl bt ct fin2 B' env fs0 a g r.
+  Proof.
+    intros pins sl bt ct fin1 fin2 B' env fs0 a g r H Hx.
+    destruct r as [sig env' s'|f s'|]; cbn [post] in *; [|exact H|exact Logic.I].
+    destruct H as [Hd H]. split; [exact Hd|]. destruct sig; try exact H.
+    destruct H as (HB & a' & g' & R & Hip & HR & Ha & Hf). split; [exact HB|].
+    destruct (Hx env' s' a' g' Hip HR) as (a'' & g'' & R' & Hip' & HR' & Ha' & Hf').
+    exists a'', g''. split; [eapply xrun_trans; eassumption|]. split; [exact Hip'|]. split; [exact HR'|].
+    split; [eapply act_same_trans; eassumption|]. rewrite Hf'. exact Hf.
+  Qed.
+
+  (* the machine has just pushed the block frame (if_stmt / else_stmt); body, then `done` *)
+  Lemma in_block_run : forall body, block_spec body ->
+    forall pins lr il sl bt ct fuel kb a g env s B lb, fuel <= FU ->
+      ok_block FT il B body = true -> bound_in B env ->
+      items_at bt ct kb (bitems c lr (option_map S sl) body ++ [I OP_DONE []]) ->
+      kb + length (bitems c lr (option_map S sl) body) + 1 < length code ->
+      lc_ok il sl bt ct env (kb + length (bitems c lr (option_map S sl) body) + 1) ->
+      a_ip a = kb -> a_cb a = cb -> Rst pins env s a g -> special lb = true ->
+      post pins sl bt ct (kb + length (bitems c lr (option_map S sl) body) + 1) B env (frames g)
+           (set_ss a (S (a_ss a))) (push_frame g lb) (in_block_ fuel body env s).
+  Proof.
+    intros body Hbody pins lr il sl bt ct fuel kb a g env s B lb Hfu Hok Hb Hit Hend Hlc Hip Hcb HR Hlb.
+    set (len := length (bitems c lr (option_map S sl) body)) in *.
+    apply items_at_app in Hit as [Hitb Hid]. apply items_at_cons in Hid as [Hid _]. cbn [item_instr] in Hid. fold len in Hid.
+    destruct HR as (HG & Hops & Hss).
+    assert (Hl1 : 1 <= length (locals env)).
+    { destruct (Rfr_ne _ _ _ _ (Rg_fr _ _ _ HG)) as [Hne _]. destruct (locals env); [congruence|cbn [length]; lia]. }
+    assert (HR0 : Rst pins (push_scope env) s (set_ss a (S (a_ss a))) (push_frame g lb)).
+    { split; [apply push_rel; assumption|]. split; [exact Hops|]. cbn [push_scope locals length set_ss a_ss]. lia. }
+    assert (Hlc0 : lc_ok il (option_map S sl) bt ct (push_scope env) (kb + len)).
+    { destruct Hlc as [H0 H1]. split.
+      - intros Hil. specialize (H0 Hil). destruct sl; [discriminate|congruence].
+      - intros m' E. destruct sl as [m|]; [|discriminate]. cbn [option_map] in E. inversion E; subst m'.
+        destruct (H1 m eq_refl) as (A1 & A2 & A3 & A4 & A5 & A6). cbn [push_scope locals length].
+        repeat split; try assumption; lia. }
+    pose proof (Hbody pins lr il (option_map S sl) bt ct fuel kb (set_ss a (S (a_ss a))) (push_frame g lb) (push_scope env) s B
+                  Hfu Hok Hb Hitb ltac:(fold len; lia) Hlc0 Hip Hcb HR0) as H.
+    fold len in H. unfold in_block_.
+    destruct (exec_block fuel (push_scope env) body s) as [sig env2 s2|f s2|]; [|exact H|exact Logic.I].
+    cbn [post] in H |- *. destruct H as [Hd H].
+    destruct Hd as [Htl Hne2]. cbn [push_scope locals tl] in Htl.
+    assert (Hd' : same_tl env (pop_scope env2)).
+    { split; cbn [pop_scope locals]; rewrite Htl; [reflexivity|exact (Rg_ne _ _ _ HG)]. }
+    assert (Hlen2 : length (locals env2) = S (length (locals env))).
+    { destruct (locals env2) as [|sc2 l2]; [congruence|]. cbn [tl] in Htl. subst l2. reflexivity. }
+    split; [exact Hd'|].
+    destruct sig as [| | |rv]; [| | |exact H].
+    - (* normal: execute `done` *)
+      destruct H as (_ & a2 & g2 & R2 & Hip2 & (HG2 & Hops2 & Hss2) & Ha2 & Hf2).
+      set (i1 := mkI OP_DONE []) in *.
+      destruct (popn_rel 1 env2 s2 (trc name a2 g2 i1) (Rg_trc _ _ _ _ _ _ HG2) ltac:(lia)) as (g3 & Hpop & HG3 & Hf3 & _).
+      cbn [pop_frames] in Hpop.
+      destruct (pop_frame (trc name a2 g2 i1)) as [g3'|] eqn:Epop; [|discriminate]. inversion Hpop; subst g3'.
+      destruct (a_ss a2) as [|k'] eqn:Ess; [lia|].
+      rewrite popn_1 in HG3.
+      split; [eapply bound_in_eq; [exact Hb|exact Htl]|].
+      exists (set_ip (set_ss a2 k') (S (a_ip a2))), g3. split; [|split; [|split; [|split]]].
+      + eapply xrun_trans; [exact R2|].
+        eapply (xstep_popscope prog name code a2 g2 i1 _ (kb + len) a2); [exact Hip2|exact Hid|apply dec_done|apply exec_done|exact Ess|exact Epop].
+      + cbn [set_ip a_ip]. lia.
+      + split; [exact HG3|]. split; [exact Hops2|].
+        cbn [pop_scope locals set_ip set_ss a_ss]. destruct (locals env2); cbn [tl length] in *; lia.
+      + destruct Ha2 as (A1 & A2 & A3). repeat split; assumption.
+      + rewrite Hf3. cbn [trc add_trace frames]. rewrite (skipn_S_tl _ 0). cbn [skipn]. rewrite Hf2. reflexivity.
+    - (* break: m+1 frames were popped, control is at bt *)
+      destruct H as (m' & a2 & g2 & Esl & R2 & Hip2 & HR2 & Ha2 & Hf2).
+      destruct sl as [m|]; [|discriminate]. cbn [option_map] in Esl. inversion Esl; subst m'.
+      exists m, a2, g2. split; [reflexivity|]. split; [exact R2|]. split; [exact Hip2|]. split; [|split; [exact Ha2|exact Hf2]].
+      rewrite popn_S_pop. exact HR2.
+    - destruct H as (m' & a2 & g2 & Esl & R2 & Hip2 & HR2 & Ha2 & Hf2).
+      destruct sl as [m|]; [|discriminate]. cbn [option_map] in Esl. inversion Esl; subst m'.
+      destruct Hlc as [_ H1]. destruct (H1 m eq_refl) as (A1 & _).
+      exists m, a2, g2. split; [reflexivity|]. split; [exact R2|]. split; [exact Hip2|]. split; [|split; [exact Ha2|exact Hf2]].
+      rewrite popn_S_pop. replace (S (m - 1)) with (S m - 1) by lia. exact HR2.
+  Qed.
+
+  Lemma not_bool_inj : forall v, (forall b, v <> RBool b) -> forall b, inj v <> VBool b.
+  Proof. intros v H b E. destruct v; cbn in E; try discriminate. inversion E; subst. now apply (H b). Qed.
+
+  Lemma if_correct : forall cnd body, block_spec body -> stmt_spec (SIf cnd body).
+  Proof.
+    intros cnd body Hbody pins lr il sl bt ct fuel k a g env s B Hfu Hok Hb Hit Hend Hlc Hip Hcb HR.
+    destruct fuel as [|fuel]; [exact Logic.I|].
+    rewrite ok_SIf in Hok. apply Bool.andb_true_iff in Hok as [Hoe Hokb].
+    rewrite sitems_SIf in *. cbv zeta in *.
+    set (bi := bitems c lr (option_map S sl) body) in *.
+    rewrite !app_length, map_length in *. cbn [length] in *.
+    apply items_at_app in Hit as [Hce Hi]. apply items_at_CI in Hce. rewrite map_length in Hi.
+    apply items_at_cons in Hi as [Hi1 Hib]. cbn [item_instr I] in Hi1.
+    destruct HR as (HG & Hops & Hss).
+    pose proof (expr_run pins cnd c fuel k a g env s B Hoe Hb ltac:(lia) Hce ltac:(lia) Hip Hops HG) as He.
+    rewrite exec_SIf. cbn [after].
+    destruct (eval fuel env cnd s) as [v s1|s1|f s1|]; [|contradiction| |exact Logic.I].
+    2:{ destruct He as (-> & e0 & g' & Hf & Hr & Ho). eapply post_expr_fail; eassumption. }
+    destruct He as (-> & Hfo & g1 & R1 & HG1 & Hf1).
+    set (k1 := k + length (pcode c cnd)) in *.
+    set (a1 := upd a k1 [inj v]) in *.
+    match type of Hi1 with _ = Some {| op := _; args := [sN ?n] |} => set (off := n) in * end.
+    set (i1 := mkI OP_IF_STMT [sN off]) in *.
+    assert (Hdec : decode i1 = DOk (DIf (Z.of_nat off))) by (apply dec_if; apply small_code; unfold off; lia).
+    set (g1t := trc name a1 g1 i1).
+    assert (HG1t : Rg pins env s g1t) by (apply Rg_trc; exact HG1).
+    assert (Hnb : (forall b, v <> RBool b) -> post pins sl bt ct (k + (length (pcode c cnd) + (1 + (length bi + 1)))) B env (frames g) a g
+                                                   (SFailed (FType 12) s)).
+    { intros Hv. cbn [post]. apply fail_post_intro. exists E_not_bool, g1t. split; [|split; [cbn; auto|exact (Rg_out _ _ _ HG1)]].
+      eapply xrun_fail; [exact R1|]. eapply xstep_fail; [reflexivity|exact Hi1|exact Hdec|].
+      apply (exec_if_nb _ a1 g1t (inj v)); [reflexivity|now apply not_bool_inj]. }
+    destruct v as [z|b|t| |p bd ev]; try (apply Hnb; intros b0; discriminate).
+    pose proof (exec_if (Z.of_nat off) a1 g1t b eq_refl) as Hx.
+    destruct b.
+    - (* true: push <if>, run the body, done *)
+      set (a1' := upd a (S k1) []).
+      assert (Hblk : post pins sl bt ct (k + (length (pcode c cnd) + (1 + (length bi + 1)))) B env (frames g1t)
+                          (set_ss a1' (S (a_ss a1'))) (push_frame g1t LIf) (in_block_ fuel body env s)).
+      { replace (k + (length (pcode c cnd) + (1 + (length bi + 1)))) with (S k1 + length bi + 1) by (unfold k1; lia).
+        apply (in_block_run body Hbody pins lr il sl bt ct fuel (S k1) a1' g1t env s B LIf); try assumption; try reflexivity; try lia.
+        - fold bi. unfold k1. lia.
+        - fold bi. eapply lc_ok_mono; [exact Hlc|unfold k1; lia|reflexivity].
+        - apply Rst_upd; assumption. }
+      eapply post_seq; [|apply same_tl_refl; exact (Rg_ne _ _ _ HG)| |
+        eapply post_rebase; [exact Hblk|exact Hf1|exact (lc_ok_m _ _ _ _ _ _ Hlc)]].
+      + eapply xrun_trans; [exact R1|].
+        eapply (xstep_push prog name code a1 g1 i1 _ k1 LIf (set_ops a1 [])); [reflexivity|exact Hi1|exact Hdec|exact Hx].
+      + repeat split.
+    - (* false: jump over the body *)
+      cbn [post]. split; [apply same_tl_refl; exact (Rg_ne _ _ _ HG)|]. split; [exact Hb|].
+      exists (upd a (k1 + off) []), g1t. split; [|split; [|split; [|split]]].
+      + eapply xrun_trans; [exact R1|].
+        eapply (xstep_goto prog name code a1 g1 i1 _ k1 _ (set_ops a1 [])); [reflexivity|exact Hi1|exact Hdec|exact Hx|].
+        apply goto_fwd. cbn [set_ops a_ip a1 upd set_ip]. unfold off, k1. lia.
+      + cbn. unfold off, k1. lia.
+      + apply Rst_upd; assumption.
+      + repeat split.
+      + exact Hf1.
+  Qed.
+
+  Lemma ifelse_correct : forall cnd body els, block_spec body -> block_spec els -> stmt_spec (SIfElse cnd body els).
+  Proof.
+    intros cnd body els Hbody Hels pins lr il sl bt ct fuel k a g env s B Hfu Hok Hb Hit Hend Hlc Hip Hcb HR.
+    destruct fuel as [|fuel]; [exact Logic.I|].
+    rewrite ok_SIfElse in Hok. rewrite !Bool.andb_true_iff in Hok. destruct Hok as [[Hoe Hokb] Hoke].
+    rewrite sitems_SIfElse in *. cbv zeta in *.
+    set (bi := bitems c lr (option_map S sl) body) in *.
+    set (ei := bitems c lr (option_map S sl) els) in *.
+    cbn [length] in *. rewrite !app_length, map_length in *. cbn [length] in *. rewrite !app_length in *. cbn [length] in *.
+    apply items_at_app in Hit as [Hce Hi]. apply items_at_CI in Hce. rewrite map_length in Hi.
+    apply items_at_cons in Hi as [Hi1 Hi]. cbn [item_instr I] in Hi1.
+    apply items_at_app in Hi as [Hib Hi]. rewrite app_length in Hi. cbn [length] in Hi.
+    apply items_at_cons in Hi as [Hi2 Hi]. cbn [item_instr I] in Hi2.
+    apply items_at_cons in Hi as [Hi3 Hie]. cbn [item_instr I] in Hi3.
+    destruct HR as (HG & Hops & Hss).
+    pose proof (expr_run pins cnd c fuel k a g env s B Hoe Hb ltac:(lia) Hce ltac:(lia) Hip Hops HG) as He.
+    rewrite exec_SIfElse. cbn [after].
+    destruct (eval fuel env cnd s) as [v s1|s1|f s1|]; [|contradiction| |exact Logic.I].
+    2:{ destruct He as (-> & e0 & g' & Hf & Hr & Ho). eapply post_expr_fail; eassumption. }
+    destruct He as (-> & Hfo & g1 & R1 & HG1 & Hf1).
+    set (k1 := k + length (pcode c cnd)) in *.
+    set (a1 := upd a k1 [inj v]) in *.
+    set (kj := S k1 + (length bi + 1)) in *.
+    match type of Hi1 with _ = Some {| op := _; args := [sN ?n] |} => set (off := n) in * end.
+    match type of Hi2 with _ = Some {| op := _; args := [sN ?n] |} => set (offj := n) in * end.
+    set (i1 := mkI OP_IF_STMT [sN off]) in *.
+    set (fin := k + (length (pcode c cnd) + (1 + (length bi + 1 + (1 + S (length ei + 1)))))) in *.
+    assert (Hfin : fin = S (S kj) + length ei + 1) by (unfold fin, kj, k1; lia).
+    assert (Hdec : decode i1 = DOk (DIf (Z.of_nat off))) by (apply dec_if; apply small_code; unfold off; lia).
+    set (g1t := trc name a1 g1 i1).
+    assert (HG1t : Rg pins env s g1t) by (apply Rg_trc; exact HG1).
+    assert (Hnb : (forall b, v <> RBool b) -> post pins sl bt ct fin B env (frames g) a g (SFailed (FType 12) s)).
+    { intros Hv. cbn [post]. apply fail_post_intro. exists E_not_bool, g1t. split; [|split; [cbn; auto|exact (Rg_out _ _ _ HG1)]].
+      eapply xrun_fail; [exact R1|]. eapply xstep_fail; [reflexivity|exact Hi1|exact Hdec|].
+      apply (exec_if_nb _ a1 g1t (inj v)); [reflexivity|now apply not_bool_inj]. }
+    destruct v as [z|b|t| |p bd ev]; try (apply Hnb; intros b0; discriminate).
+    pose proof (exec_if (Z.of_nat off) a1 g1t b eq_refl) as Hx.
+    destruct b.
+    - (* true: push <if>, body, done, jmp over the else branch *)
+      set (a1' := upd a (S k1) []).
+      assert (Hblk : post pins sl bt ct kj B env (frames g1t) (set_ss a1' (S (a_ss a1'))) (push_frame g1t LIf) (in_block_ fuel body env s)).
+      { replace kj with (S k1 + length bi + 1) by (unfold kj; lia).
+        apply (in_block_run body Hbody pins lr il sl bt ct fuel (S k1) a1' g1t env s B LIf); try assumption; try reflexivity; try lia.
+        - fold bi. unfold fin, k1 in *. lia.
+        - fold bi. eapply lc_ok_mono; [exact Hlc|unfold k1; lia|reflexivity].
+        - apply Rst_upd; assumption. }
+      eapply post_seq; [|apply same_tl_refl; exact (Rg_ne _ _ _ HG)| |].
+      + eapply xrun_trans; [exact R1|].
+        eapply (xstep_push prog name code a1 g1 i1 _ k1 LIf (set_ops a1 [])); [reflexivity|exact Hi1|exact Hdec|exact Hx].
+      + repeat split.
+      + eapply post_extend; [eapply post_rebase; [exact Hblk|exact Hf1|exact (lc_ok_m _ _ _ _ _ _ Hlc)]|].
+        intros env' s' a' g' Hip' (HG' & Hops' & Hss').
+        set (ij := mkI OP_JMP [sN offj]) in *.
+        exists (set_ip a' (kj + offj)), (trc name a' g' ij). split; [|split; [|split; [|split]]].
+        * eapply (xstep_goto prog name code a' g' ij _ kj _ a'); [exact Hip'|exact Hi2| |apply exec_jmp|].
+          -- apply dec_jmp. apply small_code. unfold offj. lia.
+          -- rewrite Hip'. apply goto_fwd. unfold offj, fin, kj, k1 in *. lia.
+        * cbn [set_ip a_ip]. unfold offj. lia.
+        * split; [apply Rg_trc; exact HG'|]. split; [exact Hops'|exact Hss'].
+        * repeat split.
+        * reflexivity.
+    - (* false: jump to else_stmt, push <else>, the else block, done *)
+      set (ke := S kj) in *.
+      set (a2 := upd a ke []).
+      set (ie := mkI OP_ELSE_STMT []) in *.
+      set (g2t := trc name a2 g1t ie).
+      set (a2' := upd a (S ke) []).
+      assert (Hblk : post pins sl bt ct fin B env (frames g2t) (set_ss a2' (S (a_ss a2'))) (push_frame g2t LElse) (in_block_ fuel els env s)).
+      { rewrite Hfin. fold ke.
+        apply (in_block_run els Hels pins lr il sl bt ct fuel (S ke) a2' g2t env s B LElse); try assumption; try reflexivity; try lia.
+        - fold ei. unfold ke. lia.
+        - fold ei. eapply lc_ok_mono; [exact Hlc|unfold ke; lia|reflexivity].
+        - apply Rst_upd; [|exact Hss]. apply Rg_trc. exact HG1t. }
+      eapply post_seq; [|apply same_tl_refl; exact (Rg_ne _ _ _ HG)| |
+        eapply post_rebase; [exact Hblk|exact Hf1|exact (lc_ok_m _ _ _ _ _ _ Hlc)]].
+      + eapply xrun_trans; [exact R1|]. eapply xrun_trans.
+        * eapply (xstep_goto prog name code a1 g1 i1 _ k1 _ (set_ops a1 []) g1t ke); [reflexivity|exact Hi1|exact Hdec|exact Hx|].
+          cbn [set_ops a_ip a1 upd set_ip]. rewrite goto_fwd by (unfold off, fin, kj, k1 in *; lia).
+          f_equal. unfold off, ke, kj. lia.
+        * eapply (xstep_push prog name code a2 g1t ie _ ke LElse a2); [reflexivity|exact Hi3|apply dec_else|apply exec_else].
+      + repeat split.
+  Qed.
+
+  Lemma ifelif_correct : forall cnd body nxt, block_spec body -> stmt_spec nxt -> stmt_spec (SIfElif cnd body nxt).
+  Proof.
+    intros cnd body nxt Hbody Hn.
+    assert (Hels : block_spec [nxt]) by (apply block_of_stmts; constructor; [exact Hn|constructor]).
+    pose proof (ifelse_correct cnd body [nxt] Hbody Hels) as H.
+    intros pins lr il sl bt ct fuel k a g env s B Hfu Hok Hb Hit Hend Hlc Hip Hcb HR.
+    assert (Es : sitems c lr sl (SIfElif cnd body nxt) = sitems c lr sl (SIfElse cnd body [nxt])).
+    { rewrite sitems_SIfElif, sitems_SIfElse. cbv zeta. cbn [bitems]. rewrite app_nil_r. reflexivity. }
+    assert (Ee : Eval.exec fuel env (SIfElif cnd body nxt) s = Eval.exec fuel env (SIfElse cnd body [nxt]) s).
+    { destruct fuel; [reflexivity|]. rewrite exec_SIfElif, exec_SIfElse. reflexivity. }
+    rewrite Es in *. rewrite Ee.
+    apply (H pins lr il sl bt ct fuel k a g env s B); try assumption.
+    rewrite ok_SIfElif in Hok. rewrite ok_SIfElse. cbn [ok_block]. rewrite Bool.andb_true_r. exact Hok.
+  Qed.
+
+  (* ================================================================ while *)
+  Lemma items_at_resolve : forall bt ct kb F l, items_at bt ct kb (resolve F 0 0 l) ->
+    items_at (kb + F) (kb + F - 1) kb l.
+  Proof.
+    intros bt ct kb F l H j it Hj. specialize (H j (resolve_item F 0 j it)).
+    rewrite resolve_nth, Hj in H. specialize (H eq_refl). rewrite H. f_equal.
+    destruct it as [i|n|n]; cbn [resolve_item item_instr I]; [reflexivity| |].
+    - replace (kb + F - (kb + j)) with (F - (0 + j)) by lia. reflexivity.
+    - replace (kb + F - 1 - (kb + j)) with (F - 0 - (0 + j) - 1) by lia. reflexivity.
+  Qed.
+
+  Lemma popn_0 : forall env, popn 0 env = env.
+  Proof. intros [l cap cu]. reflexivity. Qed.
+
+  (* the back edge: jmp_pop -(..) at kj pops the <while> frame and returns to the condition at k *)
+  Lemma back_edge : forall pins kj n k env2 s2 a2 g2,
+    nth_error code kj = Some (mkI OP_JMP_POP [neg_off n]) -> n <= length code -> kj < length code -> kj = k + n ->
+    a_ip a2 = kj -> Rst pins env2 s2 a2 g2 -> 2 <= length (locals env2) ->
+    exists g3, xrun prog name code a2 g2 (set_ip a2 k) g3 /\ Rst pins (pop_scope env2) s2 (set_ip a2 k) g3 /\
+               frames g3 = tl (frames g2).
+  Proof.
+    intros pins kj n k env2 s2 a2 g2 Hi Hn Hkj Hk Hip (HG & Hops & Hss) Hlen.
+    set (i1 := mkI OP_JMP_POP [neg_off n]) in *.
+    destruct (popn_rel 1 env2 s2 (trc name a2 g2 i1) (Rg_trc _ _ _ _ _ _ HG) ltac:(lia)) as (g3 & Hpop & HG3 & Hf3 & _).
+    rewrite popn_1 in HG3. exists g3. split; [|split].
+    - eapply (xstep_gotopop prog name code a2 g2 i1 _ kj _ 1 a2); [exact Hip|exact Hi| |apply exec_jmp_pop| |exact Hpop].
+      + apply dec_jmp_pop_back. apply small_code. lia.
+      + rewrite Hip. rewrite goto_back by lia. f_equal. lia.
+    - split; [exact HG3|]. split; [exact Hops|]. cbn [pop_scope locals set_ip a_ss].
+      destruct (locals env2); cbn [tl length] in *; lia.
+    - rewrite Hf3. cbn [trc add_trace frames]. rewrite (skipn_S_tl _ 0). reflexivity.
+  Qed.
+
+  Lemma while_correct : forall cnd body, block_spec body -> stmt_spec (SWhile cnd body).
+  Proof.
+    intros cnd body Hbody pins lr il sl bt ct fuel k a g env s B Hfu Hok Hb Hit Hend Hlc Hip Hcb HR.
+    rewrite ok_SWhile in Hok. apply Bool.andb_true_iff in Hok as [Hoe Hokb].
+    rewrite sitems_SWhile in *. cbv zeta in *.
+    set (cb0 := bitems c lr (Some 1) body) in *.
+    rewrite !app_length, resolve_length, !app_length, map_length in *. cbn [length] in *.
+    apply items_at_app in Hit as [Hce Hi]. apply items_at_CI in Hce. rewrite map_length in Hi.
+    apply items_at_cons in Hi as [Hi1 Hi]. cbn [item_instr I] in Hi1.
+    apply items_at_resolve in Hi. apply items_at_app in Hi as [Hib Hi2].
+    apply items_at_cons in Hi2 as [Hi2 _]. cbn [item_instr I] in Hi2.
+    set (k1 := k + length (pcode c cnd)) in *.
+    set (kj := S k1 + length cb0) in *.
+    set (fin := k + (length (pcode c cnd) + (1 + (length cb0 + 1)))) in *.
+    assert (Hfin : fin = S kj) by (unfold fin, kj, k1; lia).
+    replace (S k1 + (length cb0 + 1)) with fin in Hib by lia.
+    replace (fin - 1) with kj in Hib by lia.
+    match type of Hi1 with _ = Some {| op := _; args := [sN ?n] |} => set (off := n) in * end.
+    set (i1 := mkI OP_WHILE_LOOP [sN off]) in *.
+    assert (Hdec : decode i1 = DOk (DWhile (Z.of_nat off))) by (apply dec_while; apply small_code; unfold off; lia).
+    cbn [after].
+    assert (Hl1 : 1 <= length (locals env)).
+    { destruct HR as (HG & _). destruct (Rfr_ne _ _ _ _ (Rg_fr _ _ _ HG)) as [Hne _].
+      destruct (locals env); [congruence|cbn [length]; lia]. }
+    enough (Hloop : forall fs0 fuel a g env s, fuel <= FU -> bound_in B env -> lc_ok il sl bt ct env fin -> a_ip a = k -> a_cb a = cb ->
+              Rst pins env s a g -> 1 <= length (locals env) -> tl (frames g) = tl fs0 ->
+              post pins sl bt ct fin B env fs0 a g (Eval.exec fuel env (SWhile cnd body) s))
+      by (apply Hloop; auto).
+    clear a g env s Hb Hlc Hip Hcb HR Hl1 Hfu fuel. intros fs0.
+    induction fuel as [|fuel IH]; intros a g env s Hfu Hb Hlc Hip Hcb HR Hl1 Hfs; [exact Logic.I|].
+    destruct HR as (HG & Hops & Hss).
+    pose proof (expr_run pins cnd c fuel k a g env s B Hoe Hb ltac:(lia) Hce ltac:(lia) Hip Hops HG) as He.
+    rewrite exec_SWhile.
+    destruct (eval fuel env cnd s) as [v s1|s1|f s1|]; [|contradiction| |exact Logic.I].
+    2:{ destruct He as (-> & e0 & g' & Hf & Hr & Ho). eapply post_expr_fail; eassumption. }
+    destruct He as (-> & Hfo & g1 & R1 & HG1 & Hf1).
+    fold k1 in R1.
+    set (a1 := upd a k1 [inj v]) in *.
+    set (g1t := trc name a1 g1 i1).
+    assert (HG1t : Rg pins env s g1t) by (apply Rg_trc; exact HG1).
+    assert (Hnb : (forall b, v <> RBool b) -> post pins sl bt ct fin B env fs0 a g (SFailed (FType 12) s)).
+    { intros Hv. cbn [post]. apply fail_post_intro. exists E_not_bool, g1t. split; [|split; [cbn; auto|exact (Rg_out _ _ _ HG1)]].
+      eapply xrun_fail; [exact R1|]. eapply xstep_fail; [reflexivity|exact Hi1|exact Hdec|].
+      apply (exec_while_nb _ a1 g1t (inj v)); [reflexivity|now apply not_bool_inj]. }
+    destruct v as [z|b|t| |p bd ev]; try (apply Hnb; intros b0; discriminate).
+    pose proof (exec_while (Z.of_nat off) a1 g1t b eq_refl) as Hx.
+    destruct b.
+    2:{ (* false: leave the loop *)
+      cbn [post]. split; [apply same_tl_refl; exact (Rg_ne _ _ _ HG)|]. split; [exact Hb|].
+      exists (upd a (k1 + off) []), g1t. split; [|split; [|split; [|split]]].
+      + eapply xrun_trans; [exact R1|].
+        eapply (xstep_goto prog name code a1 g1 i1 _ k1 _ (set_ops a1 [])); [reflexivity|exact Hi1|exact Hdec|exact Hx|].
+        apply goto_fwd. cbn [set_ops a_ip a1 upd set_ip]. unfold off, fin, k1 in *. lia.
+      + cbn. unfold off, fin, k1. lia.
+      + apply Rst_upd; assumption.
+      + repeat split.
+      + exact (eq_trans Hf1 Hfs). }
+    (* true: push <while>, run the body *)
+    set (a1' := upd a (S k1) []).
+    set (a0 := set_ss a1' (S (a_ss a1'))).
+    set (g0 := push_frame g1t LWhile).
+    assert (R0 : xrun prog name code a g a0 g0).
+    { eapply xrun_trans; [exact R1|].
+      eapply (xstep_push prog name code a1 g1 i1 _ k1 LWhile (set_ops a1 [])); [reflexivity|exact Hi1|exact Hdec|exact Hx]. }
+    assert (HR0 : Rst pins (push_scope env) s a0 g0).
+    { split; [apply push_rel; [exact HG1t|reflexivity]|]. split; [reflexivity|].
+      cbn [push_scope locals length a0 a1' set_ss a_ss upd set_ip set_ops]. lia. }
+    assert (Hlc0 : lc_ok true (Some 1) fin kj (push_scope env) (S k1 + length cb0)).
+    { split; [discriminate|]. intros m E. inversion E; subst m. cbn [push_scope locals length].
+      fold kj. repeat split; try lia. }
+    pose proof (Hbody pins lr true (Some 1) fin kj fuel (S k1) a0 g0 (push_scope env) s B ltac:(lia) Hokb Hb Hib
+                  ltac:(fold cb0; lia) Hlc0 eq_refl Hcb HR0) as H.
+    fold cb0 in H. fold kj in H. unfold in_block_.
+    destruct (exec_block fuel (push_scope env) body s) as [sig env2 s2|f s2|]; [| |exact Logic.I].
+    2:{ (* the body fails *)
+      cbn [post] in H |- *. eapply fail_post_map; [|exact H]. intros (e0 & g' & Hf & Hr & Ho). exists e0, g'.
+      split; [eapply xrun_fail; eassumption|]. auto. }
+    cbn [post] in H. destruct H as [Hd H].
+    destruct Hd as [Htl Hne2]. cbn [push_scope locals tl] in Htl.
+    assert (Hd' : same_tl env (pop_scope env2)).
+    { split; cbn [pop_scope locals]; rewrite Htl; [reflexivity|exact (Rg_ne _ _ _ HG)]. }
+    assert (Hlen2 : length (locals env2) = S (length (locals env))).
+    { destruct (locals env2) as [|sc2 l2]; [congruence|]. cbn [tl] in Htl. subst l2. reflexivity. }
+    assert (Hnext : forall a2 g2, xrun prog name code a0 g0 a2 g2 -> a_ip a2 = kj -> Rst pins env2 s2 a2 g2 -> act_same a0 a2 ->
+              tl (frames g2) = frames g1t ->
+              post pins sl bt ct fin B env fs0 a g (Eval.exec fuel (pop_scope env2) (SWhile cnd body) s2)).
+    { intros a2 g2 R2 Hip2 HR2 Ha2 Hf2.
+      destruct (back_edge pins kj (1 + length cb0 + length (pcode c cnd)) k env2 s2 a2 g2 Hi2 ltac:(lia) ltac:(lia)
+                  ltac:(unfold kj, k1; lia) Hip2 HR2 ltac:(lia)) as (g3 & R3 & HR3 & Hf3).
+      eapply (post_seq pins sl bt ct fin B env fs0 a g (pop_scope env2) (set_ip a2 k) g3);
+        [eapply xrun_trans; [exact R0|eapply xrun_trans; [exact R2|exact R3]]|exact Hd'| |].
+      - destruct Ha2 as (A1 & A2 & A3). repeat split; assumption.
+      - apply IH.
+        + lia.
+        + eapply bound_in_eq; [exact Hb|exact Htl].
+        + eapply lc_ok_mono; [exact Hlc|lia|]. cbn [pop_scope locals]. now rewrite Htl.
+        + reflexivity.
+        + cbn [set_ip a_cb]. rewrite (proj2 (proj2 Ha2)). exact Hcb.
+        + exact HR3.
+        + cbn [pop_scope locals]. rewrite Htl. exact Hl1.
+        + rewrite Hf3, Hf2. exact (eq_trans Hf1 Hfs). }
+    destruct sig as [| | |rv].
+    - destruct H as (_ & a2 & g2 & R2 & Hip2 & HR2 & Ha2 & Hf2). eapply Hnext; eassumption.
+    - (* break: control is at fin, the <while> frame is gone *)
+      destruct H as (m & a2 & g2 & Esl & R2 & Hip2 & HR2 & Ha2 & Hf2). inversion Esl; subst m.
+      rewrite popn_1 in HR2.
+      cbn [post]. split; [exact Hd'|]. split; [eapply bound_in_eq; [exact Hb|exact Htl]|].
+      exists a2, g2. split; [eapply xrun_trans; eassumption|]. split; [exact Hip2|]. split; [exact HR2|].
+      split; [destruct Ha2 as (A1 & A2 & A3); repeat split; assumption|].
+      rewrite Hf2. exact (eq_trans Hf1 Hfs).
+    - (* continue: control is at the back edge, the <while> frame still there *)
+      destruct H as (m & a2 & g2 & Esl & R2 & Hip2 & HR2 & Ha2 & Hf2). inversion Esl; subst m.
+      cbn [Nat.sub] in HR2. rewrite popn_0 in HR2. eapply Hnext; eassumption.
+    - (* return from inside the loop *)
+      destruct rv as [v|]; [|destruct H].
+      destruct H as (env'' & a2 & g2 & R2 & Hir & Hor & Hfor & HGr & Ha2).
+      cbn [post]. split; [exact Hd'|]. exists env'', a2, g2. split; [eapply xrun_trans; eassumption|].
+      repeat (split; [assumption|]). destruct Ha2 as (A1 & A2 & A3). repeat split; assumption.
+  Qed.
+
+  (* ================================================================ from loops (named, non-colliding counter) *)
+  Section FromIter.
+    Variables (fuel : nat) (incl : bool) (hi : Z) (step : option expr) (cname : str) (collide : bool) (body : list stmt).
+    Fixpoint from_iter (n : nat) (e : fenv) (s : rstate) : sres_ :=
+      match n with O => SFuel | S n =>
+      match lookup_scopes cname (locals e) with
+      | None => SFailed (FUnbound cname) s
+      | Some c =>
+        match sget s c with
+        | Some (RInt i) =>
+          if (if incl then i <=? hi else i <? hi)%Z then
+            match in_block_ fuel body e s with
+            | SOk (SigNormal | SigContinue) e s =>
+              let bump (sv : rvalue) (s : rstate) : sres_ :=
+                match sget s c, sv with
+                | Some (RInt i'), RInt d => if i32_ok (i' + d)%Z then from_iter n e (sset s c (RInt (i' + d)%Z))
+                                            else SFailed FOverflow s
+                | _, _ => SFailed (FType 13) s end in
+              match step with
+              | None => bump (RInt 1) s
+              | Some se => match eval fuel e se s with
+                           | EVal sv s => bump sv s | ENoVal s => SFailed (FType 3) s
+                           | EFail f s => SFailed f s | EFuel => SFuel end
+              end
+            | SOk SigBreak e s => SOk SigNormal (if collide then e else undeclare e cname) s
+            | SOk g e s => SOk g (if collide then e else undeclare e cname) s
+            | r => r end
+          else SOk SigNormal (if collide then e else undeclare e cname) s
+        | _ => SFailed (FType 13) s end
+      end end.
+  End FromIter.
+
+  Lemma exec_SFrom : forall fuel env a b incl step nm collide body s,
+    Eval.exec (S fuel) env (SFrom a b incl step nm collide body) s =
+    match eval fuel env a s with
+    | EVal va s =>
+      match eval fuel env b s with
+      | EVal vb s =>
+        match va, vb with
+        | RInt _, RInt hi =>
+          let cname := match nm with Some x => x | None => [0%N] end in
+          let '(e, s) := (if collide then assign env s cname va else declare env s cname va) in
+          from_iter fuel incl hi step cname collide body fuel e s
+        | _, _ => SFailed (FType 13) s end
+      | ENoVal s => SFailed (FType 3) s | EFail f s => SFailed f s | EFuel => SFuel end
+    | ENoVal s => SFailed (FType 3) s | EFail f s => SFailed f s | EFuel => SFuel end.
+  Proof. reflexivity. Qed.
+
+  Lemma from_iter_S : forall fuel incl hi step cname collide body n e s,
+    from_iter fuel incl hi step cname collide body (S n) e s =
+    match lookup_scopes cname (locals e) with
+    | None => SFailed (FUnbound cname) s
+    | Some c =>
+      match sget s c with
+      | Some (RInt i) =>
+        if (if incl then i <=? hi else i <? hi)%Z then
+          match in_block_ fuel body e s with
+          | SOk (SigNormal | SigContinue) e s =>
+            let bump (sv : rvalue) (s : rstate) : sres_ :=
+              match sget s c, sv with
+              | Some (RInt i'), RInt d => if i32_ok (i' + d)%Z then from_iter fuel incl hi step cname collide body n e (sset s c (RInt (i' + d)%Z))
+                                          else SFailed FOverflow s
+              | _, _ => SFailed (FType 13) s end in
+            match step with
+            | None => bump (RInt 1) s
+            | Some se => match eval fuel e se s with
+                         | EVal sv s => bump sv s | ENoVal s => SFailed (FType 3) s
+                         | EFail f s => SFailed f s | EFuel => SFuel end
+            end
+          | SOk SigBreak e s => SOk SigNormal (if collide then e else undeclare e cname) s
+          | SOk g e s => SOk g (if collide then e else undeclare e cname) s
+          | r => r end
+        else SOk SigNormal (if collide then e else undeclare e cname) s
+      | _ => SFailed (FType 13) s end
+    end.
+  Proof. reflexivity. Qed.
 
   (* ---------------------------------------------------------------- simple loop bounds: one instruction, no register *)
-  Lemma In_mem_str : forall x l, In x l -> mem_str x l = true.
-  Proof.
-    induction l as [|y l IH]; intros H; [destruct H|]. cbn [mem_str]. destruct H as [->|H].
-    - now rewrite str_eqb_refl.
-    - rewrite IH by exact H. apply Bool.orb_true_r.
-  Qed.
-
   Lemma ok_expr_weaken : forall B x e, ok_expr B e = true -> ok_expr (x :: B) e = true.
   Proof.
     intros B x e H. unfold ok_expr in *. rewrite !Bool.andb_true_iff in *. destruct H as [[H1 H2] H3].
     split; [split; assumption|]. rewrite forallb_forall in *. intros y Hy. specialize (H3 y Hy).
     rewrite Bool.andb_true_iff in *. destruct H3 as [A B0]. split; [exact A|]. cbn [mem_str]. rewrite B0. apply Bool.orb_true_r.
-  Qed.
-
-  (* ---------------------------------------------------------------- a call-free expression only looks at its variables *)
-  Definition res_to (r : eres) (s' : rstate) : eres :=
-    match r with EVal v _ => EVal v s' | ENoVal _ => ENoVal s' | EFail f _ => EFail f s' | EFuel => EFuel end.
-  Definition res_st (r : eres) (s : rstate) : Prop :=
-    match r with EVal _ s0 | ENoVal s0 | EFail _ s0 => s0 = s | EFuel => True end.
-  Definition agree (env : fenv) (s : rstate) (env' : fenv) (s' : rstate) (x : str) : Prop :=
-    exists c c' v, lookup_scopes x (locals env ++ captured env) = Some c /\ sget s c = Some v /\
-                   lookup_scopes x (locals env' ++ captured env') = Some c' /\ sget s' c' = Some v.
-
-  Lemma binop_sem_to : forall o a b s s', res_st (binop_sem o a b s) s /\ binop_sem o a b s' = res_to (binop_sem o a b s) s'.
-  Proof.
-    intros o a b s s'. destruct o, a, b; cbn [binop_sem req rshow]; unfold arith_res;
-      repeat match goal with |- context [if ?c then _ else _] => destruct c end;
-      repeat match goal with |- context [match ?c with _ => _ end] => destruct c end; split; reflexivity.
-  Qed.
-
-  Definition congr_spec (e : expr) : Prop :=
-    forall fuel env s env' s', (forall x, In x (used_e e) -> agree env s env' s' x) ->
-      res_st (eval fuel env e s) s /\ eval fuel env' e s' = res_to (eval fuel env e s) s'.
-
-  Ltac congr_sub IH Hv fuel env s env' s' r :=
-    let H1 := fresh "H1" in let H2 := fresh "H2" in
-    destruct (IH fuel env s env' s' Hv) as [H1 H2]; rewrite H2; clear H2;
-    destruct (eval fuel env r s) as [? ?|?|? ?|]; cbn [res_st res_to] in *; try subst;
-    try (split; reflexivity).
-
-  Theorem eval_pure_congr : forall e, pure e = true -> congr_spec e.
-  Proof.
-    induction e; intros Hp; cbn [pure] in Hp; try discriminate;
-      try (apply Bool.andb_true_iff in Hp as [Hp1 Hp2]);
-      intros fuel env sA env' sB Hv; (destruct fuel as [|fuel]; [split; reflexivity|]).
-    - split; reflexivity.
-    - split; reflexivity.
-    - split; reflexivity.
-    - split; reflexivity.
-    - rewrite !eval_EVar. destruct (Hv x (or_introl eq_refl)) as (c0 & c0' & v & E1 & E2 & E3 & E4).
-      rewrite E1, E2, E3, E4. split; reflexivity.
-    - rewrite !eval_EBin. rewrite used_e_bin in Hv.
-      assert (Hva : forall x, In x (used_e e1) -> agree env sA env' sB x) by (intros x Hx; apply Hv, in_or_app; now left).
-      assert (Hvb : forall x, In x (used_e e2) -> agree env sA env' sB x) by (intros x Hx; apply Hv, in_or_app; now right).
-      congr_sub (IHe1 Hp1) Hva fuel env sA env' sB e1.
-      congr_sub (IHe2 Hp2) Hvb fuel env sA env' sB e2.
-      apply binop_sem_to.
-    - rewrite !eval_EAnd. rewrite used_e_and in Hv.
-      assert (Hva : forall x, In x (used_e e1) -> agree env sA env' sB x) by (intros x Hx; apply Hv, in_or_app; now left).
-      assert (Hvb : forall x, In x (used_e e2) -> agree env sA env' sB x) by (intros x Hx; apply Hv, in_or_app; now right).
-      congr_sub (IHe1 Hp1) Hva fuel env sA env' sB e1.
-      destruct v as [?|[|]|?| |? ? ?]; try (split; reflexivity).
-      congr_sub (IHe2 Hp2) Hvb fuel env sA env' sB e2.
-      destruct v; split; reflexivity.
-    - rewrite !eval_EOr. rewrite used_e_or in Hv.
-      assert (Hva : forall x, In x (used_e e1) -> agree env sA env' sB x) by (intros x Hx; apply Hv, in_or_app; now left).
-      assert (Hvb : forall x, In x (used_e e2) -> agree env sA env' sB x) by (intros x Hx; apply Hv, in_or_app; now right).
-      congr_sub (IHe1 Hp1) Hva fuel env sA env' sB e1.
-      destruct v as [?|[|]|?| |? ? ?]; try (split; reflexivity).
-      congr_sub (IHe2 Hp2) Hvb fuel env sA env' sB e2.
-      destruct v; split; reflexivity.
-    - rewrite !eval_ENot. rewrite used_e_not in Hv.
-      congr_sub (IHe Hp) Hv fuel env sA env' sB e.
-      destruct v; split; reflexivity.
-    - rewrite !eval_ENeg. rewrite used_e_neg in Hv.
-      congr_sub (IHe Hp) Hv fuel env sA env' sB e.
-      destruct v; try (split; reflexivity). unfold arith_res. destruct (i32_ok (- z)); split; reflexivity.
-    - rewrite !eval_ENilOr. rewrite used_e_nilor in Hv.
-      assert (Hva : forall x, In x (used_e e1) -> agree env sA env' sB x) by (intros x Hx; apply Hv, in_or_app; now left).
-      assert (Hvb : forall x, In x (used_e e2) -> agree env sA env' sB x) by (intros x Hx; apply Hv, in_or_app; now right).
-      congr_sub (IHe1 Hp1) Hva fuel env sA env' sB e1.
-      destruct v; try (split; reflexivity). exact (IHe2 Hp2 fuel env sA env' sB Hvb).
-    - rewrite !eval_EGet. rewrite used_e_get in Hv.
-      congr_sub (IHe Hp) Hv fuel env sA env' sB e.
-      destruct v; split; reflexivity.
   Qed.
 
   (* ---------------------------------------------------------------- the loop head of a from loop: load_fast counter,
@@ -1608,7 +2126,7 @@ Section Sim.
     nth_error code (S (S kc)) = Some (mkI OP_BIN_OP [if incl then op_le else op_lt]) ->
     a_ip aL = kc -> find_in_function x (frames gL) = Some c0' -> cell_get gL c0' = Some (VInt i) ->
     find_in_function endr (frames gL) = Some ce -> cell_get gL ce = Some (VInt hi) ->
-    exists g', xrun name code aL gL (upd aL (S (S (S kc))) [VBool (if incl then (i <=? hi)%Z else (i <? hi)%Z)]) g' /\
+    exists g', xrun prog name code aL gL (upd aL (S (S (S kc))) [VBool (if incl then (i <=? hi)%Z else (i <? hi)%Z)]) g' /\
                frames g' = frames gL /\ (forall pins env s, Rg pins env s gL -> Rg pins env s g').
   Proof.
     intros kc x endr incl aL gL c0' ce i hi H1 H2 H3 Hip Fx Cx Fe Ce. subst kc.
@@ -1623,11 +2141,11 @@ Section Sim.
     set (g3 := trc name a2 g2 i3).
     exists g3. split; [|split; [reflexivity|]].
     - eapply xrun_trans; [|eapply xrun_trans].
-      + eapply (xstep_next name code aL gL i1 _ (a_ip aL) (set_ops aL (o ++ [VInt i]))); [reflexivity|exact H1|apply dec_load_fast|].
+      + eapply (xstep_next prog name code aL gL i1 _ (a_ip aL) (set_ops aL (o ++ [VInt i]))); [reflexivity|exact H1|apply dec_load_fast|].
         exact (exec_load_fast x aL g1 c0' (VInt i) Fx Cx).
-      + eapply (xstep_next name code a1 g1 i2 _ (S kc) (set_ops a1 ((o ++ [VInt i]) ++ [VInt hi]))); [reflexivity|exact H2|apply dec_load_fast|].
+      + eapply (xstep_next prog name code a1 g1 i2 _ (S kc) (set_ops a1 ((o ++ [VInt i]) ++ [VInt hi]))); [reflexivity|exact H2|apply dec_load_fast|].
         exact (exec_load_fast endr a1 g2 ce (VInt hi) Fe Ce).
-      + eapply (xstep_next name code a2 g2 i3 _ (S (S kc)) (set_ops a2 [VBool (if incl then (i <=? hi)%Z else (i <? hi)%Z)]));
+      + eapply (xstep_next prog name code a2 g2 i3 _ (S (S kc)) (set_ops a2 [VBool (if incl then (i <=? hi)%Z else (i <? hi)%Z)]));
           [reflexivity|exact H3|apply dec_bin_op|].
         rewrite (exec_bin_op_gen _ a2 g3 o (VInt i) (VInt hi)) by (cbn [a2 set_ip set_ops a_ops]; now rewrite <- app_assoc).
         rewrite cmp_sem. reflexivity.
@@ -1640,9 +2158,9 @@ Section Sim.
     nth_error code p = Some (mkI OP_BIN_OP_ASSIGN [[43%N; 61%N]; x]) ->
     a_ip a2 = p -> a_ops a2 = [VInt d] -> find_in_function x (frames g2) = Some cxv -> cell_get g2 cxv = Some (VInt i') ->
     if i32_ok (i' + d)%Z then
-      exists g3', xrun name code a2 g2 (upd a2 (S p) [VInt (i' + d)%Z]) (cell_set g3' cxv (VInt (i' + d)%Z)) /\
+      exists g3', xrun prog name code a2 g2 (upd a2 (S p) [VInt (i' + d)%Z]) (cell_set g3' cxv (VInt (i' + d)%Z)) /\
                   frames g3' = frames g2 /\ (forall pins env s, Rg pins env s g2 -> Rg pins env s g3')
-    else exists g3, xfail name code a2 g2 (E_overflow OP_BIN_OP) g3 /\ out g3 = out g2.
+    else exists g3, xfail prog name code a2 g2 (E_overflow OP_BIN_OP) g3 /\ out g3 = out g2.
   Proof.
     intros p x d a2 g2 cxv i' H2 Hip Hops Fx Cx. subst p.
     set (i2 := mkI OP_BIN_OP_ASSIGN [[43%N; 61%N]; x]) in *.
@@ -1653,7 +2171,7 @@ Section Sim.
     change (bin_op_sem op_plus (VInt i') (VInt d)) with (arith OP_BIN_OP (i' + d)%Z) in Hx. unfold arith in Hx.
     destruct (i32_ok (i' + d)%Z).
     - exists g2b. split; [|split; [reflexivity|]].
-      + eapply (xstep_next name code a2 g2 i2 _ (a_ip a2) (set_ops a2 [VInt (i' + d)%Z])); [reflexivity|exact H2|apply dec_bin_op_assign|exact Hx].
+      + eapply (xstep_next prog name code a2 g2 i2 _ (a_ip a2) (set_ops a2 [VInt (i' + d)%Z])); [reflexivity|exact H2|apply dec_bin_op_assign|exact Hx].
       + intros pins env s H. apply Rg_trc. exact H.
     - exists g2b. split; [|reflexivity].
       eapply xstep_fail; [reflexivity|exact H2|apply dec_bin_op_assign|exact Hx].
@@ -1663,14 +2181,14 @@ Section Sim.
   Lemma back_edge_gen : forall pins kj n k env2 s2 a2 g2,
     nth_error code kj = Some (mkI OP_JMP_POP [neg_off n]) -> n <= length code -> kj < length code -> kj = k + n ->
     a_ip a2 = kj -> Rg pins env2 s2 g2 -> 2 <= length (locals env2) ->
-    exists g3, xrun name code a2 g2 (set_ip a2 k) g3 /\ Rg pins (pop_scope env2) s2 g3 /\
+    exists g3, xrun prog name code a2 g2 (set_ip a2 k) g3 /\ Rg pins (pop_scope env2) s2 g3 /\
                frames g3 = tl (frames g2).
   Proof.
     intros pins kj n k env2 s2 a2 g2 Hi Hn Hkj Hk Hip HG Hlen.
     set (i1 := mkI OP_JMP_POP [neg_off n]) in *.
     destruct (popn_rel 1 env2 s2 (trc name a2 g2 i1) (Rg_trc _ _ _ _ _ _ HG) ltac:(lia)) as (g3 & Hpop & HG3 & Hf3 & _).
     rewrite popn_1 in HG3. exists g3. split; [|split].
-    - eapply (xstep_gotopop name code a2 g2 i1 _ kj _ 1 a2); [exact Hip|exact Hi| |apply exec_jmp_pop| |exact Hpop].
+    - eapply (xstep_gotopop prog name code a2 g2 i1 _ kj _ 1 a2); [exact Hip|exact Hi| |apply exec_jmp_pop| |exact Hpop].
       + apply dec_jmp_pop_back. apply small_code. lia.
       + rewrite Hip. rewrite goto_back by lia. f_equal. lia.
     - exact HG3.
@@ -1686,23 +2204,24 @@ Section Sim.
   (* agreement of the variables of an expression between two related views of the scopes *)
   Lemma agree_of : forall pins env s g env' s' e B, Rg pins env s g -> ok_expr B e = true -> bound_in B env ->
     (forall y c0, In y B -> lookup_scopes y (locals env) = Some c0 -> lookup_scopes y (locals env') = Some c0) ->
-    (forall c0 v, sget s c0 = Some v -> sget s' c0 = Some v) -> captured env' = [] ->
+    (forall c0 v, sget s c0 = Some v -> sget s' c0 = Some v) ->
     forall y, In y (used_e e) -> agree env s env' s' y.
   Proof.
-    intros pins env s g env' s' e B HG Hok Hb Hl Hs Hc' y Hy.
+    intros pins env s g env' s' e B HG Hok Hb Hl Hs y Hy.
     apply ok_expr_parts in Hok as (_ & _ & Hu). destruct (Hu y Hy) as [Hun Hin].
-    destruct (Rg_var_ok _ _ _ _ HG Hun (proj2 (Hb y) Hin)) as (_ & c0 & v & E1 & E2 & _).
-    exists c0, c0, v. split; [exact E1|]. split; [exact E2|].
-    rewrite (Rg_cap _ _ _ HG), app_nil_r in E1. rewrite Hc', app_nil_r. split; [now apply Hl|now apply Hs].
+    destruct (Rg_lookup _ _ _ _ HG (bound_in_uname _ _ _ Hb Hun Hin) (bound_in_look _ _ _ Hb Hin)) as (c0 & c0' & v & E1 & _ & _ & E2 & _).
+    exists c0, c0, v. split; [now apply lookup_app_some|]. split; [exact E2|].
+    split; [apply lookup_app_some; now apply Hl|now apply Hs].
   Qed.
 
   Lemma from_correct : forall a0 b incl step x body, block_spec body ->
     stmt_spec (SFrom a0 b incl step (Some x) false body).
   Proof.
-    intros a0 b incl step x body Hbody pins lr il sl bt ct fuel k a g env s B Hok Hb Hit Hend Hlc Hip HR.
+    intros a0 b incl step x body Hbody pins lr il sl bt ct fuel k a g env s B Hfu Hok Hb Hit Hend Hlc Hip Hcb HR.
     destruct fuel as [|fuel]; [exact Logic.I|].
-    rewrite ok_SFrom in Hok. rewrite !Bool.andb_true_iff in Hok. destruct Hok as [[[[[Hx HxB] Hoa] Hob] Hst] Hokb].
-    apply src_nameb_ok in Hx. apply Bool.negb_true_iff in HxB. apply step_ok_expr in Hst.
+    rewrite ok_SFrom in Hok. rewrite !Bool.andb_true_iff in Hok. destruct Hok as [[[[[[Hx Hxf] HxB] Hoa] Hob] Hst] Hokb].
+    apply Bool.negb_true_iff in Hxf. pose proof (uname_of_b x Hx Hxf) as Hxu. clear Hx. rename Hxu into Hx.
+    apply Bool.negb_true_iff in HxB. apply step_ok_expr in Hst.
     rewrite sitems_SFrom in *. cbv zeta in *. rewrite step_code_expr in *.
     set (se := step_expr step) in *.
     set (cb0 := bitems c (S lr) (Some 1) body) in *.
@@ -1762,7 +2281,7 @@ Section Sim.
     (* the counter is a fresh name *)
     assert (Hxn : lookup_scopes x (locals env) = None).
     { destruct (lookup_scopes x (locals env)) eqn:E; [|reflexivity].
-      assert (Hin : In x B) by (apply Hb; congruence). apply In_mem_str in Hin. congruence. }
+      destruct (proj1 (proj1 Hb x) ltac:(congruence)) as [Hin|Hin]; [|apply Hlfuns in Hin]; apply In_mem_str in Hin; congruence. }
     destruct (declare env s x va) as [env1 s1] eqn:Edec.
     assert (Eas : assign env s x va = (env1, s1)) by (unfold assign; rewrite Hxn; exact Edec).
     destruct (locals env) as [|sc0 l'] eqn:El; [exact (False_ind _ (Rg_ne _ _ _ HG El))|].
@@ -1772,8 +2291,6 @@ Section Sim.
     assert (Es1 : forall c0 v, sget s c0 = Some v -> sget s1 c0 = Some v).
     { intros c0 v Hv. unfold declare, alloc in Edec. rewrite El in Edec. inversion Edec. unfold sget in *. cbn [store].
       rewrite nth_error_app1; [exact Hv|apply nth_error_Some; congruence]. }
-    assert (Ec1 : captured env1 = []).
-    { unfold declare, alloc in Edec. rewrite El in Edec. inversion Edec. cbn [captured]. exact (Rg_cap _ _ _ HG). }
     assert (Ero : rout s1 = rout s).
     { unfold declare, alloc in Edec. rewrite El in Edec. inversion Edec. reflexivity. }
     (* store_fast x (the VM declares the counter BEFORE it evaluates the upper bound) *)
@@ -1787,15 +2304,15 @@ Section Sim.
       destruct (find_in_function x (frames g1t)); [contradiction|reflexivity]. }
     unfold store_var in Hst2. rewrite Hfn in Hst2.
     set (a2 := upd a (S k1) []).
-    assert (R2 : xrun name code a g a2 g2).
+    assert (R2 : xrun prog name code a g a2 g2).
     { eapply xrun_trans; [exact R1|].
-      eapply (xstep_next name code a1 g1 i_sx _ k1 (set_ops a1 [])); [reflexivity|exact Hi1|apply dec_store_fast|].
+      eapply (xstep_next prog name code a1 g1 i_sx _ k1 (set_ops a1 [])); [reflexivity|exact Hi1|apply dec_store_fast|].
       apply (exec_store_fast x a1 g1t (inj va) g2); [reflexivity|exact Hst2]. }
     assert (HbL1 : bound_in (x :: B) env1).
-    { intros y. rewrite (Hbx2 y), (Hb y). cbn [In]. split; intros [H|H]; auto. }
+    { eapply bound_in_assign; eassumption. }
     (* the upper bound: the reference semantics evaluates it before the counter exists; same result *)
     assert (Hagb : forall y, In y (used_e b) -> agree env s env1 s1 y).
-    { eapply (agree_of pins env s g env1 s1 b B HG Hob); [exact Hb| |exact Es1|exact Ec1].
+    { eapply (agree_of pins env s g env1 s1 b B HG Hob); [exact Hb| |exact Es1].
       intros y c0 Hy Hl0. rewrite El in Hl0. rewrite El1. cbn [lookup_scopes] in Hl0 |- *.
       rewrite assoc_set_other; [exact Hl0|]. intros ->. apply In_mem_str in Hy. congruence. }
     destruct (ok_expr_parts _ _ Hob) as (Hpb & _ & _).
@@ -1815,7 +2332,7 @@ Section Sim.
     set (i_se := mkI OP_STORE_FAST [endr]) in *.
     set (g3t := trc name a3 g3 i_se).
     assert (HG3t : Rg pins env1 s1 g3t) by (apply Rg_trc; exact HG3).
-    destruct (bind_reg_rel pins env1 s1 g3t endr (inj (RInt hi)) HG3t ltac:(intros Hu; exact (uname_not_lregn _ (S lr) Hu eq_refl)))
+    destruct (bind_reg_rel pins env1 s1 g3t endr (inj (RInt hi)) HG3t ltac:(intros [_ Hu]; exact Hu))
       as (f3 & R & Ef3 & Hb3).
     cbv zeta in Hb3. destruct Hb3 as [Hbind3 HG4].
     set (ce := N.of_nat (length (cells g3t))) in *.
@@ -1823,14 +2340,14 @@ Section Sim.
     match type of HG4 with Rg _ _ _ ?G => set (g4 := G) in * end.
     set (a4 := upd a (S (S k1 + lb)) []).
     assert (Hip4 : a_ip a4 = kc) by reflexivity.
-    assert (R4 : xrun name code a g a4 g4).
+    assert (R4 : xrun prog name code a g a4 g4).
     { eapply xrun_trans; [exact R2|]. eapply xrun_trans; [exact R3|].
-      eapply (xstep_next name code a3 g3 i_se _ k3 (set_ops a3 [])); [reflexivity|exact Hi3|apply dec_store_fast|].
+      eapply (xstep_next prog name code a3 g3 i_se _ k3 (set_ops a3 [])); [reflexivity|exact Hi3|apply dec_store_fast|].
       apply (exec_store_fast endr a3 g3t (inj (RInt hi)) g4); [reflexivity|exact Hbind3]. }
     (* ---- static facts about the loop-head frames F2 :: R and scopes lL *)
-    set (pins' := (ce, VInt hi) :: pins).
+    set (pins' := add_vpin pins ce (VInt hi)).
     set (lL := assoc_set x cx sc0 :: l').
-    assert (Hxe : x <> endr) by (apply uname_not_lregn; exact Hx).
+    assert (Hxe : x <> endr) by (exact (uname_not_lregn _ _ Hx)).
     assert (Hxs0 : assoc x sc0 = None /\ lookup_scopes x l' = None).
     { cbn [lookup_scopes] in Hxn. destruct (assoc x sc0); [discriminate|]. auto. }
     destruct Hxs0 as [Hxs0 Hxl'].
@@ -1838,10 +2355,10 @@ Section Sim.
     { rewrite <- Hf1. change (frames g1) with (frames g1t). rewrite <- HtlS, <- Hf3.
       change (frames g3) with (frames g3t). now rewrite Ef3. }
     assert (Hx3 : exists cxv, assoc x (vars f3) = Some cxv).
-    { destruct (Rg_lookup env1 s1 g3t x HG3t Hx ltac:(apply HbL1; now left)) as (c1 & c1' & v1 & _ & E2 & _).
+    { destruct (Rg_lookup env1 s1 g3t x HG3t Hx ltac:(eapply bound_in_look; [exact HbL1|now left])) as (c1 & c1' & v1 & _ & E2 & _).
       rewrite Ef3 in E2. cbn [find_in_function] in E2.
       destruct (assoc x (vars f3)) as [cxv|]; [eexists; reflexivity|exfalso].
-      pose proof (Rg_fr _ _ _ HG3t) as Hfr. rewrite El1, Ef3 in Hfr. cbn [Rfr] in Hfr. destruct Hfr as [_ Hfr].
+      pose proof (Rg_fr _ _ _ HG3t) as Hfr. rewrite El1, Ef3 in Hfr. cbn [StmtRel.Rfr] in Hfr. destruct Hfr as [_ Hfr].
       destruct l' as [|sc' l''].
       - rewrite Hfr in E2. discriminate.
       - destruct Hfr as [Hsp Hfr]. rewrite Hsp in E2.
@@ -1854,8 +2371,8 @@ Section Sim.
     assert (HndF2 : keys_nd (vars F2)).
     { pose proof (Rg_nd _ _ _ HG4) as Hnd. rewrite Ef4 in Hnd. inversion Hnd; assumption. }
     set (vs := assoc_del endr (assoc_del x (vars F2))).
-    assert (Hvs1 : forall y, uname y -> y <> x -> assoc y vs = assoc y (vars F2)).
-    { intros y Hy Hne. assert (y <> endr) by (apply uname_not_lregn; exact Hy).
+    assert (Hvs1 : forall y, uname0 y -> y <> x -> assoc y vs = assoc y (vars F2)).
+    { intros y Hy Hne. assert (y <> endr) by (intros ->; exact (proj2 Hy)).
       unfold vs. now rewrite !assoc_del_other by assumption. }
     assert (Hvs2 : assoc x vs = None).
     { unfold vs. rewrite assoc_del_other by exact Hxe. now apply assoc_del_nd_none. }
@@ -1864,7 +2381,7 @@ Section Sim.
     (* ---- leaving the loop: delete the counter and the end register *)
     assert (Hexit : forall a5 g5 env5 s5, locals env5 = lL -> Rg pins' env5 s5 g5 -> frames g5 = F2 :: R ->
               a_ip a5 = kd -> a_ops a5 = [] -> length lL <= S (a_ss a5) ->
-              exists a6 g6, xrun name code a5 g5 a6 g6 /\ a_ip a6 = fin /\ Rst pins (undeclare env5 x) s5 a6 g6 /\
+              exists a6 g6, xrun prog name code a5 g5 a6 g6 /\ a_ip a6 = fin /\ Rst pins (undeclare env5 x) s5 a6 g6 /\
                             act_same a5 a6 /\ tl (frames g6) = R /\ locals (undeclare env5 x) = sc0 :: l').
     { intros a5 g5 env5 s5 El5 HG5 Ef5 Hip5 Hops5 Hss5.
       set (i_d := mkI OP_DELETE_NAME_SCOPED [x; endr]) in *.
@@ -1872,18 +2389,18 @@ Section Sim.
       assert (Eu : locals (undeclare env5 x) = sc0 :: l') by (unfold undeclare; rewrite El5; cbn [locals lL]; now rewrite Hdel0).
       exists (set_ip a5 (S (a_ip a5))), (with_frames g5t ({| lab := lab F2; vars := vs |} :: R)).
       split; [|split; [|split; [|split; [|split]]]].
-      - eapply (xstep_next name code a5 g5 i_d _ kd a5); [exact Hip5|exact Hdel'|apply dec_delete2|].
+      - eapply (xstep_next prog name code a5 g5 i_d _ kd a5); [exact Hip5|exact Hdel'|apply dec_delete2|].
         exact (exec_delete2 x endr a5 g5t F2 R cx' ce Ef5 Hxe HaxF2 HaeF2).
       - cbn [set_ip a_ip]. rewrite Hip5. reflexivity.
       - split; [|split; [exact Hops5|]].
-        + eapply (undeclare_rel pins (ce, VInt hi) env5 s5 g5t x (assoc_set x cx sc0) l' F2 R vs);
+        + eapply (undeclare_rel pins ce (VInt hi) env5 s5 g5t x (assoc_set x cx sc0) l' F2 R vs);
             [apply Rg_trc; exact HG5|exact El5|exact Ef5|exact Hx|exact Hvs1|exact Hvs2|now rewrite Hdel0|exact Hxl'|exact Hndvs].
         + rewrite Eu. cbn [set_ip a_ss length lL] in *. exact Hss5.
       - repeat split.
       - reflexivity.
       - exact Eu. }
     assert (HbL : forall envL, locals envL = lL -> bound_in (x :: B) envL).
-    { intros envL ElL y. rewrite ElL. unfold lL. rewrite <- El1, (Hbx2 y), (Hb y). cbn [In]. split; intros [H|H]; auto. }
+    { intros envL ElL. eapply bound_in_eq; [exact HbL1|]. rewrite ElL, El1. reflexivity. }
     assert (HlxL : lookup_scopes x lL = Some cx) by (cbn [lL lookup_scopes]; now rewrite assoc_set_same).
     assert (Hkd : kw + (lbd + ls + 3) = kd) by (unfold kd, kj, kp, ks, kb; lia).
     assert (Hkj : kj = kc + (lbd + ls + 5)) by (unfold kj, kp, ks, kb, kw; lia).
@@ -1900,7 +2417,7 @@ Section Sim.
       destruct v as [i|?|?| |? ? ?]; try exact Logic.I. cbn [inj] in E4.
       assert (Fe : find_in_function endr (frames gL) = Some ce) by (rewrite EfL; cbn [find_in_function]; now rewrite HaeF2).
       assert (Ce : cell_get gL ce = Some (VInt hi)).
-      { pose proof (Forall_inv (Rg_pins _ _ _ HGL)) as [Hc _]. exact Hc. }
+      { destruct (Rg_pins _ _ _ HGL) as [Hv _]. exact (proj1 (Hv ce (VInt hi) (or_introl (conj eq_refl eq_refl)))). }
       destruct (from_cond_run kc x endr incl aL gL c0' ce i hi Hc1 Hc2 Hc3 HipL E2 E4 Fe Ce) as (gc & Rc & Efc & HRc).
       set (bb := if incl then (i <=? hi)%Z else (i <? hi)%Z) in *.
       set (ac := upd aL kw [VBool bb]) in *.
@@ -1913,9 +2430,9 @@ Section Sim.
       destruct bb.
       2:{ (* the counter has passed the end: leave *)
         set (a5 := set_ip (set_ops ac []) (kw + (lbd + ls + 3))).
-        assert (R5 : xrun name code aL gL a5 gct).
+        assert (R5 : xrun prog name code aL gL a5 gct).
         { eapply xrun_trans; [exact Rc|].
-          eapply (xstep_goto name code ac gc i_w _ kw _ (set_ops ac [])); [reflexivity|exact Hw'|exact Hdecw|exact Hxw|].
+          eapply (xstep_goto prog name code ac gc i_w _ kw _ (set_ops ac [])); [reflexivity|exact Hw'|exact Hdecw|exact Hxw|].
           apply goto_fwd. cbn [set_ops a_ip ac upd set_ip]. unfold fin in *. lia. }
         destruct (Hexit a5 gct envL sL ElL HGct ltac:(change (frames gct) with (frames gc); now rewrite Efc) ltac:(cbn; exact Hkd) eq_refl HssL)
           as (a6 & g6 & R6 & Hip6 & HR6 & Ha6 & Hf6 & El6).
@@ -1926,19 +2443,19 @@ Section Sim.
       (* one more iteration: push <while>, run the body *)
       set (a0' := set_ss (upd aL kb []) (S (a_ss aL))).
       set (g0 := push_frame gct LWhile).
-      assert (R0 : xrun name code aL gL a0' g0).
+      assert (R0 : xrun prog name code aL gL a0' g0).
       { eapply xrun_trans; [exact Rc|].
-        eapply (xstep_push name code ac gc i_w _ kw LWhile (set_ops ac [])); [reflexivity|exact Hw'|exact Hdecw|exact Hxw]. }
+        eapply (xstep_push prog name code ac gc i_w _ kw LWhile (set_ops ac [])); [reflexivity|exact Hw'|exact Hdecw|exact Hxw]. }
       assert (HR0 : Rst pins' (push_scope envL) sL a0' g0).
       { split; [apply push_rel; [exact HGct|reflexivity]|]. split; [reflexivity|].
         unfold a0'. cbn [push_scope locals length set_ss a_ss upd set_ip set_ops]. rewrite ElL. cbn [length lL] in *. apply le_n_S. exact HssL. }
       assert (HbL0 : bound_in (x :: B) (push_scope envL)).
-      { intros y. cbn [push_scope locals lookup_scopes assoc]. exact (HbL envL ElL y). }
+      { exact (HbL envL ElL). }
       assert (Hlc0 : lc_ok true (Some 1) kd ks (push_scope envL) (kb + length cb0)).
       { split; [discriminate|]. intros m E. inversion E; subst m. cbn [push_scope locals length]. rewrite ElL.
         fold lbd. fold ks. cbn [lL length]. unfold fin, kd, kj, kp in *. repeat split; lia. }
-      pose proof (Hbody pins' (S lr) true (Some 1) kd ks (S fuel) kb a0' g0 (push_scope envL) sL (x :: B) Hokb HbL0 Hib'
-                    ltac:(fold cb0; fold lbd; unfold fin, kd, kj, kp, ks in *; lia) Hlc0 eq_refl HR0) as H.
+      pose proof (Hbody pins' (S lr) true (Some 1) kd ks (S fuel) kb a0' g0 (push_scope envL) sL (x :: B) ltac:(lia) Hokb HbL0 Hib'
+                    ltac:(fold cb0; fold lbd; unfold fin, kd, kj, kp, ks in *; lia) Hlc0 eq_refl HcbL HR0) as H.
       fold cb0 in H. fold lbd in H. fold ks in H. unfold in_block_.
       destruct (exec_block (S fuel) (push_scope envL) body sL) as [sig env2 s2|f s2|]; [| |exact Logic.I].
       2:{ cbn [post] in H |- *. eapply fail_post_map; [|exact H]. intros (e0 & g' & Hf & Hr & Ho). exists e0, g'.
@@ -1948,7 +2465,7 @@ Section Sim.
       { destruct (locals env2) as [|sc2 l2]; [congruence|]. cbn [tl] in Htl2. subst l2. reflexivity. }
       assert (Epop : locals (pop_scope env2) = lL) by exact Htl2.
       (* after the body: the step, the back edge, the next iteration *)
-      assert (Hnext : forall aB gB, xrun name code a0' g0 aB gB -> a_ip aB = ks -> Rst pins' env2 s2 aB gB ->
+      assert (Hnext : forall aB gB, xrun prog name code a0' g0 aB gB -> a_ip aB = ks -> Rst pins' env2 s2 aB gB ->
                 act_same a0' aB -> tl (frames gB) = F2 :: R ->
                 post pins sl bt ct fin B envL (frames g) aL gL
                   (match eval (S fuel) (pop_scope env2) se s2 with
@@ -1967,18 +2484,17 @@ Section Sim.
         assert (Hlx2 : lookup_scopes x (locals env2) = Some cx) by (apply Hup; exact HlxL).
         (* the step expression: the reference semantics evaluates it outside the loop scope; same result *)
         assert (Huse2 : forall y, In y (used_e se) -> uname y /\ lookup_scopes y (locals env2) <> None).
-        { intros y Hy. destruct (Huse y Hy) as [Hun Hin]. split; [exact Hun|].
-          pose proof (proj2 (HbL envL ElL y) Hin) as Hbd. rewrite ElL in Hbd.
+        { intros y Hy. destruct (Huse y Hy) as [Hun Hin]. split; [exact (bound_in_uname _ _ _ (HbL envL ElL) Hun Hin)|].
+          pose proof (bound_in_look _ _ _ (HbL envL ElL) Hin) as Hbd. rewrite ElL in Hbd.
           destruct (lookup_scopes y lL) as [c0|] eqn:Ey; [|congruence]. rewrite (Hup y c0 Ey). discriminate. }
         assert (Hag : forall y, In y (used_e se) -> agree (pop_scope env2) s2 env2 s2 y).
         { intros y Hy. destruct (Huse2 y Hy) as [Hun Hbd].
-          destruct (Rg_var_ok _ _ _ _ HGB Hun Hbd) as (_ & c0 & v0 & F1 & F2' & _).
-          rewrite (Rg_cap _ _ _ HGB), app_nil_r in F1.
-          destruct (Huse y Hy) as [_ Hin]. pose proof (proj2 (HbL envL ElL y) Hin) as Hbd0. rewrite ElL in Hbd0.
+          destruct (Rg_lookup _ _ _ _ HGB Hun Hbd) as (c0 & c0x & v0 & F1 & _ & _ & F2' & _).
+          destruct (Huse y Hy) as [_ Hin]. pose proof (bound_in_look _ _ _ (HbL envL ElL) Hin) as Hbd0. rewrite ElL in Hbd0.
           destruct (lookup_scopes y lL) as [c1|] eqn:Ey; [|congruence].
           assert (c1 = c0) by (pose proof (Hup y c1 Ey) as H0; congruence). subst c1.
-          exists c0, c0, v0. cbn [pop_scope captured]. rewrite (Rg_cap _ _ _ HGB), !app_nil_r.
-          change (locals (pop_scope env2)) with (tl (locals env2)). rewrite Htl2. auto. }
+          exists c0, c0, v0. split; [apply lookup_app_some; change (locals (pop_scope env2)) with (tl (locals env2)); rewrite Htl2; exact Ey|].
+          split; [exact F2'|]. split; [now apply lookup_app_some|exact F2']. }
         destruct (eval_pure_congr se Hpse (S fuel) (pop_scope env2) s2 env2 s2 Hag) as [Hst_s Es].
         pose proof (expr_run_gen pins' se c (S fuel) ks aB gB env2 s2 Hpse Hlse Huse2 ltac:(lia) Hcs'
                       ltac:(fold ls; unfold fin, kd, kj, kp in *; lia) HipB HopsB HGB) as Hes.
@@ -2048,11 +2564,43 @@ Section Sim.
         rewrite Eg0 in HfB. cbn [skipn] in HfB.
         cbn [Nat.sub] in HRB. rewrite popn_0 in HRB. cbv zeta. rewrite Hstepc.
         apply (Hnext aB gB RB HipB HRB HaB HfB).
-      - destruct H. }
+      - (* return from inside the loop *)
+        destruct rv as [v|]; [|destruct H].
+        destruct H as (env'' & aB & gB & RB & HiB & HoB & HfoB & HGB & HaB).
+        cbn [post]. split.
+        { unfold undeclare. rewrite Epop. cbn [locals lL]. split; [rewrite ElL; reflexivity|discriminate]. }
+        exists env'', aB, gB. split; [eapply xrun_trans; [exact R0|exact RB]|].
+        split; [exact HiB|]. split; [exact HoB|]. split; [exact HfoB|]. split; [eapply Rg_weaken_pin; exact HGB|].
+        destruct HaB as (A1 & A2 & A3). repeat split; assumption. }
     (* ---- put the pieces together *)
     eapply (post_seq pins sl bt ct fin B env (frames g) a g env1 a4 g4); [exact R4|exact Hd2|repeat split|].
     apply Hloop; [exact El1|exact HG4|exact Ef4|exact Hip4|].
     unfold lL, a4. cbn [length upd set_ip set_ops a_ss] in *. exact Hss.
+  Qed.
+
+  (* ================================================================ return e *)
+  Lemma exec_SReturn : forall fuel env e s, Eval.exec (S fuel) env (SReturn (Some e)) s =
+    match eval fuel env e s with
+    | EVal v s => SOk (SigReturn (Some v)) env s
+    | ENoVal s => SFailed (FType 3) s | EFail f s => SFailed f s | EFuel => SFuel end.
+  Proof. reflexivity. Qed.
+
+  Lemma return_correct : forall e, stmt_spec (SReturn (Some e)).
+  Proof.
+    intros e pins lr il sl bt ct fuel k a g env s B Hfu Hok Hb Hit Hend Hlc Hip Hcb HR.
+    destruct fuel as [|fuel]; [exact Logic.I|].
+    cbn [ok_stmt] in Hok. rename Hok into Hoe.
+    cbn [sitems] in *. rewrite app_length, map_length in *. cbn [length] in *.
+    apply items_at_app in Hit as [Hce Hi]. apply items_at_CI in Hce. rewrite map_length in Hi.
+    apply items_at_cons in Hi as [Hi1 _]. cbn [item_instr I] in Hi1.
+    destruct HR as (HG & Hops & Hss).
+    pose proof (rhs_run pins e fuel k a g env s B ltac:(lia) Hoe Hb Hce ltac:(lia) Hip Hcb Hops HG) as He.
+    rewrite exec_SReturn.
+    destruct (eval fuel env e s) as [v s1|s1|f s1|]; cbn [rhs_res] in He; [|exact Logic.I|exact He|exact Logic.I].
+    destruct He as (Hfo & a1 & g1 & R1 & Hip1 & Hops1 & HG1 & Hf1 & Ha1 & Hss1).
+    cbn [post]. split; [apply same_tl_refl; exact (Rg_ne _ _ _ HG)|].
+    exists env, a1, g1.
+    split; [exact R1|]. split; [rewrite Hip1; exact Hi1|]. split; [exact Hops1|]. split; [exact Hfo|]. split; [exact HG1|exact Ha1].
   Qed.
 
   (* ================================================================ all statements, all nesting depths *)
@@ -2074,7 +2622,7 @@ Section Sim.
       apply from_correct. now apply block_of_stmts.
     - apply break_correct.
     - apply continue_correct.
-    - intros e _ pins lr il sl bt ct fuel k a g env s B Hok. discriminate.
+    - intros [e|] _; [apply return_correct|]. intros pins lr il sl bt ct fuel k a g env s B Hok. discriminate.
   Qed.
 
   Theorem block_sim : forall l, block_spec l.
@@ -2093,10 +2641,10 @@ Lemma map_CI_all : forall l, Forall is_CI (map CI l).
 Proof. induction l; cbn [map]; constructor; [exact Logic.I|assumption]. Qed.
 
 Definition ci_spec (c : nat) (st : stmt) : Prop :=
-  forall B lr sl, ok_stmt false B st = true -> Forall is_CI (sitems c lr sl st).
+  forall B lr sl, ok_stmt FT false B st = true -> Forall is_CI (sitems c lr sl st).
 
 Lemma bitems_CI : forall c l, Forall (ci_spec c) l ->
-  forall B lr sl, ok_block false B l = true -> Forall is_CI (bitems c lr sl l).
+  forall B lr sl, ok_block FT false B l = true -> Forall is_CI (bitems c lr sl l).
 Proof.
   intros c. induction l as [|st l IH]; intros HF B lr sl Hok; [constructor|].
   cbn [ok_block] in Hok. apply Bool.andb_true_iff in Hok as [H1 H2]. cbn [bitems].
@@ -2129,10 +2677,10 @@ Proof.
     rewrite sitems_SFrom. cbv zeta. destruct step as [e|]; cbn [step_code]; ci_tac.
   - intros B sl H. discriminate.
   - intros B sl H. discriminate.
-  - intros e _ B lr sl H. discriminate.
+  - intros [e|] _ B lr sl H; [|discriminate]. cbn [sitems]. ci_tac.
 Qed.
 
-Lemma bitems_all_CI : forall c l B lr sl, ok_block false B l = true -> Forall is_CI (bitems c lr sl l).
+Lemma bitems_all_CI : forall c l B lr sl, ok_block FT false B l = true -> Forall is_CI (bitems c lr sl l).
 Proof. intros c l. apply bitems_CI. apply Forall_forall. intros st _. apply sitems_CI. Qed.
 
 Lemma CI_strip : forall its, Forall is_CI its -> map CI (strip its) = its.
@@ -2154,29 +2702,33 @@ Qed.
 Section Top.
 Variable path : str.
 
-Theorem cblock_correct : forall l B, ok_block false B l = true ->
-  forall c st pins name pre post_ a g env s fuel,
+Theorem cblock_correct : forall l B, ok_block FT false B l = true ->
+  forall c st pins prog name pre post_ a g env s fuel,
   let mid := strip (fst (cblockT path c None l st)) in
   let code := pre ++ mid ++ post_ in
   let fin := length pre + length mid in
-  post_ <> [] -> small (c + length code + 4) ->
+  post_ <> [] -> small (c + 2 * length code + 8) ->
   a_ip a = length pre -> Rst pins env s a g -> bound_in B env ->
+  (forall fuel', fuel' < fuel -> call_ok prog fuel') ->
   match exec_block fuel env l s with
-  | SOk SigNormal env' s' => exists n a' g',
-        xsteps name code n (Running a g) = Running a' g' /\ a_ip a' = fin /\
+  | SOk SigNormal env' s' => exists a' g',
+        xrun prog name code a g a' g' /\ a_ip a' = fin /\
         Rst pins env' s' a' g' /\ act_same a a' /\ same_tl env env' /\ bound_in (after_l B l) env' /\
         tl (frames g') = tl (frames g)
+  | SOk (SigReturn (Some v)) env' s' => exists env'' a' g',
+        xrun prog name code a g a' g' /\ nth_error code (a_ip a') = Some (mkI OP_RET []) /\
+        a_ops a' = [inj v] /\ first_order v /\ Rg pins env'' s' g' /\ act_same a a'
   | SOk _ _ _ => False
-  | SFailed f s' => fail_post f (exists n e g',
-        xsteps name code n (Running a g) = Failed e g' /\ err_rel_s f e /\ out g' = rout s')
+  | SFailed f s' => fail_post f (exists e g',
+        xfail prog name code a g e g' /\ err_rel_s f e /\ out g' = rout s')
   | SFuel => True
   end.
 Proof.
-  intros l B Hok c st pins name pre post_ a g env s fuel mid code fin Hpost Hsm Hip HR Hb.
+  intros l B Hok c st pins prog name pre post_ a g env s fuel mid code fin Hpost Hsm Hip HR Hb Hcall.
   pose proof (bitems_all_CI c l B (lreg st) None Hok) as HCI.
-  assert (Emid : mid = strip (bitems c (lreg st) None l)) by (unfold mid; now rewrite (cblockT_ok path c l false B None st Hok)).
+  assert (Emid : mid = strip (bitems c (lreg st) None l)) by (unfold mid; now rewrite (cblockT_ok path c l FT false B None st Hok)).
   assert (Elen : length mid = length (bitems c (lreg st) None l)) by (rewrite Emid; now apply strip_CI_length).
-  pose proof (block_sim name code c Hsm l pins (lreg st) false None 0 0 fuel (length pre) a g env s B Hok Hb) as H.
+  pose proof (block_sim prog name code c Hsm fuel l pins (lreg st) false None 0 0 fuel (length pre) a g env s B (le_n _) Hok Hb) as H.
   rewrite <- Elen in H. fold fin in H.
   assert (Hit : items_at code 0 0 (length pre) (bitems c (lreg st) None l)).
   { apply items_at_strip; [exact HCI|]. rewrite <- Emid. apply code_at_embed. }
@@ -2185,11 +2737,11 @@ Proof.
   specialize (H Hit Hend Hlc Hip HR).
   destruct (exec_block fuel env l s) as [sig env' s'|f s'|]; [| |exact Logic.I].
   - cbn [post] in H. destruct H as [Hd H]. destruct sig as [| | |rv].
-    + destruct H as (HB' & a' & g' & [n R] & Hip' & HR' & Ha). exists n, a', g'. split; [exact R|]. split; [exact Hip'|]. split; [exact HR'|]. split; [exact (proj1 Ha)|]. split; [exact Hd|]. split; [exact HB'|exact (proj2 Ha)].
+    + destruct H as (HB' & a' & g' & R & Hip' & HR' & Ha). exists a', g'. split; [exact R|]. split; [exact Hip'|]. split; [exact HR'|]. split; [exact (proj1 Ha)|]. split; [exact Hd|]. split; [exact HB'|exact (proj2 Ha)].
     + destruct H as (m & ? & ? & E & _). discriminate.
     + destruct H as (m & ? & ? & E & _). discriminate.
-    + exact H.
-  - cbn [post] in H. eapply fail_post_map; [|exact H]. intros (e & g' & [n R] & Hr & Ho). exists n, e, g'. auto.
+    + destruct rv as [v|]; exact H.
+  - cbn [post] in H. eapply fail_post_map; [|exact H]. intros (e & g' & R & Hr & Ho). exists e, g'. auto.
 Qed.
 End Top.
 
@@ -2199,17 +2751,19 @@ Arguments Rst : clear implicits.
 
 (* ================================================================ whole modules: Eval.run vs Model.execute *)
 Lemma Rst_init : forall name,
-  Rst [] [] {| locals := [[]]; captured := []; cur := None |} {| store := []; rout := [] |}
+  Rst [] [] [] [] (fun f => f) None no_pins {| locals := [[]]; captured := []; cur := None |} {| store := []; rout := [] |}
       (act0 name [] None) (push_frame g0 (LFun name)).
 Proof.
   intros name. split; [|split; [reflexivity|cbn; lia]].
   constructor; cbn [locals captured store rout cells frames out push_frame with_frames g0 length skipn]; try reflexivity.
-  - cbn [Rfr]. split; [|reflexivity]. intros x Hx. cbn. exact Logic.I.
+  - cbn [StmtRel.Rfr]. split; [|reflexivity]. intros x Hx. cbn. exact Logic.I.
   - intros c1 c1' c2 c2' H1. cbn in H1. destruct H1 as [(x & _ & E & _)|[]]. discriminate.
   - intros x Hx. cbn in Hx. congruence.
   - cbn. split; [intros y Hy; congruence|exact Logic.I].
-  - constructor.
+  - split; intros ? ? [].
   - repeat constructor.
+  - split; [intros cy w (f & c0 & cenv & cbf & E & _); discriminate|intros c0 v (f & c0' & cenv & cbf & ps & body & E & _); discriminate].
+  - intros f c0 c0' cenv cbf E. discriminate.
 Qed.
 
 Section Program.
@@ -2224,9 +2778,9 @@ Qed.
 Definition ret_mod : instr := {| op := OP_RET_MOD; args := [] |}.
 Definition module_code (p : source) : list instr := strip (bitems 0 0 None p) ++ [ret_mod].
 
-Lemma cprogram_frag : forall p, ok_block false [] p = true -> cprogram path p = [(s_module_fn path, module_code p)].
+Lemma cprogram_frag : forall p, ok_block [] false [] p = true -> cprogram path p = [(s_module_fn path, module_code p)].
 Proof.
-  intros p H. unfold cprogram. rewrite cblock0_eq, (cblockT_ok path 0 p false [] None _ H). reflexivity.
+  intros p H. unfold cprogram. rewrite cblock0_eq, (cblockT_ok path 0 p [] false [] None _ H). reflexivity.
 Qed.
 
 Definition vm_outcome_ok (r : routcome) (o : outcome) : Prop :=
@@ -2240,49 +2794,83 @@ Definition vm_outcome_ok (r : routcome) (o : outcome) : Prop :=
    prints and ends the same way (done with an empty call stack / the related run-time error after the same
    output prefix) *)
 (* FType 13 = a `from` loop whose counter / bound is not an integer (rejected by the type checker): no claim *)
-Definition no_claim (r : routcome) : Prop := match r with ROFail f => f = FType 13%N | _ => False end.
+Definition no_claim (r : routcome) : Prop :=
+  match r with ROFail f => f = FType 13%N \/ f = FType 3%N | _ => False end.
 
-Theorem module_correct : forall p, ok_block false [] p = true -> small (length (module_code p) + 4) ->
+Theorem module_correct : forall p, ok_block [] false [] p = true -> small (2 * length (module_code p) + 8) ->
   forall fuel, snd (run fuel p) <> ROFuel -> no_claim (snd (run fuel p)) \/
   exists fuel', fst (fst (execute fuel' (cprogram path p) (s_module_fn path))) = fst (run fuel p) /\
                 vm_outcome_ok (snd (run fuel p)) (snd (fst (execute fuel' (cprogram path p) (s_module_fn path)))).
 Proof.
   intros p Hok Hsm fuel Hnf.
   set (name := s_module_fn path).
-  pose proof (cblock_correct [] path p [] Hok 0 {| fid := 0; lreg := 0; fbuf := [] |} [] name [] [ret_mod]
+  set (P := cprogram path p).
+  pose proof (cblock_correct [] [] [] [] (fun f => f) None ltac:(intros f []) ltac:(intros f []) ltac:(intros f; cbn; split; [intros []|congruence])
+                path p [] Hok 0 {| fid := 0; lreg := 0; fbuf := [] |} no_pins P name [] [ret_mod]
                 (act0 name [] None) (push_frame g0 (LFun name))
                 {| locals := [[]]; captured := []; cur := None |} {| store := []; rout := [] |} fuel) as H.
-  cbv zeta in H. rewrite (cblockT_ok path 0 p false [] None _ Hok) in H. cbn [fst app length Nat.add lreg] in H.
+  cbv zeta in H. rewrite (cblockT_ok path 0 p [] false [] None _ Hok) in H. cbn [fst app length Nat.add lreg] in H.
   fold (module_code p) in H.
-  specialize (H ltac:(discriminate) Hsm eq_refl (Rst_init name) ltac:(intros x; cbn; split; [congruence|intros []])).
+  specialize (H ltac:(discriminate) Hsm eq_refl (Rst_init name) ltac:(split; [intros x; cbn; split; [congruence|intros [[]|[]]]|intros x []])
+                ltac:(intros fuel' _ f ps body c0 c0' cenv cbf vs s0 g1 E; discriminate)).
   unfold run in *.
-  assert (Ecode : assoc name (cprogram path p) = Some (module_code p)).
-  { rewrite (cprogram_frag p Hok). cbn [assoc]. fold name. now rewrite str_eqb_refl. }
+  assert (Ecode : assoc name P = Some (module_code p)).
+  { unfold P. rewrite (cprogram_frag p Hok). cbn [assoc]. fold name. now rewrite str_eqb_refl. }
   destruct (exec_block fuel {| locals := [[]]; captured := []; cur := None |} p {| store := []; rout := [] |})
     as [sig env' s'|f s'|]; [| |cbn in Hnf; congruence].
-  - destruct sig; try contradiction.
-    destruct H as (n & a' & g' & Hn & Hip & (HG & Hops & Hss) & Ha & Hd).
+  - destruct sig as [| | |[v|]]; try contradiction.
+    2:{ (* a `return` at module level ends the module *)
+      destruct H as (env'' & a' & g' & Hn & Hi & Hops & Hfo & HG & Ha).
+      pose proof (Rg_drop _ _ _ _ _ _ _ _ _ HG) as Hdrop.
+      destruct (xrun_loop _ _ _ _ _ _ _ Hn) as (N & n & Hloop).
+      set (f0 := Nat.max N (n + 1)).
+      set (gf := with_frames (add_trace g' (name, N.of_nat (a_ip a'), op (mkI OP_RET []), N.of_nat (length (frames g')),
+                                            N.of_nat (length [inj v]))) []).
+      assert (Hrun : run_fn (S f0) P name [] None g0 = RDone (Some (inj v)) gf).
+      { unfold run_fn. rewrite run_fn_gen_S, Ecode.
+        change (run_fn_gen (fun _ _ _ => true) f0 P) with (run_fn f0 P).
+        change (fun (_ : str) (_ : nat) (_ : bool) => true) with rcT.
+        replace f0 with (n + (f0 - n)) at 2 by (unfold f0; lia).
+        rewrite (Hloop f0 ltac:(unfold f0; lia)).
+        destruct (f0 - n) as [|k] eqn:Ek; [unfold f0 in Ek; lia|].
+        cbn [loop]. rewrite Hi. unfold Model.exec. change (decode (mkI OP_RET [])) with (DOk DRet). cbn [exec_d].
+        rewrite Hops. cbn [add_trace frames]. rewrite Hdrop. reflexivity. }
+      right. exists (S f0). unfold execute. fold P. rewrite Hrun. cbn [fst snd gf with_frames frames out add_trace].
+      split; [exact (Rg_out _ _ _ _ _ _ _ _ _ HG)|exact Logic.I]. }
+    destruct H as (a' & g' & Hn & Hip & (HG & Hops & Hss) & Ha & Hd).
     destruct Hd as (Hd & HB' & _). pose proof (same_tl_length {| locals := [[]]; captured := []; cur := None |} env' ltac:(cbn; discriminate) Hd) as Hl. cbn [locals length] in Hl.
-    pose proof (Rg_base _ _ _ _ HG) as Hbase. rewrite Hl in Hbase.
-    pose proof (Rg_fr _ _ _ _ HG) as Hfr.
+    pose proof (Rg_base _ _ _ _ _ _ _ _ _ HG) as Hbase. rewrite Hl in Hbase.
+    pose proof (Rg_fr _ _ _ _ _ _ _ _ _ HG) as Hfr.
     destruct (locals env') as [|sc [|sc' l']]; cbn [length] in Hl; try discriminate.
     destruct g' as [cs' fs' o' tr']. cbn [frames out] in *.
     destruct fs' as [|f fs]; [cbn in Hfr; contradiction|]. cbn [skipn] in Hbase. subst fs.
-    cbn [Rfr] in Hfr. destruct Hfr as [_ Hsp].
-    assert (Hrun : exists tr'', run_fn (S (n + 1)) (cprogram path p) name [] None g0
+    cbn [StmtRel.Rfr] in Hfr. destruct Hfr as [_ Hsp].
+    destruct (xrun_loop _ _ _ _ _ _ _ Hn) as (N & n & Hloop).
+    set (f0 := Nat.max N (n + 1)).
+    assert (Hrun : exists tr'', run_fn (S f0) P name [] None g0
                    = RDone (Some VModule) {| cells := cs'; frames := []; out := o'; trace := tr'' |}).
     { eexists. unfold run_fn. rewrite run_fn_gen_S, Ecode.
-      rewrite (xloop_running name (module_code p) _ _ n _ _ _ _ Hn 1).
+      change (run_fn_gen (fun _ _ _ => true) f0 P) with (run_fn f0 P).
+      change (fun (_ : str) (_ : nat) (_ : bool) => true) with rcT.
+      replace f0 with (n + (f0 - n)) at 2 by (unfold f0; lia).
+      rewrite (Hloop f0 ltac:(unfold f0; lia)).
+      destruct (f0 - n) as [|k] eqn:Ek; [unfold f0 in Ek; lia|].
       cbn [loop]. rewrite Hip. unfold module_code at 1. rewrite nth_error_app2 by lia. rewrite Nat.sub_diag.
       cbn [nth_error]. unfold Model.exec. change (decode ret_mod) with (DOk DRetMod). cbn [exec_d].
       rewrite Hops. cbn [add_trace frames with_frames drop_to_function cells out trace]. rewrite Hsp. reflexivity. }
     destruct Hrun as [tr'' Hrun]. right.
-    exists (S (n + 1)). unfold execute. rewrite Hrun. cbn [fst snd frames out].
-    split; [exact (Rg_out _ _ _ _ HG)|exact Logic.I].
-  - apply fail_post_inv in H. destruct H as [->|H]; [left; reflexivity|right].
-    destruct H as (n & e & g' & Hn & Hr & Ho).
-    exists (S (n + 0)). unfold execute, run_fn. rewrite run_fn_gen_S, Ecode.
-    rewrite (xloop_failed name (module_code p) _ _ n _ _ _ _ Hn 0).
+    exists (S f0). unfold execute. fold P. rewrite Hrun. cbn [fst snd frames out].
+    split; [exact (Rg_out _ _ _ _ _ _ _ _ _ HG)|exact Logic.I].
+  - apply fail_post_inv in H. destruct H as [[->| ->]|H]; [left; left; reflexivity|left; right; reflexivity|right].
+    destruct H as (e & g' & Hn & Hr & Ho).
+    destruct (xfail_loop _ _ _ _ _ _ _ Hn) as (N & n & Hloop).
+    assert (Hrun : run_fn (S (Nat.max N n)) P name [] None g0 = RFail e g').
+    { unfold run_fn. rewrite run_fn_gen_S, Ecode.
+      change (run_fn_gen (fun _ _ _ => true) (Nat.max N n) P) with (run_fn (Nat.max N n) P).
+      change (fun (_ : str) (_ : nat) (_ : bool) => true) with rcT.
+      replace (Nat.max N n) with (n + (Nat.max N n - n)) at 2 by lia.
+      apply (Hloop (Nat.max N n)). lia. }
+    exists (S (Nat.max N n)). unfold execute. fold P. rewrite Hrun.
     cbn [fst snd]. split; [exact Ho|exact Hr].
 Qed.
 End Program.
